@@ -25,6 +25,9 @@ CONSTANTS N,          \* threads 1..N
           LTW, LTR,   \* lock_type tables as records [zlo, zhi, add, sww, coa, cour]
           TaFix,      \* mu_wait.c: the stores that end mu_try_acquire_after_timeout_or_cancel keep MU_WRITER_WAITING cleared (TRUE, after the
                       \* fix) or put back the word loaded before the acquiring CAS, resurrecting the bit (FALSE: known defect 6.7)
+          TaWoke,     \* mu_wait.c: a thread spinning in mu_try_acquire_after_timeout_or_cancel that finds it has been woken stops honouring
+                      \* MU_LONG_WAIT (TRUE, after the fix), or keeps honouring it: as designated waker it then spins for ever while the long
+                      \* waiter sleeps (FALSE: defect 6.9)
           GenFix,     \* cv.c wake_waiters transfers to the mutex queue only waiters that wait with that nsync_mu itself (TRUE, after the fix) or
                       \* every waiter struct behind the first one, including generic-lock waiters (cv_mu = NULL), which re-acquire through
                       \* their own lock routine and never clear MU_DESIG_WAKER (FALSE: defect 6.8)
@@ -337,15 +340,19 @@ Xfer(tw, wl, cm, fca) ==
 
   \* ------------------------------------------------------------------ mu_try_acquire_after_timeout_or_cancel (mu_wait.c:66-112)
   procedure try_acquire(lt, rc)
-    variables old = 0;
+    variables old = 0, zl = WZLO;                                                \* zl: zero_to_acquire (low bits); loses MU_LONG_WAIT once woken
   {
    ta_1_ld:  old := word;                                                        \* mu_wait.c:70 / 89
-             if ((AndZ(old, WZLO, WZHI) + (old & SPIN)) = 0) { goto ta_2_cas; }
+             if ((AndZ(old, zl, WZHI) + (old & SPIN)) = 0) { goto ta_2_cas; }
+             else if (TaWoke) { goto ta_4_ld; }
              else if ((old & (WRW + SPIN)) = 0) { goto ta_3_cas; }
              else { goto ta_d; };
    ta_2_cas: if (word = old) { word := Clr((old + LTW.add) + SPIN, LTW.coa); goto ta_5_ld; }   \* mu_wait.c:73 ATM_CAS_ACQ
+             else if (TaWoke) { goto ta_4_ld; }
              else if ((old & (WRW + SPIN)) = 0) { goto ta_3_cas; }
              else { goto ta_d; };
+   ta_4_ld:  if (waiting[W(self)] = 0) { zl := Clr(WZLO, LONGW); };               \* the fix of 6.9: ATM_LOAD_ACQ (&w->nw.waiting) in the loop
+             if ((old & (WRW + SPIN)) = 0) { goto ta_3_cas; } else { goto ta_d; };
    ta_3_cas: if (word = old) { word := old | WRW; };                             \* mu_wait.c:85 ATM_CAS_RELACQ (result ignored)
    ta_d:     goto ta_1_ld;                                                       \* mu_wait.c:88
    ta_5_ld:  if (waiting[W(self)] = 0) { goto ta_9_st; };                           \* mu_wait.c:96
@@ -634,29 +641,29 @@ Xfer(tw, wl, cm, fca) ==
   }
 } *)
 \* BEGIN TRANSLATION
-\* Procedure variable old of procedure lock_slow at line 186 col 15 changed to old_
-\* Procedure variable old of procedure unlock_slow at line 225 col 15 changed to old_u
-\* Procedure variable rmq of procedure unlock_slow at line 225 col 101 changed to rmq_
-\* Procedure variable old of procedure mu_lock at line 286 col 15 changed to old_m
-\* Procedure variable old of procedure mu_trylock at line 299 col 15 changed to old_mu
-\* Procedure variable old of procedure mu_unlock at line 310 col 15 changed to old_mu_
-\* Procedure variable old of procedure try_acquire at line 340 col 15 changed to old_t
-\* Procedure variable old of procedure mu_wait at line 367 col 15 changed to old_mu_w
-\* Procedure variable lt of procedure mu_wait at line 367 col 24 changed to lt_
-\* Procedure variable out of procedure mu_wait at line 367 col 46 changed to out_
-\* Procedure variable rc of procedure mu_wait at line 367 col 55 changed to rc_
-\* Procedure variable so of procedure mu_wait at line 367 col 86 changed to so_
-\* Procedure variable old of procedure cv_wake at line 438 col 15 changed to old_c
-\* Procedure variable old of procedure cv_wait at line 470 col 15 changed to old_cv
-\* Procedure variable lt of procedure cv_wait at line 470 col 24 changed to lt_c
-\* Procedure variable rc of procedure cv_wait at line 470 col 32 changed to rc_c
-\* Parameter lt of procedure lock_slow at line 185 col 23 changed to lt_l
-\* Parameter lt of procedure unlock_slow at line 224 col 25 changed to lt_u
-\* Parameter lt of procedure mu_lock at line 285 col 21 changed to lt_m
-\* Parameter lt of procedure mu_trylock at line 298 col 24 changed to lt_mu
-\* Parameter lt of procedure mu_unlock at line 309 col 23 changed to lt_mu_
-\* Parameter dl of procedure mu_wait at line 366 col 24 changed to dl_
-\* Parameter cn of procedure mu_wait at line 366 col 28 changed to cn_
+\* Procedure variable old of procedure lock_slow at line 189 col 15 changed to old_
+\* Procedure variable old of procedure unlock_slow at line 228 col 15 changed to old_u
+\* Procedure variable rmq of procedure unlock_slow at line 228 col 101 changed to rmq_
+\* Procedure variable old of procedure mu_lock at line 289 col 15 changed to old_m
+\* Procedure variable old of procedure mu_trylock at line 302 col 15 changed to old_mu
+\* Procedure variable old of procedure mu_unlock at line 313 col 15 changed to old_mu_
+\* Procedure variable old of procedure try_acquire at line 343 col 15 changed to old_t
+\* Procedure variable old of procedure mu_wait at line 374 col 15 changed to old_mu_w
+\* Procedure variable lt of procedure mu_wait at line 374 col 24 changed to lt_
+\* Procedure variable out of procedure mu_wait at line 374 col 46 changed to out_
+\* Procedure variable rc of procedure mu_wait at line 374 col 55 changed to rc_
+\* Procedure variable so of procedure mu_wait at line 374 col 86 changed to so_
+\* Procedure variable old of procedure cv_wake at line 445 col 15 changed to old_c
+\* Procedure variable old of procedure cv_wait at line 477 col 15 changed to old_cv
+\* Procedure variable lt of procedure cv_wait at line 477 col 24 changed to lt_c
+\* Procedure variable rc of procedure cv_wait at line 477 col 32 changed to rc_c
+\* Parameter lt of procedure lock_slow at line 188 col 23 changed to lt_l
+\* Parameter lt of procedure unlock_slow at line 227 col 25 changed to lt_u
+\* Parameter lt of procedure mu_lock at line 288 col 21 changed to lt_m
+\* Parameter lt of procedure mu_trylock at line 301 col 24 changed to lt_mu
+\* Parameter lt of procedure mu_unlock at line 312 col 23 changed to lt_mu_
+\* Parameter dl of procedure mu_wait at line 373 col 24 changed to dl_
+\* Parameter cn of procedure mu_wait at line 373 col 28 changed to cn_
 CONSTANT defaultInitValue
 VARIABLES pc, word, queue, cvword, cvq, waiting, rmc, cvmu, wl, wc, sc, nww, 
           nwsem, nww2, nreg2, sem, data, now, note, nreg, held, ret, sres, 
@@ -672,10 +679,10 @@ ThreadOf(x) == IF x < 0 THEN -x ELSE CHOOSE u \in Threads : mw[u] = x
 
 VARIABLES lt_l, clear, old_, zlo, zhi, wcnt, lw, lt_u, old_u, tc, nwl, wtrs, 
           wake, wty, sor, cor, rmq_, late, lt_m, old_m, lt_mu, old_mu, lt_mu_, 
-          ww, old_mu_, sdl, scn, lt, rc, old_t, c, dl_, cn_, old_mu_w, lt_, 
-          first, out_, rc_, hadw, ata, so_, havel, tw, allr, omw, fca, sorw, 
-          all, old_c, tws, alr, rmq, dl, cn, gen, old_cv, lt_c, rc_c, so, out, 
-          ndl, wcn, old, wq, still2, cvr, dw, k, cdw, ck
+          ww, old_mu_, sdl, scn, lt, rc, old_t, zl, c, dl_, cn_, old_mu_w, 
+          lt_, first, out_, rc_, hadw, ata, so_, havel, tw, allr, omw, fca, 
+          sorw, all, old_c, tws, alr, rmq, dl, cn, gen, old_cv, lt_c, rc_c, 
+          so, out, ndl, wcn, old, wq, still2, cvr, dw, k, cdw, ck
 
 vars == << pc, word, queue, cvword, cvq, waiting, rmc, cvmu, wl, wc, sc, nww, 
            nwsem, nww2, nreg2, sem, data, now, note, nreg, held, ret, sres, 
@@ -683,7 +690,7 @@ vars == << pc, word, queue, cvword, cvq, waiting, rmc, cvmu, wl, wc, sc, nww,
            nwalive, taint3, stack, lt_l, clear, old_, zlo, zhi, wcnt, lw, 
            lt_u, old_u, tc, nwl, wtrs, wake, wty, sor, cor, rmq_, late, lt_m, 
            old_m, lt_mu, old_mu, lt_mu_, ww, old_mu_, sdl, scn, lt, rc, old_t, 
-           c, dl_, cn_, old_mu_w, lt_, first, out_, rc_, hadw, ata, so_, 
+           zl, c, dl_, cn_, old_mu_w, lt_, first, out_, rc_, hadw, ata, so_, 
            havel, tw, allr, omw, fca, sorw, all, old_c, tws, alr, rmq, dl, cn, 
            gen, old_cv, lt_c, rc_c, so, out, ndl, wcn, old, wq, still2, cvr, 
            dw, k, cdw, ck >>
@@ -762,6 +769,7 @@ Init == (* Global variables *)
         /\ lt = [ self \in ProcSet |-> defaultInitValue]
         /\ rc = [ self \in ProcSet |-> defaultInitValue]
         /\ old_t = [ self \in ProcSet |-> 0]
+        /\ zl = [ self \in ProcSet |-> WZLO]
         (* Procedure mu_wait *)
         /\ c = [ self \in ProcSet |-> defaultInitValue]
         /\ dl_ = [ self \in ProcSet |-> defaultInitValue]
@@ -832,11 +840,11 @@ ls_1_ld(self) == /\ pc[self] = "ls_1_ld"
                                  lt_u, old_u, tc, nwl, wtrs, wake, wty, sor, 
                                  cor, rmq_, late, lt_m, old_m, lt_mu, old_mu, 
                                  lt_mu_, ww, old_mu_, sdl, scn, lt, rc, old_t, 
-                                 c, dl_, cn_, old_mu_w, lt_, first, out_, rc_, 
-                                 hadw, ata, so_, havel, tw, allr, omw, fca, 
-                                 sorw, all, old_c, tws, alr, rmq, dl, cn, gen, 
-                                 old_cv, lt_c, rc_c, so, out, ndl, wcn, old, 
-                                 wq, still2, cvr, dw, k, cdw, ck >>
+                                 zl, c, dl_, cn_, old_mu_w, lt_, first, out_, 
+                                 rc_, hadw, ata, so_, havel, tw, allr, omw, 
+                                 fca, sorw, all, old_c, tws, alr, rmq, dl, cn, 
+                                 gen, old_cv, lt_c, rc_c, so, out, ndl, wcn, 
+                                 old, wq, still2, cvr, dw, k, cdw, ck >>
 
 ls_d(self) == /\ pc[self] = "ls_d"
               /\ pc' = [pc EXCEPT ![self] = "ls_1_ld"]
@@ -848,11 +856,11 @@ ls_d(self) == /\ pc[self] = "ls_d"
                               zhi, wcnt, lw, lt_u, old_u, tc, nwl, wtrs, wake, 
                               wty, sor, cor, rmq_, late, lt_m, old_m, lt_mu, 
                               old_mu, lt_mu_, ww, old_mu_, sdl, scn, lt, rc, 
-                              old_t, c, dl_, cn_, old_mu_w, lt_, first, out_, 
-                              rc_, hadw, ata, so_, havel, tw, allr, omw, fca, 
-                              sorw, all, old_c, tws, alr, rmq, dl, cn, gen, 
-                              old_cv, lt_c, rc_c, so, out, ndl, wcn, old, wq, 
-                              still2, cvr, dw, k, cdw, ck >>
+                              old_t, zl, c, dl_, cn_, old_mu_w, lt_, first, 
+                              out_, rc_, hadw, ata, so_, havel, tw, allr, omw, 
+                              fca, sorw, all, old_c, tws, alr, rmq, dl, cn, 
+                              gen, old_cv, lt_c, rc_c, so, out, ndl, wcn, old, 
+                              wq, still2, cvr, dw, k, cdw, ck >>
 
 ls_2_cas(self) == /\ pc[self] = "ls_2_cas"
                   /\ IF word = old_[self]
@@ -878,12 +886,12 @@ ls_2_cas(self) == /\ pc[self] = "ls_2_cas"
                                   nwalive, taint3, lt_u, old_u, tc, nwl, wtrs, 
                                   wake, wty, sor, cor, rmq_, late, lt_m, old_m, 
                                   lt_mu, old_mu, lt_mu_, ww, old_mu_, sdl, scn, 
-                                  lt, rc, old_t, c, dl_, cn_, old_mu_w, lt_, 
-                                  first, out_, rc_, hadw, ata, so_, havel, tw, 
-                                  allr, omw, fca, sorw, all, old_c, tws, alr, 
-                                  rmq, dl, cn, gen, old_cv, lt_c, rc_c, so, 
-                                  out, ndl, wcn, old, wq, still2, cvr, dw, k, 
-                                  cdw, ck >>
+                                  lt, rc, old_t, zl, c, dl_, cn_, old_mu_w, 
+                                  lt_, first, out_, rc_, hadw, ata, so_, havel, 
+                                  tw, allr, omw, fca, sorw, all, old_c, tws, 
+                                  alr, rmq, dl, cn, gen, old_cv, lt_c, rc_c, 
+                                  so, out, ndl, wcn, old, wq, still2, cvr, dw, 
+                                  k, cdw, ck >>
 
 ls_3_cas(self) == /\ pc[self] = "ls_3_cas"
                   /\ IF word = old_[self]
@@ -899,7 +907,7 @@ ls_3_cas(self) == /\ pc[self] = "ls_3_cas"
                                   clear, old_, zlo, zhi, wcnt, lw, lt_u, old_u, 
                                   tc, nwl, wtrs, wake, wty, sor, cor, rmq_, 
                                   late, lt_m, old_m, lt_mu, old_mu, lt_mu_, ww, 
-                                  old_mu_, sdl, scn, lt, rc, old_t, c, dl_, 
+                                  old_mu_, sdl, scn, lt, rc, old_t, zl, c, dl_, 
                                   cn_, old_mu_w, lt_, first, out_, rc_, hadw, 
                                   ata, so_, havel, tw, allr, omw, fca, sorw, 
                                   all, old_c, tws, alr, rmq, dl, cn, gen, 
@@ -918,7 +926,7 @@ ls_4_st(self) == /\ pc[self] = "ls_4_st"
                                  zlo, zhi, wcnt, lw, lt_u, old_u, tc, nwl, 
                                  wtrs, wake, wty, sor, cor, rmq_, late, lt_m, 
                                  old_m, lt_mu, old_mu, lt_mu_, ww, old_mu_, 
-                                 sdl, scn, lt, rc, old_t, c, dl_, cn_, 
+                                 sdl, scn, lt, rc, old_t, zl, c, dl_, cn_, 
                                  old_mu_w, lt_, first, out_, rc_, hadw, ata, 
                                  so_, havel, tw, allr, omw, fca, sorw, all, 
                                  old_c, tws, alr, rmq, dl, cn, gen, old_cv, 
@@ -936,12 +944,12 @@ ls_5_ld(self) == /\ pc[self] = "ls_5_ld"
                                  lt_l, clear, zlo, zhi, wcnt, lw, lt_u, old_u, 
                                  tc, nwl, wtrs, wake, wty, sor, cor, rmq_, 
                                  late, lt_m, old_m, lt_mu, old_mu, lt_mu_, ww, 
-                                 old_mu_, sdl, scn, lt, rc, old_t, c, dl_, cn_, 
-                                 old_mu_w, lt_, first, out_, rc_, hadw, ata, 
-                                 so_, havel, tw, allr, omw, fca, sorw, all, 
-                                 old_c, tws, alr, rmq, dl, cn, gen, old_cv, 
-                                 lt_c, rc_c, so, out, ndl, wcn, old, wq, 
-                                 still2, cvr, dw, k, cdw, ck >>
+                                 old_mu_, sdl, scn, lt, rc, old_t, zl, c, dl_, 
+                                 cn_, old_mu_w, lt_, first, out_, rc_, hadw, 
+                                 ata, so_, havel, tw, allr, omw, fca, sorw, 
+                                 all, old_c, tws, alr, rmq, dl, cn, gen, 
+                                 old_cv, lt_c, rc_c, so, out, ndl, wcn, old, 
+                                 wq, still2, cvr, dw, k, cdw, ck >>
 
 ls_6_cas(self) == /\ pc[self] = "ls_6_cas"
                   /\ IF word = old_[self]
@@ -957,7 +965,7 @@ ls_6_cas(self) == /\ pc[self] = "ls_6_cas"
                                   clear, old_, zlo, zhi, wcnt, lw, lt_u, old_u, 
                                   tc, nwl, wtrs, wake, wty, sor, cor, rmq_, 
                                   late, lt_m, old_m, lt_mu, old_mu, lt_mu_, ww, 
-                                  old_mu_, sdl, scn, lt, rc, old_t, c, dl_, 
+                                  old_mu_, sdl, scn, lt, rc, old_t, zl, c, dl_, 
                                   cn_, old_mu_w, lt_, first, out_, rc_, hadw, 
                                   ata, so_, havel, tw, allr, omw, fca, sorw, 
                                   all, old_c, tws, alr, rmq, dl, cn, gen, 
@@ -980,7 +988,7 @@ ls_7_ld(self) == /\ pc[self] = "ls_7_ld"
                                  lt_l, old_, zlo, zhi, lt_u, old_u, tc, nwl, 
                                  wtrs, wake, wty, sor, cor, rmq_, late, lt_m, 
                                  old_m, lt_mu, old_mu, lt_mu_, ww, old_mu_, 
-                                 sdl, scn, lt, rc, old_t, c, dl_, cn_, 
+                                 sdl, scn, lt, rc, old_t, zl, c, dl_, cn_, 
                                  old_mu_w, lt_, first, out_, rc_, hadw, ata, 
                                  so_, havel, tw, allr, omw, fca, sorw, all, 
                                  old_c, tws, alr, rmq, dl, cn, gen, old_cv, 
@@ -1000,7 +1008,7 @@ ls_8_p(self) == /\ pc[self] = "ls_8_p"
                                 zhi, wcnt, lw, lt_u, old_u, tc, nwl, wtrs, 
                                 wake, wty, sor, cor, rmq_, late, lt_m, old_m, 
                                 lt_mu, old_mu, lt_mu_, ww, old_mu_, sdl, scn, 
-                                lt, rc, old_t, c, dl_, cn_, old_mu_w, lt_, 
+                                lt, rc, old_t, zl, c, dl_, cn_, old_mu_w, lt_, 
                                 first, out_, rc_, hadw, ata, so_, havel, tw, 
                                 allr, omw, fca, sorw, all, old_c, tws, alr, 
                                 rmq, dl, cn, gen, old_cv, lt_c, rc_c, so, out, 
@@ -1027,12 +1035,12 @@ us_1_ld(self) == /\ pc[self] = "us_1_ld"
                                  lt_l, clear, old_, zlo, zhi, wcnt, lw, lt_u, 
                                  nwl, wtrs, wake, wty, sor, cor, rmq_, late, 
                                  lt_m, old_m, lt_mu, old_mu, lt_mu_, ww, 
-                                 old_mu_, sdl, scn, lt, rc, old_t, c, dl_, cn_, 
-                                 old_mu_w, lt_, first, out_, rc_, hadw, ata, 
-                                 so_, havel, tw, allr, omw, fca, sorw, all, 
-                                 old_c, tws, alr, rmq, dl, cn, gen, old_cv, 
-                                 lt_c, rc_c, so, out, ndl, wcn, old, wq, 
-                                 still2, cvr, dw, k, cdw, ck >>
+                                 old_mu_, sdl, scn, lt, rc, old_t, zl, c, dl_, 
+                                 cn_, old_mu_w, lt_, first, out_, rc_, hadw, 
+                                 ata, so_, havel, tw, allr, omw, fca, sorw, 
+                                 all, old_c, tws, alr, rmq, dl, cn, gen, 
+                                 old_cv, lt_c, rc_c, so, out, ndl, wcn, old, 
+                                 wq, still2, cvr, dw, k, cdw, ck >>
 
 us_d(self) == /\ pc[self] = "us_d"
               /\ pc' = [pc EXCEPT ![self] = "us_1_ld"]
@@ -1044,11 +1052,11 @@ us_d(self) == /\ pc[self] = "us_d"
                               zhi, wcnt, lw, lt_u, old_u, tc, nwl, wtrs, wake, 
                               wty, sor, cor, rmq_, late, lt_m, old_m, lt_mu, 
                               old_mu, lt_mu_, ww, old_mu_, sdl, scn, lt, rc, 
-                              old_t, c, dl_, cn_, old_mu_w, lt_, first, out_, 
-                              rc_, hadw, ata, so_, havel, tw, allr, omw, fca, 
-                              sorw, all, old_c, tws, alr, rmq, dl, cn, gen, 
-                              old_cv, lt_c, rc_c, so, out, ndl, wcn, old, wq, 
-                              still2, cvr, dw, k, cdw, ck >>
+                              old_t, zl, c, dl_, cn_, old_mu_w, lt_, first, 
+                              out_, rc_, hadw, ata, so_, havel, tw, allr, omw, 
+                              fca, sorw, all, old_c, tws, alr, rmq, dl, cn, 
+                              gen, old_cv, lt_c, rc_c, so, out, ndl, wcn, old, 
+                              wq, still2, cvr, dw, k, cdw, ck >>
 
 us_2_cas(self) == /\ pc[self] = "us_2_cas"
                   /\ IF word = old_u[self]
@@ -1077,12 +1085,12 @@ us_2_cas(self) == /\ pc[self] = "us_2_cas"
                                   muFreed, refs, nwalive, taint3, lt_l, clear, 
                                   old_, zlo, zhi, wcnt, lw, lt_m, old_m, lt_mu, 
                                   old_mu, lt_mu_, ww, old_mu_, sdl, scn, lt, 
-                                  rc, old_t, c, dl_, cn_, old_mu_w, lt_, first, 
-                                  out_, rc_, hadw, ata, so_, havel, tw, allr, 
-                                  omw, fca, sorw, all, old_c, tws, alr, rmq, 
-                                  dl, cn, gen, old_cv, lt_c, rc_c, so, out, 
-                                  ndl, wcn, old, wq, still2, cvr, dw, k, cdw, 
-                                  ck >>
+                                  rc, old_t, zl, c, dl_, cn_, old_mu_w, lt_, 
+                                  first, out_, rc_, hadw, ata, so_, havel, tw, 
+                                  allr, omw, fca, sorw, all, old_c, tws, alr, 
+                                  rmq, dl, cn, gen, old_cv, lt_c, rc_c, so, 
+                                  out, ndl, wcn, old, wq, still2, cvr, dw, k, 
+                                  cdw, ck >>
 
 us_3_cas(self) == /\ pc[self] = "us_3_cas"
                   /\ IF word = old_u[self]
@@ -1106,11 +1114,11 @@ us_3_cas(self) == /\ pc[self] = "us_3_cas"
                                   old_, zlo, zhi, wcnt, lw, lt_u, old_u, tc, 
                                   cor, rmq_, lt_m, old_m, lt_mu, old_mu, 
                                   lt_mu_, ww, old_mu_, sdl, scn, lt, rc, old_t, 
-                                  c, dl_, cn_, old_mu_w, lt_, first, out_, rc_, 
-                                  hadw, ata, so_, havel, tw, allr, omw, fca, 
-                                  sorw, all, old_c, tws, alr, rmq, dl, cn, gen, 
-                                  old_cv, lt_c, rc_c, so, out, ndl, wcn, old, 
-                                  wq, still2, cvr, dw, k, cdw, ck >>
+                                  zl, c, dl_, cn_, old_mu_w, lt_, first, out_, 
+                                  rc_, hadw, ata, so_, havel, tw, allr, omw, 
+                                  fca, sorw, all, old_c, tws, alr, rmq, dl, cn, 
+                                  gen, old_cv, lt_c, rc_c, so, out, ndl, wcn, 
+                                  old, wq, still2, cvr, dw, k, cdw, ck >>
 
 us_pass_l(self) == /\ pc[self] = "us_pass_l"
                    /\ IF nwl[self] = <<>>
@@ -1130,7 +1138,7 @@ us_pass_l(self) == /\ pc[self] = "us_pass_l"
                                    clear, old_, zlo, zhi, wcnt, lw, lt_u, 
                                    old_u, nwl, wtrs, wake, wty, sor, rmq_, 
                                    late, lt_m, old_m, lt_mu, old_mu, lt_mu_, 
-                                   ww, old_mu_, sdl, scn, lt, rc, old_t, c, 
+                                   ww, old_mu_, sdl, scn, lt, rc, old_t, zl, c, 
                                    dl_, cn_, old_mu_w, lt_, first, out_, rc_, 
                                    hadw, ata, so_, havel, tw, allr, omw, fca, 
                                    sorw, all, old_c, tws, alr, rmq, dl, cn, 
@@ -1150,11 +1158,11 @@ us_rel_l(self) == /\ pc[self] = "us_rel_l"
                                   old_u, tc, nwl, wtrs, wake, wty, sor, cor, 
                                   rmq_, late, lt_m, old_m, lt_mu, old_mu, 
                                   lt_mu_, ww, old_mu_, sdl, scn, lt, rc, old_t, 
-                                  c, dl_, cn_, old_mu_w, lt_, first, out_, rc_, 
-                                  hadw, ata, so_, havel, tw, allr, omw, fca, 
-                                  sorw, all, old_c, tws, alr, rmq, dl, cn, gen, 
-                                  old_cv, lt_c, rc_c, so, out, ndl, wcn, old, 
-                                  wq, still2, cvr, dw, k, cdw, ck >>
+                                  zl, c, dl_, cn_, old_mu_w, lt_, first, out_, 
+                                  rc_, hadw, ata, so_, havel, tw, allr, omw, 
+                                  fca, sorw, all, old_c, tws, alr, rmq, dl, cn, 
+                                  gen, old_cv, lt_c, rc_c, so, out, ndl, wcn, 
+                                  old, wq, still2, cvr, dw, k, cdw, ck >>
 
 us_rs_ld(self) == /\ pc[self] = "us_rs_ld"
                   /\ old_u' = [old_u EXCEPT ![self] = word]
@@ -1167,7 +1175,7 @@ us_rs_ld(self) == /\ pc[self] = "us_rs_ld"
                                   lt_l, clear, old_, zlo, zhi, wcnt, lw, lt_u, 
                                   tc, nwl, wtrs, wake, wty, sor, cor, rmq_, 
                                   late, lt_m, old_m, lt_mu, old_mu, lt_mu_, ww, 
-                                  old_mu_, sdl, scn, lt, rc, old_t, c, dl_, 
+                                  old_mu_, sdl, scn, lt, rc, old_t, zl, c, dl_, 
                                   cn_, old_mu_w, lt_, first, out_, rc_, hadw, 
                                   ata, so_, havel, tw, allr, omw, fca, sorw, 
                                   all, old_c, tws, alr, rmq, dl, cn, gen, 
@@ -1189,17 +1197,17 @@ us_rs_cas(self) == /\ pc[self] = "us_rs_cas"
                                    old_u, tc, nwl, wtrs, wake, wty, sor, cor, 
                                    rmq_, late, lt_m, old_m, lt_mu, old_mu, 
                                    lt_mu_, ww, old_mu_, sdl, scn, lt, rc, 
-                                   old_t, c, dl_, cn_, old_mu_w, lt_, first, 
-                                   out_, rc_, hadw, ata, so_, havel, tw, allr, 
-                                   omw, fca, sorw, all, old_c, tws, alr, rmq, 
-                                   dl, cn, gen, old_cv, lt_c, rc_c, so, out, 
-                                   ndl, wcn, old, wq, still2, cvr, dw, k, cdw, 
-                                   ck >>
+                                   old_t, zl, c, dl_, cn_, old_mu_w, lt_, 
+                                   first, out_, rc_, hadw, ata, so_, havel, tw, 
+                                   allr, omw, fca, sorw, all, old_c, tws, alr, 
+                                   rmq, dl, cn, gen, old_cv, lt_c, rc_c, so, 
+                                   out, ndl, wcn, old, wq, still2, cvr, dw, k, 
+                                   cdw, ck >>
 
 us_scan_l(self) == /\ pc[self] = "us_scan_l"
                    /\ LET r == Scan(nwl[self], 1, <<>>, wty[self], sor[self], sc, wc, wl, data, tc[self]) IN
                         /\ Assert(tc[self] => ((word & WLOCK) # 0 /\ \A u \in Threads : held[u] = 0), 
-                                  "Failure of assertion at line 256, column 16.")
+                                  "Failure of assertion at line 259, column 16.")
                         /\ nwl' = [nwl EXCEPT ![self] = r.l]
                         /\ rmq_' = [rmq_ EXCEPT ![self] = r.wake]
                         /\ wake' = [wake EXCEPT ![self] = wake[self] \o r.wake]
@@ -1215,7 +1223,7 @@ us_scan_l(self) == /\ pc[self] = "us_scan_l"
                                    stack, lt_l, clear, old_, zlo, zhi, wcnt, 
                                    lw, lt_u, old_u, tc, wtrs, cor, late, lt_m, 
                                    old_m, lt_mu, old_mu, lt_mu_, ww, old_mu_, 
-                                   sdl, scn, lt, rc, old_t, c, dl_, cn_, 
+                                   sdl, scn, lt, rc, old_t, zl, c, dl_, cn_, 
                                    old_mu_w, lt_, first, out_, rc_, hadw, ata, 
                                    so_, havel, tw, allr, omw, fca, sorw, all, 
                                    old_c, tws, alr, rmq, dl, cn, gen, old_cv, 
@@ -1235,11 +1243,11 @@ us_rmq_l(self) == /\ pc[self] = "us_rmq_l"
                                   old_u, tc, nwl, wtrs, wake, wty, sor, cor, 
                                   rmq_, late, lt_m, old_m, lt_mu, old_mu, 
                                   lt_mu_, ww, old_mu_, sdl, scn, lt, rc, old_t, 
-                                  c, dl_, cn_, old_mu_w, lt_, first, out_, rc_, 
-                                  hadw, ata, so_, havel, tw, allr, omw, fca, 
-                                  sorw, all, old_c, tws, alr, rmq, dl, cn, gen, 
-                                  old_cv, lt_c, rc_c, so, out, ndl, wcn, old, 
-                                  wq, still2, cvr, dw, k, cdw, ck >>
+                                  zl, c, dl_, cn_, old_mu_w, lt_, first, out_, 
+                                  rc_, hadw, ata, so_, havel, tw, allr, omw, 
+                                  fca, sorw, all, old_c, tws, alr, rmq, dl, cn, 
+                                  gen, old_cv, lt_c, rc_c, so, out, ndl, wcn, 
+                                  old, wq, still2, cvr, dw, k, cdw, ck >>
 
 us_rm_ld(self) == /\ pc[self] = "us_rm_ld"
                   /\ TRUE
@@ -1253,11 +1261,11 @@ us_rm_ld(self) == /\ pc[self] = "us_rm_ld"
                                   old_u, tc, nwl, wtrs, wake, wty, sor, cor, 
                                   rmq_, late, lt_m, old_m, lt_mu, old_mu, 
                                   lt_mu_, ww, old_mu_, sdl, scn, lt, rc, old_t, 
-                                  c, dl_, cn_, old_mu_w, lt_, first, out_, rc_, 
-                                  hadw, ata, so_, havel, tw, allr, omw, fca, 
-                                  sorw, all, old_c, tws, alr, rmq, dl, cn, gen, 
-                                  old_cv, lt_c, rc_c, so, out, ndl, wcn, old, 
-                                  wq, still2, cvr, dw, k, cdw, ck >>
+                                  zl, c, dl_, cn_, old_mu_w, lt_, first, out_, 
+                                  rc_, hadw, ata, so_, havel, tw, allr, omw, 
+                                  fca, sorw, all, old_c, tws, alr, rmq, dl, cn, 
+                                  gen, old_cv, lt_c, rc_c, so, out, ndl, wcn, 
+                                  old, wq, still2, cvr, dw, k, cdw, ck >>
 
 us_rm_cas(self) == /\ pc[self] = "us_rm_cas"
                    /\ rmc' = [rmc EXCEPT ![Head(rmq_[self])] = rmc[Head(rmq_[self])] + 1]
@@ -1271,7 +1279,7 @@ us_rm_cas(self) == /\ pc[self] = "us_rm_cas"
                                    clear, old_, zlo, zhi, wcnt, lw, lt_u, 
                                    old_u, tc, nwl, wtrs, wake, wty, sor, cor, 
                                    late, lt_m, old_m, lt_mu, old_mu, lt_mu_, 
-                                   ww, old_mu_, sdl, scn, lt, rc, old_t, c, 
+                                   ww, old_mu_, sdl, scn, lt, rc, old_t, zl, c, 
                                    dl_, cn_, old_mu_w, lt_, first, out_, rc_, 
                                    hadw, ata, so_, havel, tw, allr, omw, fca, 
                                    sorw, all, old_c, tws, alr, rmq, dl, cn, 
@@ -1291,7 +1299,7 @@ us_after_l(self) == /\ pc[self] = "us_after_l"
                                     lw, lt_u, old_u, tc, nwl, wtrs, wake, wty, 
                                     sor, cor, rmq_, late, lt_m, old_m, lt_mu, 
                                     old_mu, lt_mu_, ww, old_mu_, sdl, scn, lt, 
-                                    rc, old_t, c, dl_, cn_, old_mu_w, lt_, 
+                                    rc, old_t, zl, c, dl_, cn_, old_mu_w, lt_, 
                                     first, out_, rc_, hadw, ata, so_, havel, 
                                     tw, allr, omw, fca, sorw, all, old_c, tws, 
                                     alr, rmq, dl, cn, gen, old_cv, lt_c, rc_c, 
@@ -1311,7 +1319,7 @@ us_ts_ld(self) == /\ pc[self] = "us_ts_ld"
                                   lt_l, clear, old_, zlo, zhi, wcnt, lw, lt_u, 
                                   tc, nwl, wtrs, wake, wty, sor, cor, rmq_, 
                                   late, lt_m, old_m, lt_mu, old_mu, lt_mu_, ww, 
-                                  old_mu_, sdl, scn, lt, rc, old_t, c, dl_, 
+                                  old_mu_, sdl, scn, lt, rc, old_t, zl, c, dl_, 
                                   cn_, old_mu_w, lt_, first, out_, rc_, hadw, 
                                   ata, so_, havel, tw, allr, omw, fca, sorw, 
                                   all, old_c, tws, alr, rmq, dl, cn, gen, 
@@ -1333,12 +1341,12 @@ us_ts_cas(self) == /\ pc[self] = "us_ts_cas"
                                    old_u, tc, nwl, wtrs, wake, wty, sor, cor, 
                                    rmq_, late, lt_m, old_m, lt_mu, old_mu, 
                                    lt_mu_, ww, old_mu_, sdl, scn, lt, rc, 
-                                   old_t, c, dl_, cn_, old_mu_w, lt_, first, 
-                                   out_, rc_, hadw, ata, so_, havel, tw, allr, 
-                                   omw, fca, sorw, all, old_c, tws, alr, rmq, 
-                                   dl, cn, gen, old_cv, lt_c, rc_c, so, out, 
-                                   ndl, wcn, old, wq, still2, cvr, dw, k, cdw, 
-                                   ck >>
+                                   old_t, zl, c, dl_, cn_, old_mu_w, lt_, 
+                                   first, out_, rc_, hadw, ata, so_, havel, tw, 
+                                   allr, omw, fca, sorw, all, old_c, tws, alr, 
+                                   rmq, dl, cn, gen, old_cv, lt_c, rc_c, so, 
+                                   out, ndl, wcn, old, wq, still2, cvr, dw, k, 
+                                   cdw, ck >>
 
 us_ts_d(self) == /\ pc[self] = "us_ts_d"
                  /\ pc' = [pc EXCEPT ![self] = "us_ts_ld"]
@@ -1351,11 +1359,11 @@ us_ts_d(self) == /\ pc[self] = "us_ts_d"
                                  old_u, tc, nwl, wtrs, wake, wty, sor, cor, 
                                  rmq_, late, lt_m, old_m, lt_mu, old_mu, 
                                  lt_mu_, ww, old_mu_, sdl, scn, lt, rc, old_t, 
-                                 c, dl_, cn_, old_mu_w, lt_, first, out_, rc_, 
-                                 hadw, ata, so_, havel, tw, allr, omw, fca, 
-                                 sorw, all, old_c, tws, alr, rmq, dl, cn, gen, 
-                                 old_cv, lt_c, rc_c, so, out, ndl, wcn, old, 
-                                 wq, still2, cvr, dw, k, cdw, ck >>
+                                 zl, c, dl_, cn_, old_mu_w, lt_, first, out_, 
+                                 rc_, hadw, ata, so_, havel, tw, allr, omw, 
+                                 fca, sorw, all, old_c, tws, alr, rmq, dl, cn, 
+                                 gen, old_cv, lt_c, rc_c, so, out, ndl, wcn, 
+                                 old, wq, still2, cvr, dw, k, cdw, ck >>
 
 us_merge_l(self) == /\ pc[self] = "us_merge_l"
                     /\ sc' = Merge(sc, wc, Last(wtrs[self]), First(nwl[self]))
@@ -1371,12 +1379,12 @@ us_merge_l(self) == /\ pc[self] = "us_merge_l"
                                     lt_l, clear, old_, zlo, zhi, wcnt, lw, 
                                     lt_u, old_u, tc, wake, wty, sor, cor, rmq_, 
                                     late, lt_m, old_m, lt_mu, old_mu, lt_mu_, 
-                                    ww, old_mu_, sdl, scn, lt, rc, old_t, c, 
-                                    dl_, cn_, old_mu_w, lt_, first, out_, rc_, 
-                                    hadw, ata, so_, havel, tw, allr, omw, fca, 
-                                    sorw, all, old_c, tws, alr, rmq, dl, cn, 
-                                    gen, old_cv, lt_c, rc_c, so, out, ndl, wcn, 
-                                    old, wq, still2, cvr, dw, k, cdw, ck >>
+                                    ww, old_mu_, sdl, scn, lt, rc, old_t, zl, 
+                                    c, dl_, cn_, old_mu_w, lt_, first, out_, 
+                                    rc_, hadw, ata, so_, havel, tw, allr, omw, 
+                                    fca, sorw, all, old_c, tws, alr, rmq, dl, 
+                                    cn, gen, old_cv, lt_c, rc_c, so, out, ndl, 
+                                    wcn, old, wq, still2, cvr, dw, k, cdw, ck >>
 
 us_4_ld(self) == /\ pc[self] = "us_4_ld"
                  /\ old_u' = [old_u EXCEPT ![self] = word]
@@ -1389,12 +1397,12 @@ us_4_ld(self) == /\ pc[self] = "us_4_ld"
                                  lt_l, clear, old_, zlo, zhi, wcnt, lw, lt_u, 
                                  tc, nwl, wtrs, wake, wty, sor, cor, rmq_, 
                                  late, lt_m, old_m, lt_mu, old_mu, lt_mu_, ww, 
-                                 old_mu_, sdl, scn, lt, rc, old_t, c, dl_, cn_, 
-                                 old_mu_w, lt_, first, out_, rc_, hadw, ata, 
-                                 so_, havel, tw, allr, omw, fca, sorw, all, 
-                                 old_c, tws, alr, rmq, dl, cn, gen, old_cv, 
-                                 lt_c, rc_c, so, out, ndl, wcn, old, wq, 
-                                 still2, cvr, dw, k, cdw, ck >>
+                                 old_mu_, sdl, scn, lt, rc, old_t, zl, c, dl_, 
+                                 cn_, old_mu_w, lt_, first, out_, rc_, hadw, 
+                                 ata, so_, havel, tw, allr, omw, fca, sorw, 
+                                 all, old_c, tws, alr, rmq, dl, cn, gen, 
+                                 old_cv, lt_c, rc_c, so, out, ndl, wcn, old, 
+                                 wq, still2, cvr, dw, k, cdw, ck >>
 
 us_5_cas(self) == /\ pc[self] = "us_5_cas"
                   /\ IF word = old_u[self]
@@ -1428,12 +1436,12 @@ us_5_cas(self) == /\ pc[self] = "us_5_cas"
                                   muFreed, refs, nwalive, taint3, lt_l, clear, 
                                   old_, zlo, zhi, wcnt, lw, lt_m, old_m, lt_mu, 
                                   old_mu, lt_mu_, ww, old_mu_, sdl, scn, lt, 
-                                  rc, old_t, c, dl_, cn_, old_mu_w, lt_, first, 
-                                  out_, rc_, hadw, ata, so_, havel, tw, allr, 
-                                  omw, fca, sorw, all, old_c, tws, alr, rmq, 
-                                  dl, cn, gen, old_cv, lt_c, rc_c, so, out, 
-                                  ndl, wcn, old, wq, still2, cvr, dw, k, cdw, 
-                                  ck >>
+                                  rc, old_t, zl, c, dl_, cn_, old_mu_w, lt_, 
+                                  first, out_, rc_, hadw, ata, so_, havel, tw, 
+                                  allr, omw, fca, sorw, all, old_c, tws, alr, 
+                                  rmq, dl, cn, gen, old_cv, lt_c, rc_c, so, 
+                                  out, ndl, wcn, old, wq, still2, cvr, dw, k, 
+                                  cdw, ck >>
 
 us_6_st(self) == /\ pc[self] = "us_6_st"
                  /\ waiting' = [waiting EXCEPT ![Head(wake[self])] = 0]
@@ -1446,12 +1454,12 @@ us_6_st(self) == /\ pc[self] = "us_6_st"
                                  old_, zlo, zhi, wcnt, lw, lt_u, old_u, tc, 
                                  nwl, wtrs, wake, wty, sor, cor, rmq_, late, 
                                  lt_m, old_m, lt_mu, old_mu, lt_mu_, ww, 
-                                 old_mu_, sdl, scn, lt, rc, old_t, c, dl_, cn_, 
-                                 old_mu_w, lt_, first, out_, rc_, hadw, ata, 
-                                 so_, havel, tw, allr, omw, fca, sorw, all, 
-                                 old_c, tws, alr, rmq, dl, cn, gen, old_cv, 
-                                 lt_c, rc_c, so, out, ndl, wcn, old, wq, 
-                                 still2, cvr, dw, k, cdw, ck >>
+                                 old_mu_, sdl, scn, lt, rc, old_t, zl, c, dl_, 
+                                 cn_, old_mu_w, lt_, first, out_, rc_, hadw, 
+                                 ata, so_, havel, tw, allr, omw, fca, sorw, 
+                                 all, old_c, tws, alr, rmq, dl, cn, gen, 
+                                 old_cv, lt_c, rc_c, so, out, ndl, wcn, old, 
+                                 wq, still2, cvr, dw, k, cdw, ck >>
 
 us_7_v(self) == /\ pc[self] = "us_7_v"
                 /\ sem' = [sem EXCEPT ![Head(wake[self])] = SetV(sem[Head(wake[self])])]
@@ -1480,8 +1488,8 @@ us_7_v(self) == /\ pc[self] = "us_7_v"
                                 refs, nwalive, taint3, lt_l, clear, old_, zlo, 
                                 zhi, wcnt, lw, lt_m, old_m, lt_mu, old_mu, 
                                 lt_mu_, ww, old_mu_, sdl, scn, lt, rc, old_t, 
-                                c, dl_, cn_, old_mu_w, lt_, first, out_, rc_, 
-                                hadw, ata, so_, havel, tw, allr, omw, fca, 
+                                zl, c, dl_, cn_, old_mu_w, lt_, first, out_, 
+                                rc_, hadw, ata, so_, havel, tw, allr, omw, fca, 
                                 sorw, all, old_c, tws, alr, rmq, dl, cn, gen, 
                                 old_cv, lt_c, rc_c, so, out, ndl, wcn, old, wq, 
                                 still2, cvr, dw, k, cdw, ck >>
@@ -1517,11 +1525,11 @@ lk_1_cas(self) == /\ pc[self] = "lk_1_cas"
                                   wcnt, lw, lt_u, old_u, tc, nwl, wtrs, wake, 
                                   wty, sor, cor, rmq_, late, lt_mu, old_mu, 
                                   lt_mu_, ww, old_mu_, sdl, scn, lt, rc, old_t, 
-                                  c, dl_, cn_, old_mu_w, lt_, first, out_, rc_, 
-                                  hadw, ata, so_, havel, tw, allr, omw, fca, 
-                                  sorw, all, old_c, tws, alr, rmq, dl, cn, gen, 
-                                  old_cv, lt_c, rc_c, so, out, ndl, wcn, old, 
-                                  wq, still2, cvr, dw, k, cdw, ck >>
+                                  zl, c, dl_, cn_, old_mu_w, lt_, first, out_, 
+                                  rc_, hadw, ata, so_, havel, tw, allr, omw, 
+                                  fca, sorw, all, old_c, tws, alr, rmq, dl, cn, 
+                                  gen, old_cv, lt_c, rc_c, so, out, ndl, wcn, 
+                                  old, wq, still2, cvr, dw, k, cdw, ck >>
 
 lk_2_ld(self) == /\ pc[self] = "lk_2_ld"
                  /\ IF AndZ(word, IF lt_m[self] = 1 THEN WZLO ELSE RZLO, IF lt_m[self] = 1 THEN WZHI ELSE RZHI) # 0
@@ -1565,7 +1573,7 @@ lk_2_ld(self) == /\ pc[self] = "lk_2_ld"
                                  nwalive, taint3, lt_u, old_u, tc, nwl, wtrs, 
                                  wake, wty, sor, cor, rmq_, late, lt_m, lt_mu, 
                                  old_mu, lt_mu_, ww, old_mu_, sdl, scn, lt, rc, 
-                                 old_t, c, dl_, cn_, old_mu_w, lt_, first, 
+                                 old_t, zl, c, dl_, cn_, old_mu_w, lt_, first, 
                                  out_, rc_, hadw, ata, so_, havel, tw, allr, 
                                  omw, fca, sorw, all, old_c, tws, alr, rmq, dl, 
                                  cn, gen, old_cv, lt_c, rc_c, so, out, ndl, 
@@ -1618,7 +1626,7 @@ lk_3_cas(self) == /\ pc[self] = "lk_3_cas"
                                   ip, nq, muFreed, refs, nwalive, taint3, lt_u, 
                                   old_u, tc, nwl, wtrs, wake, wty, sor, cor, 
                                   rmq_, late, lt_mu, old_mu, lt_mu_, ww, 
-                                  old_mu_, sdl, scn, lt, rc, old_t, c, dl_, 
+                                  old_mu_, sdl, scn, lt, rc, old_t, zl, c, dl_, 
                                   cn_, old_mu_w, lt_, first, out_, rc_, hadw, 
                                   ata, so_, havel, tw, allr, omw, fca, sorw, 
                                   all, old_c, tws, alr, rmq, dl, cn, gen, 
@@ -1647,7 +1655,7 @@ tl_1_cas(self) == /\ pc[self] = "tl_1_cas"
                                   zlo, zhi, wcnt, lw, lt_u, old_u, tc, nwl, 
                                   wtrs, wake, wty, sor, cor, rmq_, late, lt_m, 
                                   old_m, lt_mu_, ww, old_mu_, sdl, scn, lt, rc, 
-                                  old_t, c, dl_, cn_, old_mu_w, lt_, first, 
+                                  old_t, zl, c, dl_, cn_, old_mu_w, lt_, first, 
                                   out_, rc_, hadw, ata, so_, havel, tw, allr, 
                                   omw, fca, sorw, all, old_c, tws, alr, rmq, 
                                   dl, cn, gen, old_cv, lt_c, rc_c, so, out, 
@@ -1672,7 +1680,7 @@ tl_2_ld(self) == /\ pc[self] = "tl_2_ld"
                                  old_, zlo, zhi, wcnt, lw, lt_u, old_u, tc, 
                                  nwl, wtrs, wake, wty, sor, cor, rmq_, late, 
                                  lt_m, old_m, lt_mu_, ww, old_mu_, sdl, scn, 
-                                 lt, rc, old_t, c, dl_, cn_, old_mu_w, lt_, 
+                                 lt, rc, old_t, zl, c, dl_, cn_, old_mu_w, lt_, 
                                  first, out_, rc_, hadw, ata, so_, havel, tw, 
                                  allr, omw, fca, sorw, all, old_c, tws, alr, 
                                  rmq, dl, cn, gen, old_cv, lt_c, rc_c, so, out, 
@@ -1702,7 +1710,7 @@ tl_3_cas(self) == /\ pc[self] = "tl_3_cas"
                                   zlo, zhi, wcnt, lw, lt_u, old_u, tc, nwl, 
                                   wtrs, wake, wty, sor, cor, rmq_, late, lt_m, 
                                   old_m, lt_mu_, ww, old_mu_, sdl, scn, lt, rc, 
-                                  old_t, c, dl_, cn_, old_mu_w, lt_, first, 
+                                  old_t, zl, c, dl_, cn_, old_mu_w, lt_, first, 
                                   out_, rc_, hadw, ata, so_, havel, tw, allr, 
                                   omw, fca, sorw, all, old_c, tws, alr, rmq, 
                                   dl, cn, gen, old_cv, lt_c, rc_c, so, out, 
@@ -1729,7 +1737,7 @@ ul_1_cas(self) == /\ pc[self] = "ul_1_cas"
                                   old_, zlo, zhi, wcnt, lw, lt_u, old_u, tc, 
                                   nwl, wtrs, wake, wty, sor, cor, rmq_, late, 
                                   lt_m, old_m, lt_mu, old_mu, sdl, scn, lt, rc, 
-                                  old_t, c, dl_, cn_, old_mu_w, lt_, first, 
+                                  old_t, zl, c, dl_, cn_, old_mu_w, lt_, first, 
                                   out_, rc_, hadw, ata, so_, havel, tw, allr, 
                                   omw, fca, sorw, all, old_c, tws, alr, rmq, 
                                   dl, cn, gen, old_cv, lt_c, rc_c, so, out, 
@@ -1836,7 +1844,7 @@ ul_2_ld(self) == /\ pc[self] = "ul_2_ld"
                                  nq, muFreed, refs, nwalive, taint3, lt_l, 
                                  clear, old_, zlo, zhi, wcnt, lw, lt_m, old_m, 
                                  lt_mu, old_mu, lt_mu_, ww, sdl, scn, lt, rc, 
-                                 old_t, c, dl_, cn_, old_mu_w, lt_, first, 
+                                 old_t, zl, c, dl_, cn_, old_mu_w, lt_, first, 
                                  out_, rc_, hadw, ata, so_, havel, tw, allr, 
                                  omw, fca, sorw, all, old_c, tws, alr, rmq, dl, 
                                  cn, gen, old_cv, lt_c, rc_c, so, out, ndl, 
@@ -1886,12 +1894,12 @@ ul_3_cas(self) == /\ pc[self] = "ul_3_cas"
                                   sleeps, inlock, ip, mw, pool, nalloc, nq, 
                                   muFreed, refs, nwalive, taint3, lt_l, clear, 
                                   old_, zlo, zhi, wcnt, lw, lt_m, old_m, lt_mu, 
-                                  old_mu, sdl, scn, lt, rc, old_t, c, dl_, cn_, 
-                                  old_mu_w, lt_, first, out_, rc_, hadw, ata, 
-                                  so_, havel, tw, allr, omw, fca, sorw, all, 
-                                  old_c, tws, alr, rmq, dl, cn, gen, old_cv, 
-                                  lt_c, rc_c, so, out, ndl, wcn, old, wq, 
-                                  still2, cvr, dw, k, cdw, ck >>
+                                  old_mu, sdl, scn, lt, rc, old_t, zl, c, dl_, 
+                                  cn_, old_mu_w, lt_, first, out_, rc_, hadw, 
+                                  ata, so_, havel, tw, allr, omw, fca, sorw, 
+                                  all, old_c, tws, alr, rmq, dl, cn, gen, 
+                                  old_cv, lt_c, rc_c, so, out, ndl, wcn, old, 
+                                  wq, still2, cvr, dw, k, cdw, ck >>
 
 mu_unlock(self) == ul_1_cas(self) \/ ul_2_ld(self) \/ ul_3_cas(self)
 
@@ -1916,8 +1924,8 @@ sw_1_r(self) == /\ pc[self] = "sw_1_r"
                                 nwalive, taint3, lt_l, clear, old_, zlo, zhi, 
                                 wcnt, lw, lt_u, old_u, tc, nwl, wtrs, wake, 
                                 wty, sor, cor, rmq_, late, lt_m, old_m, lt_mu, 
-                                old_mu, lt_mu_, ww, old_mu_, lt, rc, old_t, c, 
-                                dl_, cn_, old_mu_w, lt_, first, out_, rc_, 
+                                old_mu, lt_mu_, ww, old_mu_, lt, rc, old_t, zl, 
+                                c, dl_, cn_, old_mu_w, lt_, first, out_, rc_, 
                                 hadw, ata, so_, havel, tw, allr, omw, fca, 
                                 sorw, all, old_c, tws, alr, rmq, dl, cn, gen, 
                                 old_cv, lt_c, rc_c, so, out, ndl, wcn, old, wq, 
@@ -1942,22 +1950,24 @@ sw_2_pd(self) == /\ pc[self] = "sw_2_pd"
                                  nwalive, taint3, lt_l, clear, old_, zlo, zhi, 
                                  wcnt, lw, lt_u, old_u, tc, nwl, wtrs, wake, 
                                  wty, sor, cor, rmq_, late, lt_m, old_m, lt_mu, 
-                                 old_mu, lt_mu_, ww, old_mu_, lt, rc, old_t, c, 
-                                 dl_, cn_, old_mu_w, lt_, first, out_, rc_, 
-                                 hadw, ata, so_, havel, tw, allr, omw, fca, 
-                                 sorw, all, old_c, tws, alr, rmq, dl, cn, gen, 
-                                 old_cv, lt_c, rc_c, so, out, ndl, wcn, old, 
-                                 wq, still2, cvr, dw, k, cdw, ck >>
+                                 old_mu, lt_mu_, ww, old_mu_, lt, rc, old_t, 
+                                 zl, c, dl_, cn_, old_mu_w, lt_, first, out_, 
+                                 rc_, hadw, ata, so_, havel, tw, allr, omw, 
+                                 fca, sorw, all, old_c, tws, alr, rmq, dl, cn, 
+                                 gen, old_cv, lt_c, rc_c, so, out, ndl, wcn, 
+                                 old, wq, still2, cvr, dw, k, cdw, ck >>
 
 sem_wait(self) == sw_1_r(self) \/ sw_2_pd(self)
 
 ta_1_ld(self) == /\ pc[self] = "ta_1_ld"
                  /\ old_t' = [old_t EXCEPT ![self] = word]
-                 /\ IF (AndZ(old_t'[self], WZLO, WZHI) + (old_t'[self] & SPIN)) = 0
+                 /\ IF (AndZ(old_t'[self], zl[self], WZHI) + (old_t'[self] & SPIN)) = 0
                        THEN /\ pc' = [pc EXCEPT ![self] = "ta_2_cas"]
-                       ELSE /\ IF (old_t'[self] & (WRW + SPIN)) = 0
-                                  THEN /\ pc' = [pc EXCEPT ![self] = "ta_3_cas"]
-                                  ELSE /\ pc' = [pc EXCEPT ![self] = "ta_d"]
+                       ELSE /\ IF TaWoke
+                                  THEN /\ pc' = [pc EXCEPT ![self] = "ta_4_ld"]
+                                  ELSE /\ IF (old_t'[self] & (WRW + SPIN)) = 0
+                                             THEN /\ pc' = [pc EXCEPT ![self] = "ta_3_cas"]
+                                             ELSE /\ pc' = [pc EXCEPT ![self] = "ta_d"]
                  /\ UNCHANGED << word, queue, cvword, cvq, waiting, rmc, cvmu, 
                                  wl, wc, sc, nww, nwsem, nww2, nreg2, sem, 
                                  data, now, note, nreg, held, ret, sres, 
@@ -1966,10 +1976,10 @@ ta_1_ld(self) == /\ pc[self] = "ta_1_ld"
                                  lt_l, clear, old_, zlo, zhi, wcnt, lw, lt_u, 
                                  old_u, tc, nwl, wtrs, wake, wty, sor, cor, 
                                  rmq_, late, lt_m, old_m, lt_mu, old_mu, 
-                                 lt_mu_, ww, old_mu_, sdl, scn, lt, rc, c, dl_, 
-                                 cn_, old_mu_w, lt_, first, out_, rc_, hadw, 
-                                 ata, so_, havel, tw, allr, omw, fca, sorw, 
-                                 all, old_c, tws, alr, rmq, dl, cn, gen, 
+                                 lt_mu_, ww, old_mu_, sdl, scn, lt, rc, zl, c, 
+                                 dl_, cn_, old_mu_w, lt_, first, out_, rc_, 
+                                 hadw, ata, so_, havel, tw, allr, omw, fca, 
+                                 sorw, all, old_c, tws, alr, rmq, dl, cn, gen, 
                                  old_cv, lt_c, rc_c, so, out, ndl, wcn, old, 
                                  wq, still2, cvr, dw, k, cdw, ck >>
 
@@ -1977,9 +1987,11 @@ ta_2_cas(self) == /\ pc[self] = "ta_2_cas"
                   /\ IF word = old_t[self]
                         THEN /\ word' = Clr((old_t[self] + LTW.add) + SPIN, LTW.coa)
                              /\ pc' = [pc EXCEPT ![self] = "ta_5_ld"]
-                        ELSE /\ IF (old_t[self] & (WRW + SPIN)) = 0
-                                   THEN /\ pc' = [pc EXCEPT ![self] = "ta_3_cas"]
-                                   ELSE /\ pc' = [pc EXCEPT ![self] = "ta_d"]
+                        ELSE /\ IF TaWoke
+                                   THEN /\ pc' = [pc EXCEPT ![self] = "ta_4_ld"]
+                                   ELSE /\ IF (old_t[self] & (WRW + SPIN)) = 0
+                                              THEN /\ pc' = [pc EXCEPT ![self] = "ta_3_cas"]
+                                              ELSE /\ pc' = [pc EXCEPT ![self] = "ta_d"]
                              /\ word' = word
                   /\ UNCHANGED << queue, cvword, cvq, waiting, rmc, cvmu, wl, 
                                   wc, sc, nww, nwsem, nww2, nreg2, sem, data, 
@@ -1989,12 +2001,35 @@ ta_2_cas(self) == /\ pc[self] = "ta_2_cas"
                                   clear, old_, zlo, zhi, wcnt, lw, lt_u, old_u, 
                                   tc, nwl, wtrs, wake, wty, sor, cor, rmq_, 
                                   late, lt_m, old_m, lt_mu, old_mu, lt_mu_, ww, 
-                                  old_mu_, sdl, scn, lt, rc, old_t, c, dl_, 
+                                  old_mu_, sdl, scn, lt, rc, old_t, zl, c, dl_, 
                                   cn_, old_mu_w, lt_, first, out_, rc_, hadw, 
                                   ata, so_, havel, tw, allr, omw, fca, sorw, 
                                   all, old_c, tws, alr, rmq, dl, cn, gen, 
                                   old_cv, lt_c, rc_c, so, out, ndl, wcn, old, 
                                   wq, still2, cvr, dw, k, cdw, ck >>
+
+ta_4_ld(self) == /\ pc[self] = "ta_4_ld"
+                 /\ IF waiting[W(self)] = 0
+                       THEN /\ zl' = [zl EXCEPT ![self] = Clr(WZLO, LONGW)]
+                       ELSE /\ TRUE
+                            /\ zl' = zl
+                 /\ IF (old_t[self] & (WRW + SPIN)) = 0
+                       THEN /\ pc' = [pc EXCEPT ![self] = "ta_3_cas"]
+                       ELSE /\ pc' = [pc EXCEPT ![self] = "ta_d"]
+                 /\ UNCHANGED << word, queue, cvword, cvq, waiting, rmc, cvmu, 
+                                 wl, wc, sc, nww, nwsem, nww2, nreg2, sem, 
+                                 data, now, note, nreg, held, ret, sres, 
+                                 picked, sleeps, inlock, ip, mw, pool, nalloc, 
+                                 nq, muFreed, refs, nwalive, taint3, stack, 
+                                 lt_l, clear, old_, zlo, zhi, wcnt, lw, lt_u, 
+                                 old_u, tc, nwl, wtrs, wake, wty, sor, cor, 
+                                 rmq_, late, lt_m, old_m, lt_mu, old_mu, 
+                                 lt_mu_, ww, old_mu_, sdl, scn, lt, rc, old_t, 
+                                 c, dl_, cn_, old_mu_w, lt_, first, out_, rc_, 
+                                 hadw, ata, so_, havel, tw, allr, omw, fca, 
+                                 sorw, all, old_c, tws, alr, rmq, dl, cn, gen, 
+                                 old_cv, lt_c, rc_c, so, out, ndl, wcn, old, 
+                                 wq, still2, cvr, dw, k, cdw, ck >>
 
 ta_3_cas(self) == /\ pc[self] = "ta_3_cas"
                   /\ IF word = old_t[self]
@@ -2010,7 +2045,7 @@ ta_3_cas(self) == /\ pc[self] = "ta_3_cas"
                                   clear, old_, zlo, zhi, wcnt, lw, lt_u, old_u, 
                                   tc, nwl, wtrs, wake, wty, sor, cor, rmq_, 
                                   late, lt_m, old_m, lt_mu, old_mu, lt_mu_, ww, 
-                                  old_mu_, sdl, scn, lt, rc, old_t, c, dl_, 
+                                  old_mu_, sdl, scn, lt, rc, old_t, zl, c, dl_, 
                                   cn_, old_mu_w, lt_, first, out_, rc_, hadw, 
                                   ata, so_, havel, tw, allr, omw, fca, sorw, 
                                   all, old_c, tws, alr, rmq, dl, cn, gen, 
@@ -2027,11 +2062,11 @@ ta_d(self) == /\ pc[self] = "ta_d"
                               zhi, wcnt, lw, lt_u, old_u, tc, nwl, wtrs, wake, 
                               wty, sor, cor, rmq_, late, lt_m, old_m, lt_mu, 
                               old_mu, lt_mu_, ww, old_mu_, sdl, scn, lt, rc, 
-                              old_t, c, dl_, cn_, old_mu_w, lt_, first, out_, 
-                              rc_, hadw, ata, so_, havel, tw, allr, omw, fca, 
-                              sorw, all, old_c, tws, alr, rmq, dl, cn, gen, 
-                              old_cv, lt_c, rc_c, so, out, ndl, wcn, old, wq, 
-                              still2, cvr, dw, k, cdw, ck >>
+                              old_t, zl, c, dl_, cn_, old_mu_w, lt_, first, 
+                              out_, rc_, hadw, ata, so_, havel, tw, allr, omw, 
+                              fca, sorw, all, old_c, tws, alr, rmq, dl, cn, 
+                              gen, old_cv, lt_c, rc_c, so, out, ndl, wcn, old, 
+                              wq, still2, cvr, dw, k, cdw, ck >>
 
 ta_5_ld(self) == /\ pc[self] = "ta_5_ld"
                  /\ IF waiting[W(self)] = 0
@@ -2046,11 +2081,11 @@ ta_5_ld(self) == /\ pc[self] = "ta_5_ld"
                                  old_u, tc, nwl, wtrs, wake, wty, sor, cor, 
                                  rmq_, late, lt_m, old_m, lt_mu, old_mu, 
                                  lt_mu_, ww, old_mu_, sdl, scn, lt, rc, old_t, 
-                                 c, dl_, cn_, old_mu_w, lt_, first, out_, rc_, 
-                                 hadw, ata, so_, havel, tw, allr, omw, fca, 
-                                 sorw, all, old_c, tws, alr, rmq, dl, cn, gen, 
-                                 old_cv, lt_c, rc_c, so, out, ndl, wcn, old, 
-                                 wq, still2, cvr, dw, k, cdw, ck >>
+                                 zl, c, dl_, cn_, old_mu_w, lt_, first, out_, 
+                                 rc_, hadw, ata, so_, havel, tw, allr, omw, 
+                                 fca, sorw, all, old_c, tws, alr, rmq, dl, cn, 
+                                 gen, old_cv, lt_c, rc_c, so, out, ndl, wcn, 
+                                 old, wq, still2, cvr, dw, k, cdw, ck >>
 
 ta_6_ld(self) == /\ pc[self] = "ta_6_ld"
                  /\ IF rc[self] # rmc[W(self)]
@@ -2068,7 +2103,7 @@ ta_6_ld(self) == /\ pc[self] = "ta_6_ld"
                                  zlo, zhi, wcnt, lw, lt_u, old_u, tc, nwl, 
                                  wtrs, wake, wty, sor, cor, rmq_, late, lt_m, 
                                  old_m, lt_mu, old_mu, lt_mu_, ww, old_mu_, 
-                                 sdl, scn, lt, rc, old_t, c, dl_, cn_, 
+                                 sdl, scn, lt, rc, old_t, zl, c, dl_, cn_, 
                                  old_mu_w, lt_, first, out_, rc_, hadw, ata, 
                                  so_, havel, tw, allr, omw, fca, sorw, all, 
                                  old_c, tws, alr, rmq, dl, cn, gen, old_cv, 
@@ -2087,11 +2122,11 @@ ta_7_ld(self) == /\ pc[self] = "ta_7_ld"
                                  old_u, tc, nwl, wtrs, wake, wty, sor, cor, 
                                  rmq_, late, lt_m, old_m, lt_mu, old_mu, 
                                  lt_mu_, ww, old_mu_, sdl, scn, lt, rc, old_t, 
-                                 c, dl_, cn_, old_mu_w, lt_, first, out_, rc_, 
-                                 hadw, ata, so_, havel, tw, allr, omw, fca, 
-                                 sorw, all, old_c, tws, alr, rmq, dl, cn, gen, 
-                                 old_cv, lt_c, rc_c, so, out, ndl, wcn, old, 
-                                 wq, still2, cvr, dw, k, cdw, ck >>
+                                 zl, c, dl_, cn_, old_mu_w, lt_, first, out_, 
+                                 rc_, hadw, ata, so_, havel, tw, allr, omw, 
+                                 fca, sorw, all, old_c, tws, alr, rmq, dl, cn, 
+                                 gen, old_cv, lt_c, rc_c, so, out, ndl, wcn, 
+                                 old, wq, still2, cvr, dw, k, cdw, ck >>
 
 ta_7_cas(self) == /\ pc[self] = "ta_7_cas"
                   /\ rmc' = [rmc EXCEPT ![W(self)] = rmc[W(self)] + 1]
@@ -2104,7 +2139,7 @@ ta_7_cas(self) == /\ pc[self] = "ta_7_cas"
                                   clear, old_, zlo, zhi, wcnt, lw, lt_u, old_u, 
                                   tc, nwl, wtrs, wake, wty, sor, cor, rmq_, 
                                   late, lt_m, old_m, lt_mu, old_mu, lt_mu_, ww, 
-                                  old_mu_, sdl, scn, lt, rc, old_t, c, dl_, 
+                                  old_mu_, sdl, scn, lt, rc, old_t, zl, c, dl_, 
                                   cn_, old_mu_w, lt_, first, out_, rc_, hadw, 
                                   ata, so_, havel, tw, allr, omw, fca, sorw, 
                                   all, old_c, tws, alr, rmq, dl, cn, gen, 
@@ -2122,12 +2157,12 @@ ta_8_st(self) == /\ pc[self] = "ta_8_st"
                                  old_, zlo, zhi, wcnt, lw, lt_u, old_u, tc, 
                                  nwl, wtrs, wake, wty, sor, cor, rmq_, late, 
                                  lt_m, old_m, lt_mu, old_mu, lt_mu_, ww, 
-                                 old_mu_, sdl, scn, lt, rc, old_t, c, dl_, cn_, 
-                                 old_mu_w, lt_, first, out_, rc_, hadw, ata, 
-                                 so_, havel, tw, allr, omw, fca, sorw, all, 
-                                 old_c, tws, alr, rmq, dl, cn, gen, old_cv, 
-                                 lt_c, rc_c, so, out, ndl, wcn, old, wq, 
-                                 still2, cvr, dw, k, cdw, ck >>
+                                 old_mu_, sdl, scn, lt, rc, old_t, zl, c, dl_, 
+                                 cn_, old_mu_w, lt_, first, out_, rc_, hadw, 
+                                 ata, so_, havel, tw, allr, omw, fca, sorw, 
+                                 all, old_c, tws, alr, rmq, dl, cn, gen, 
+                                 old_cv, lt_c, rc_c, so, out, ndl, wcn, old, 
+                                 wq, still2, cvr, dw, k, cdw, ck >>
 
 ta_8b_st(self) == /\ pc[self] = "ta_8b_st"
                   /\ word' = (IF TaFix THEN Clr(old_t[self], LTW.coa) ELSE old_t[self]) + Add(lt[self])
@@ -2135,6 +2170,7 @@ ta_8b_st(self) == /\ pc[self] = "ta_8b_st"
                   /\ sres' = [sres EXCEPT ![self] = 1]
                   /\ pc' = [pc EXCEPT ![self] = Head(stack[self]).pc]
                   /\ old_t' = [old_t EXCEPT ![self] = Head(stack[self]).old_t]
+                  /\ zl' = [zl EXCEPT ![self] = Head(stack[self]).zl]
                   /\ lt' = [lt EXCEPT ![self] = Head(stack[self]).lt]
                   /\ rc' = [rc EXCEPT ![self] = Head(stack[self]).rc]
                   /\ stack' = [stack EXCEPT ![self] = Tail(stack[self])]
@@ -2157,6 +2193,7 @@ ta_9_st(self) == /\ pc[self] = "ta_9_st"
                  /\ sres' = [sres EXCEPT ![self] = 0]
                  /\ pc' = [pc EXCEPT ![self] = Head(stack[self]).pc]
                  /\ old_t' = [old_t EXCEPT ![self] = Head(stack[self]).old_t]
+                 /\ zl' = [zl EXCEPT ![self] = Head(stack[self]).zl]
                  /\ lt' = [lt EXCEPT ![self] = Head(stack[self]).lt]
                  /\ rc' = [rc EXCEPT ![self] = Head(stack[self]).rc]
                  /\ stack' = [stack EXCEPT ![self] = Tail(stack[self])]
@@ -2174,10 +2211,10 @@ ta_9_st(self) == /\ pc[self] = "ta_9_st"
                                  old_cv, lt_c, rc_c, so, out, ndl, wcn, old, 
                                  wq, still2, cvr, dw, k, cdw, ck >>
 
-try_acquire(self) == ta_1_ld(self) \/ ta_2_cas(self) \/ ta_3_cas(self)
-                        \/ ta_d(self) \/ ta_5_ld(self) \/ ta_6_ld(self)
-                        \/ ta_7_ld(self) \/ ta_7_cas(self) \/ ta_8_st(self)
-                        \/ ta_8b_st(self) \/ ta_9_st(self)
+try_acquire(self) == ta_1_ld(self) \/ ta_2_cas(self) \/ ta_4_ld(self)
+                        \/ ta_3_cas(self) \/ ta_d(self) \/ ta_5_ld(self)
+                        \/ ta_6_ld(self) \/ ta_7_ld(self) \/ ta_7_cas(self)
+                        \/ ta_8_st(self) \/ ta_8b_st(self) \/ ta_9_st(self)
 
 mw_1_ld(self) == /\ pc[self] = "mw_1_ld"
                  /\ IF (c[self] = 0) \/ CondTrue(c[self], data)
@@ -2220,10 +2257,10 @@ mw_1_ld(self) == /\ pc[self] = "mw_1_ld"
                                  wcnt, lw, lt_u, old_u, tc, nwl, wtrs, wake, 
                                  wty, sor, cor, rmq_, late, lt_m, old_m, lt_mu, 
                                  old_mu, lt_mu_, ww, old_mu_, sdl, scn, lt, rc, 
-                                 old_t, tw, allr, omw, fca, sorw, all, old_c, 
-                                 tws, alr, rmq, dl, cn, gen, old_cv, lt_c, 
-                                 rc_c, so, out, ndl, wcn, old, wq, still2, cvr, 
-                                 dw, k, cdw, ck >>
+                                 old_t, zl, tw, allr, omw, fca, sorw, all, 
+                                 old_c, tws, alr, rmq, dl, cn, gen, old_cv, 
+                                 lt_c, rc_c, so, out, ndl, wcn, old, wq, 
+                                 still2, cvr, dw, k, cdw, ck >>
 
 mw_2_st(self) == /\ pc[self] = "mw_2_st"
                  /\ waiting' = [waiting EXCEPT ![W(self)] = 1]
@@ -2239,7 +2276,7 @@ mw_2_st(self) == /\ pc[self] = "mw_2_st"
                                  wcnt, lw, lt_u, old_u, tc, nwl, wtrs, wake, 
                                  wty, sor, cor, rmq_, late, lt_m, old_m, lt_mu, 
                                  old_mu, lt_mu_, ww, old_mu_, sdl, scn, lt, rc, 
-                                 old_t, c, dl_, cn_, old_mu_w, lt_, first, 
+                                 old_t, zl, c, dl_, cn_, old_mu_w, lt_, first, 
                                  out_, rc_, hadw, ata, so_, havel, tw, allr, 
                                  omw, fca, sorw, all, old_c, tws, alr, rmq, dl, 
                                  cn, gen, old_cv, lt_c, rc_c, so, out, ndl, 
@@ -2257,9 +2294,9 @@ mw_3_ld(self) == /\ pc[self] = "mw_3_ld"
                                  old_u, tc, nwl, wtrs, wake, wty, sor, cor, 
                                  rmq_, late, lt_m, old_m, lt_mu, old_mu, 
                                  lt_mu_, ww, old_mu_, sdl, scn, lt, rc, old_t, 
-                                 c, dl_, cn_, old_mu_w, lt_, first, out_, hadw, 
-                                 ata, so_, havel, tw, allr, omw, fca, sorw, 
-                                 all, old_c, tws, alr, rmq, dl, cn, gen, 
+                                 zl, c, dl_, cn_, old_mu_w, lt_, first, out_, 
+                                 hadw, ata, so_, havel, tw, allr, omw, fca, 
+                                 sorw, all, old_c, tws, alr, rmq, dl, cn, gen, 
                                  old_cv, lt_c, rc_c, so, out, ndl, wcn, old, 
                                  wq, still2, cvr, dw, k, cdw, ck >>
 
@@ -2277,11 +2314,11 @@ mw_4_ld(self) == /\ pc[self] = "mw_4_ld"
                                  old_u, tc, nwl, wtrs, wake, wty, sor, cor, 
                                  rmq_, late, lt_m, old_m, lt_mu, old_mu, 
                                  lt_mu_, ww, old_mu_, sdl, scn, lt, rc, old_t, 
-                                 c, dl_, cn_, lt_, first, out_, rc_, hadw, ata, 
-                                 so_, havel, tw, allr, omw, fca, sorw, all, 
-                                 old_c, tws, alr, rmq, dl, cn, gen, old_cv, 
-                                 lt_c, rc_c, so, out, ndl, wcn, old, wq, 
-                                 still2, cvr, dw, k, cdw, ck >>
+                                 zl, c, dl_, cn_, lt_, first, out_, rc_, hadw, 
+                                 ata, so_, havel, tw, allr, omw, fca, sorw, 
+                                 all, old_c, tws, alr, rmq, dl, cn, gen, 
+                                 old_cv, lt_c, rc_c, so, out, ndl, wcn, old, 
+                                 wq, still2, cvr, dw, k, cdw, ck >>
 
 mw_5_cas(self) == /\ pc[self] = "mw_5_cas"
                   /\ IF word = old_mu_w[self]
@@ -2308,11 +2345,12 @@ mw_5_cas(self) == /\ pc[self] = "mw_5_cas"
                                   wcnt, lw, lt_u, old_u, tc, nwl, wtrs, wake, 
                                   wty, sor, cor, rmq_, late, lt_m, old_m, 
                                   lt_mu, old_mu, lt_mu_, ww, old_mu_, sdl, scn, 
-                                  lt, rc, old_t, c, dl_, cn_, old_mu_w, lt_, 
-                                  out_, rc_, ata, so_, havel, tw, allr, omw, 
-                                  fca, sorw, all, old_c, tws, alr, rmq, dl, cn, 
-                                  gen, old_cv, lt_c, rc_c, so, out, ndl, wcn, 
-                                  old, wq, still2, cvr, dw, k, cdw, ck >>
+                                  lt, rc, old_t, zl, c, dl_, cn_, old_mu_w, 
+                                  lt_, out_, rc_, ata, so_, havel, tw, allr, 
+                                  omw, fca, sorw, all, old_c, tws, alr, rmq, 
+                                  dl, cn, gen, old_cv, lt_c, rc_c, so, out, 
+                                  ndl, wcn, old, wq, still2, cvr, dw, k, cdw, 
+                                  ck >>
 
 mw_4_d(self) == /\ pc[self] = "mw_4_d"
                 /\ pc' = [pc EXCEPT ![self] = "mw_4_ld"]
@@ -2324,9 +2362,9 @@ mw_4_d(self) == /\ pc[self] = "mw_4_d"
                                 clear, old_, zlo, zhi, wcnt, lw, lt_u, old_u, 
                                 tc, nwl, wtrs, wake, wty, sor, cor, rmq_, late, 
                                 lt_m, old_m, lt_mu, old_mu, lt_mu_, ww, 
-                                old_mu_, sdl, scn, lt, rc, old_t, c, dl_, cn_, 
-                                old_mu_w, lt_, first, out_, rc_, hadw, ata, 
-                                so_, havel, tw, allr, omw, fca, sorw, all, 
+                                old_mu_, sdl, scn, lt, rc, old_t, zl, c, dl_, 
+                                cn_, old_mu_w, lt_, first, out_, rc_, hadw, 
+                                ata, so_, havel, tw, allr, omw, fca, sorw, all, 
                                 old_c, tws, alr, rmq, dl, cn, gen, old_cv, 
                                 lt_c, rc_c, so, out, ndl, wcn, old, wq, still2, 
                                 cvr, dw, k, cdw, ck >>
@@ -2344,11 +2382,11 @@ mw_6_ld(self) == /\ pc[self] = "mw_6_ld"
                                  old_u, tc, nwl, wtrs, wake, wty, sor, cor, 
                                  rmq_, late, lt_m, old_m, lt_mu, old_mu, 
                                  lt_mu_, ww, old_mu_, sdl, scn, lt, rc, old_t, 
-                                 c, dl_, cn_, lt_, first, out_, rc_, hadw, so_, 
-                                 havel, tw, allr, omw, fca, sorw, all, old_c, 
-                                 tws, alr, rmq, dl, cn, gen, old_cv, lt_c, 
-                                 rc_c, so, out, ndl, wcn, old, wq, still2, cvr, 
-                                 dw, k, cdw, ck >>
+                                 zl, c, dl_, cn_, lt_, first, out_, rc_, hadw, 
+                                 so_, havel, tw, allr, omw, fca, sorw, all, 
+                                 old_c, tws, alr, rmq, dl, cn, gen, old_cv, 
+                                 lt_c, rc_c, so, out, ndl, wcn, old, wq, 
+                                 still2, cvr, dw, k, cdw, ck >>
 
 mw_7_cas(self) == /\ pc[self] = "mw_7_cas"
                   /\ IF word = old_mu_w[self]
@@ -2397,11 +2435,11 @@ mw_7_cas(self) == /\ pc[self] = "mw_7_cas"
                                   muFreed, refs, nwalive, taint3, lt_l, clear, 
                                   old_, zlo, zhi, wcnt, lw, lt_m, old_m, lt_mu, 
                                   old_mu, lt_mu_, ww, old_mu_, sdl, scn, lt, 
-                                  rc, old_t, c, dl_, cn_, old_mu_w, lt_, first, 
-                                  out_, rc_, hadw, ata, tw, allr, omw, fca, 
-                                  sorw, all, old_c, tws, alr, rmq, dl, cn, gen, 
-                                  old_cv, lt_c, rc_c, so, out, ndl, wcn, old, 
-                                  wq, still2, cvr, dw, k, cdw, ck >>
+                                  rc, old_t, zl, c, dl_, cn_, old_mu_w, lt_, 
+                                  first, out_, rc_, hadw, ata, tw, allr, omw, 
+                                  fca, sorw, all, old_c, tws, alr, rmq, dl, cn, 
+                                  gen, old_cv, lt_c, rc_c, so, out, ndl, wcn, 
+                                  old, wq, still2, cvr, dw, k, cdw, ck >>
 
 mw_8_ld(self) == /\ pc[self] = "mw_8_ld"
                  /\ IF waiting[W(self)] = 0
@@ -2426,12 +2464,12 @@ mw_8_ld(self) == /\ pc[self] = "mw_8_ld"
                                  clear, old_, zlo, zhi, wcnt, lw, lt_u, old_u, 
                                  tc, nwl, wtrs, wake, wty, sor, cor, rmq_, 
                                  late, lt_m, old_m, lt_mu, old_mu, lt_mu_, ww, 
-                                 old_mu_, lt, rc, old_t, c, dl_, cn_, old_mu_w, 
-                                 lt_, first, out_, rc_, hadw, ata, so_, havel, 
-                                 tw, allr, omw, fca, sorw, all, old_c, tws, 
-                                 alr, rmq, dl, cn, gen, old_cv, lt_c, rc_c, so, 
-                                 out, ndl, wcn, old, wq, still2, cvr, dw, k, 
-                                 cdw, ck >>
+                                 old_mu_, lt, rc, old_t, zl, c, dl_, cn_, 
+                                 old_mu_w, lt_, first, out_, rc_, hadw, ata, 
+                                 so_, havel, tw, allr, omw, fca, sorw, all, 
+                                 old_c, tws, alr, rmq, dl, cn, gen, old_cv, 
+                                 lt_c, rc_c, so, out, ndl, wcn, old, wq, 
+                                 still2, cvr, dw, k, cdw, ck >>
 
 mw_9b_l(self) == /\ pc[self] = "mw_9b_l"
                  /\ so_' = [so_ EXCEPT ![self] = sres[self]]
@@ -2447,9 +2485,9 @@ mw_9b_l(self) == /\ pc[self] = "mw_9b_l"
                                  old_u, tc, nwl, wtrs, wake, wty, sor, cor, 
                                  rmq_, late, lt_m, old_m, lt_mu, old_mu, 
                                  lt_mu_, ww, old_mu_, sdl, scn, lt, rc, old_t, 
-                                 c, dl_, cn_, old_mu_w, lt_, first, out_, rc_, 
-                                 hadw, ata, havel, tw, allr, omw, fca, sorw, 
-                                 all, old_c, tws, alr, rmq, dl, cn, gen, 
+                                 zl, c, dl_, cn_, old_mu_w, lt_, first, out_, 
+                                 rc_, hadw, ata, havel, tw, allr, omw, fca, 
+                                 sorw, all, old_c, tws, alr, rmq, dl, cn, gen, 
                                  old_cv, lt_c, rc_c, so, out, ndl, wcn, old, 
                                  wq, still2, cvr, dw, k, cdw, ck >>
 
@@ -2466,11 +2504,11 @@ mw_10_ld(self) == /\ pc[self] = "mw_10_ld"
                                   old_u, tc, nwl, wtrs, wake, wty, sor, cor, 
                                   rmq_, late, lt_m, old_m, lt_mu, old_mu, 
                                   lt_mu_, ww, old_mu_, sdl, scn, lt, rc, old_t, 
-                                  c, dl_, cn_, old_mu_w, lt_, first, out_, rc_, 
-                                  hadw, ata, so_, havel, tw, allr, omw, fca, 
-                                  sorw, all, old_c, tws, alr, rmq, dl, cn, gen, 
-                                  old_cv, lt_c, rc_c, so, out, ndl, wcn, old, 
-                                  wq, still2, cvr, dw, k, cdw, ck >>
+                                  zl, c, dl_, cn_, old_mu_w, lt_, first, out_, 
+                                  rc_, hadw, ata, so_, havel, tw, allr, omw, 
+                                  fca, sorw, all, old_c, tws, alr, rmq, dl, cn, 
+                                  gen, old_cv, lt_c, rc_c, so, out, ndl, wcn, 
+                                  old, wq, still2, cvr, dw, k, cdw, ck >>
 
 mw_11_l(self) == /\ pc[self] = "mw_11_l"
                  /\ /\ lt' = [lt EXCEPT ![self] = lt_[self]]
@@ -2478,10 +2516,12 @@ mw_11_l(self) == /\ pc[self] = "mw_11_l"
                     /\ stack' = [stack EXCEPT ![self] = << [ procedure |->  "try_acquire",
                                                              pc        |->  "mw_11b_l",
                                                              old_t     |->  old_t[self],
+                                                             zl        |->  zl[self],
                                                              lt        |->  lt[self],
                                                              rc        |->  rc[self] ] >>
                                                          \o stack[self]]
                  /\ old_t' = [old_t EXCEPT ![self] = 0]
+                 /\ zl' = [zl EXCEPT ![self] = WZLO]
                  /\ pc' = [pc EXCEPT ![self] = "ta_1_ld"]
                  /\ UNCHANGED << word, queue, cvword, cvq, waiting, rmc, cvmu, 
                                  wl, wc, sc, nww, nwsem, nww2, nreg2, sem, 
@@ -2514,11 +2554,11 @@ mw_11b_l(self) == /\ pc[self] = "mw_11b_l"
                                   old_u, tc, nwl, wtrs, wake, wty, sor, cor, 
                                   rmq_, late, lt_m, old_m, lt_mu, old_mu, 
                                   lt_mu_, ww, old_mu_, sdl, scn, lt, rc, old_t, 
-                                  c, dl_, cn_, old_mu_w, lt_, first, rc_, hadw, 
-                                  ata, so_, tw, allr, omw, fca, sorw, all, 
-                                  old_c, tws, alr, rmq, dl, cn, gen, old_cv, 
-                                  lt_c, rc_c, so, out, ndl, wcn, old, wq, 
-                                  still2, cvr, dw, k, cdw, ck >>
+                                  zl, c, dl_, cn_, old_mu_w, lt_, first, rc_, 
+                                  hadw, ata, so_, tw, allr, omw, fca, sorw, 
+                                  all, old_c, tws, alr, rmq, dl, cn, gen, 
+                                  old_cv, lt_c, rc_c, so, out, ndl, wcn, old, 
+                                  wq, still2, cvr, dw, k, cdw, ck >>
 
 mw_12_ld(self) == /\ pc[self] = "mw_12_ld"
                   /\ IF waiting[W(self)] # 0
@@ -2533,11 +2573,11 @@ mw_12_ld(self) == /\ pc[self] = "mw_12_ld"
                                   old_u, tc, nwl, wtrs, wake, wty, sor, cor, 
                                   rmq_, late, lt_m, old_m, lt_mu, old_mu, 
                                   lt_mu_, ww, old_mu_, sdl, scn, lt, rc, old_t, 
-                                  c, dl_, cn_, old_mu_w, lt_, first, out_, rc_, 
-                                  hadw, ata, so_, havel, tw, allr, omw, fca, 
-                                  sorw, all, old_c, tws, alr, rmq, dl, cn, gen, 
-                                  old_cv, lt_c, rc_c, so, out, ndl, wcn, old, 
-                                  wq, still2, cvr, dw, k, cdw, ck >>
+                                  zl, c, dl_, cn_, old_mu_w, lt_, first, out_, 
+                                  rc_, hadw, ata, so_, havel, tw, allr, omw, 
+                                  fca, sorw, all, old_c, tws, alr, rmq, dl, cn, 
+                                  gen, old_cv, lt_c, rc_c, so, out, ndl, wcn, 
+                                  old, wq, still2, cvr, dw, k, cdw, ck >>
 
 mw_12_d(self) == /\ pc[self] = "mw_12_d"
                  /\ pc' = [pc EXCEPT ![self] = "mw_8_ld"]
@@ -2550,11 +2590,11 @@ mw_12_d(self) == /\ pc[self] = "mw_12_d"
                                  old_u, tc, nwl, wtrs, wake, wty, sor, cor, 
                                  rmq_, late, lt_m, old_m, lt_mu, old_mu, 
                                  lt_mu_, ww, old_mu_, sdl, scn, lt, rc, old_t, 
-                                 c, dl_, cn_, old_mu_w, lt_, first, out_, rc_, 
-                                 hadw, ata, so_, havel, tw, allr, omw, fca, 
-                                 sorw, all, old_c, tws, alr, rmq, dl, cn, gen, 
-                                 old_cv, lt_c, rc_c, so, out, ndl, wcn, old, 
-                                 wq, still2, cvr, dw, k, cdw, ck >>
+                                 zl, c, dl_, cn_, old_mu_w, lt_, first, out_, 
+                                 rc_, hadw, ata, so_, havel, tw, allr, omw, 
+                                 fca, sorw, all, old_c, tws, alr, rmq, dl, cn, 
+                                 gen, old_cv, lt_c, rc_c, so, out, ndl, wcn, 
+                                 old, wq, still2, cvr, dw, k, cdw, ck >>
 
 mw_13_l(self) == /\ pc[self] = "mw_13_l"
                  /\ IF ~havel[self]
@@ -2587,11 +2627,11 @@ mw_13_l(self) == /\ pc[self] = "mw_13_l"
                                  old_u, tc, nwl, wtrs, wake, wty, sor, cor, 
                                  rmq_, late, lt_m, old_m, lt_mu, old_mu, 
                                  lt_mu_, ww, old_mu_, sdl, scn, lt, rc, old_t, 
-                                 c, dl_, cn_, old_mu_w, lt_, first, out_, rc_, 
-                                 hadw, ata, so_, havel, tw, allr, omw, fca, 
-                                 sorw, all, old_c, tws, alr, rmq, dl, cn, gen, 
-                                 old_cv, lt_c, rc_c, so, out, ndl, wcn, old, 
-                                 wq, still2, cvr, dw, k, cdw, ck >>
+                                 zl, c, dl_, cn_, old_mu_w, lt_, first, out_, 
+                                 rc_, hadw, ata, so_, havel, tw, allr, omw, 
+                                 fca, sorw, all, old_c, tws, alr, rmq, dl, cn, 
+                                 gen, old_cv, lt_c, rc_c, so, out, ndl, wcn, 
+                                 old, wq, still2, cvr, dw, k, cdw, ck >>
 
 mw_14_l(self) == /\ pc[self] = "mw_14_l"
                  /\ IF out_[self] = 0 /\ ~((c[self] = 0) \/ CondTrue(c[self], data))
@@ -2622,10 +2662,11 @@ mw_14_l(self) == /\ pc[self] = "mw_14_l"
                                  old_, zlo, zhi, wcnt, lw, lt_u, old_u, tc, 
                                  nwl, wtrs, wake, wty, sor, cor, rmq_, late, 
                                  lt_m, old_m, lt_mu, old_mu, lt_mu_, ww, 
-                                 old_mu_, sdl, scn, lt, rc, old_t, tw, allr, 
-                                 omw, fca, sorw, all, old_c, tws, alr, rmq, dl, 
-                                 cn, gen, old_cv, lt_c, rc_c, so, out, ndl, 
-                                 wcn, old, wq, still2, cvr, dw, k, cdw, ck >>
+                                 old_mu_, sdl, scn, lt, rc, old_t, zl, tw, 
+                                 allr, omw, fca, sorw, all, old_c, tws, alr, 
+                                 rmq, dl, cn, gen, old_cv, lt_c, rc_c, so, out, 
+                                 ndl, wcn, old, wq, still2, cvr, dw, k, cdw, 
+                                 ck >>
 
 mu_wait(self) == mw_1_ld(self) \/ mw_2_st(self) \/ mw_3_ld(self)
                     \/ mw_4_ld(self) \/ mw_5_cas(self) \/ mw_4_d(self)
@@ -2646,9 +2687,9 @@ ww_0_l(self) == /\ pc[self] = "ww_0_l"
                                 clear, old_, zlo, zhi, wcnt, lw, lt_u, old_u, 
                                 tc, nwl, wtrs, wake, wty, sor, cor, rmq_, late, 
                                 lt_m, old_m, lt_mu, old_mu, lt_mu_, ww, 
-                                old_mu_, sdl, scn, lt, rc, old_t, c, dl_, cn_, 
-                                old_mu_w, lt_, first, out_, rc_, hadw, ata, 
-                                so_, havel, tw, allr, omw, fca, sorw, all, 
+                                old_mu_, sdl, scn, lt, rc, old_t, zl, c, dl_, 
+                                cn_, old_mu_w, lt_, first, out_, rc_, hadw, 
+                                ata, so_, havel, tw, allr, omw, fca, sorw, all, 
                                 old_c, tws, alr, rmq, dl, cn, gen, old_cv, 
                                 lt_c, rc_c, so, out, ndl, wcn, old, wq, still2, 
                                 cvr, dw, k, cdw, ck >>
@@ -2668,11 +2709,11 @@ ww_1_ld(self) == /\ pc[self] = "ww_1_ld"
                                  old_u, tc, nwl, wtrs, wake, wty, sor, cor, 
                                  rmq_, late, lt_m, old_m, lt_mu, old_mu, 
                                  lt_mu_, ww, old_mu_, sdl, scn, lt, rc, old_t, 
-                                 c, dl_, cn_, old_mu_w, lt_, first, out_, rc_, 
-                                 hadw, ata, so_, havel, tw, allr, sorw, all, 
-                                 old_c, tws, alr, rmq, dl, cn, gen, old_cv, 
-                                 lt_c, rc_c, so, out, ndl, wcn, old, wq, 
-                                 still2, cvr, dw, k, cdw, ck >>
+                                 zl, c, dl_, cn_, old_mu_w, lt_, first, out_, 
+                                 rc_, hadw, ata, so_, havel, tw, allr, sorw, 
+                                 all, old_c, tws, alr, rmq, dl, cn, gen, 
+                                 old_cv, lt_c, rc_c, so, out, ndl, wcn, old, 
+                                 wq, still2, cvr, dw, k, cdw, ck >>
 
 ww_2_cas(self) == /\ pc[self] = "ww_2_cas"
                   /\ IF word = omw[self]
@@ -2693,7 +2734,7 @@ ww_2_cas(self) == /\ pc[self] = "ww_2_cas"
                                   old_, zlo, zhi, wcnt, lw, lt_u, old_u, tc, 
                                   nwl, wtrs, wake, wty, sor, cor, rmq_, late, 
                                   lt_m, old_m, lt_mu, old_mu, lt_mu_, ww, 
-                                  old_mu_, sdl, scn, lt, rc, old_t, c, dl_, 
+                                  old_mu_, sdl, scn, lt, rc, old_t, zl, c, dl_, 
                                   cn_, old_mu_w, lt_, first, out_, rc_, hadw, 
                                   ata, so_, havel, allr, omw, fca, all, old_c, 
                                   tws, alr, rmq, dl, cn, gen, old_cv, lt_c, 
@@ -2712,9 +2753,9 @@ ww_3_ld(self) == /\ pc[self] = "ww_3_ld"
                                  old_u, tc, nwl, wtrs, wake, wty, sor, cor, 
                                  rmq_, late, lt_m, old_m, lt_mu, old_mu, 
                                  lt_mu_, ww, old_mu_, sdl, scn, lt, rc, old_t, 
-                                 c, dl_, cn_, old_mu_w, lt_, first, out_, rc_, 
-                                 hadw, ata, so_, havel, tw, allr, fca, sorw, 
-                                 all, old_c, tws, alr, rmq, dl, cn, gen, 
+                                 zl, c, dl_, cn_, old_mu_w, lt_, first, out_, 
+                                 rc_, hadw, ata, so_, havel, tw, allr, fca, 
+                                 sorw, all, old_c, tws, alr, rmq, dl, cn, gen, 
                                  old_cv, lt_c, rc_c, so, out, ndl, wcn, old, 
                                  wq, still2, cvr, dw, k, cdw, ck >>
 
@@ -2732,7 +2773,7 @@ ww_4_cas(self) == /\ pc[self] = "ww_4_cas"
                                   clear, old_, zlo, zhi, wcnt, lw, lt_u, old_u, 
                                   tc, nwl, wtrs, wake, wty, sor, cor, rmq_, 
                                   late, lt_m, old_m, lt_mu, old_mu, lt_mu_, ww, 
-                                  old_mu_, sdl, scn, lt, rc, old_t, c, dl_, 
+                                  old_mu_, sdl, scn, lt, rc, old_t, zl, c, dl_, 
                                   cn_, old_mu_w, lt_, first, out_, rc_, hadw, 
                                   ata, so_, havel, tw, allr, omw, fca, sorw, 
                                   all, old_c, tws, alr, rmq, dl, cn, gen, 
@@ -2758,11 +2799,11 @@ ww_4b_l(self) == /\ pc[self] = "ww_4b_l"
                                  clear, old_, zlo, zhi, wcnt, lw, lt_u, old_u, 
                                  tc, nwl, wtrs, wake, wty, sor, cor, rmq_, 
                                  late, lt_m, old_m, lt_mu, old_mu, lt_mu_, ww, 
-                                 old_mu_, sdl, scn, lt, rc, old_t, c, dl_, cn_, 
-                                 old_mu_w, lt_, first, out_, rc_, hadw, ata, 
-                                 so_, havel, all, old_c, tws, alr, rmq, dl, cn, 
-                                 gen, old_cv, lt_c, rc_c, so, out, ndl, wcn, 
-                                 old, wq, still2, cvr, dw, k, cdw, ck >>
+                                 old_mu_, sdl, scn, lt, rc, old_t, zl, c, dl_, 
+                                 cn_, old_mu_w, lt_, first, out_, rc_, hadw, 
+                                 ata, so_, havel, all, old_c, tws, alr, rmq, 
+                                 dl, cn, gen, old_cv, lt_c, rc_c, so, out, ndl, 
+                                 wcn, old, wq, still2, cvr, dw, k, cdw, ck >>
 
 ww_5_st(self) == /\ pc[self] = "ww_5_st"
                  /\ IF IsMuCv(Head(tw[self]))
@@ -2779,7 +2820,7 @@ ww_5_st(self) == /\ pc[self] = "ww_5_st"
                                  zlo, zhi, wcnt, lw, lt_u, old_u, tc, nwl, 
                                  wtrs, wake, wty, sor, cor, rmq_, late, lt_m, 
                                  old_m, lt_mu, old_mu, lt_mu_, ww, old_mu_, 
-                                 sdl, scn, lt, rc, old_t, c, dl_, cn_, 
+                                 sdl, scn, lt, rc, old_t, zl, c, dl_, cn_, 
                                  old_mu_w, lt_, first, out_, rc_, hadw, ata, 
                                  so_, havel, tw, allr, omw, fca, sorw, all, 
                                  old_c, tws, alr, rmq, dl, cn, gen, old_cv, 
@@ -2807,7 +2848,7 @@ ww_6_v(self) == /\ pc[self] = "ww_6_v"
                                 zhi, wcnt, lw, lt_u, old_u, tc, nwl, wtrs, 
                                 wake, wty, sor, cor, rmq_, late, lt_m, old_m, 
                                 lt_mu, old_mu, lt_mu_, ww, old_mu_, sdl, scn, 
-                                lt, rc, old_t, c, dl_, cn_, old_mu_w, lt_, 
+                                lt, rc, old_t, zl, c, dl_, cn_, old_mu_w, lt_, 
                                 first, out_, rc_, hadw, ata, so_, havel, all, 
                                 old_c, tws, alr, rmq, dl, cn, gen, old_cv, 
                                 lt_c, rc_c, so, out, ndl, wcn, old, wq, still2, 
@@ -2836,11 +2877,11 @@ cs_1_ld(self) == /\ pc[self] = "cs_1_ld"
                                  clear, old_, zlo, zhi, wcnt, lw, lt_u, old_u, 
                                  tc, nwl, wtrs, wake, wty, sor, cor, rmq_, 
                                  late, lt_m, old_m, lt_mu, old_mu, lt_mu_, ww, 
-                                 old_mu_, sdl, scn, lt, rc, old_t, c, dl_, cn_, 
-                                 old_mu_w, lt_, first, out_, rc_, hadw, ata, 
-                                 so_, havel, tw, allr, omw, fca, sorw, dl, cn, 
-                                 gen, old_cv, lt_c, rc_c, so, out, ndl, wcn, 
-                                 old, wq, still2, cvr, dw, k, cdw, ck >>
+                                 old_mu_, sdl, scn, lt, rc, old_t, zl, c, dl_, 
+                                 cn_, old_mu_w, lt_, first, out_, rc_, hadw, 
+                                 ata, so_, havel, tw, allr, omw, fca, sorw, dl, 
+                                 cn, gen, old_cv, lt_c, rc_c, so, out, ndl, 
+                                 wcn, old, wq, still2, cvr, dw, k, cdw, ck >>
 
 cs_2_ld(self) == /\ pc[self] = "cs_2_ld"
                  /\ old_c' = [old_c EXCEPT ![self] = cvword]
@@ -2856,11 +2897,11 @@ cs_2_ld(self) == /\ pc[self] = "cs_2_ld"
                                  old_u, tc, nwl, wtrs, wake, wty, sor, cor, 
                                  rmq_, late, lt_m, old_m, lt_mu, old_mu, 
                                  lt_mu_, ww, old_mu_, sdl, scn, lt, rc, old_t, 
-                                 c, dl_, cn_, old_mu_w, lt_, first, out_, rc_, 
-                                 hadw, ata, so_, havel, tw, allr, omw, fca, 
-                                 sorw, all, tws, alr, rmq, dl, cn, gen, old_cv, 
-                                 lt_c, rc_c, so, out, ndl, wcn, old, wq, 
-                                 still2, cvr, dw, k, cdw, ck >>
+                                 zl, c, dl_, cn_, old_mu_w, lt_, first, out_, 
+                                 rc_, hadw, ata, so_, havel, tw, allr, omw, 
+                                 fca, sorw, all, tws, alr, rmq, dl, cn, gen, 
+                                 old_cv, lt_c, rc_c, so, out, ndl, wcn, old, 
+                                 wq, still2, cvr, dw, k, cdw, ck >>
 
 cs_3_cas(self) == /\ pc[self] = "cs_3_cas"
                   /\ IF cvword = old_c[self]
@@ -2887,7 +2928,7 @@ cs_3_cas(self) == /\ pc[self] = "cs_3_cas"
                                   old_, zlo, zhi, wcnt, lw, lt_u, old_u, tc, 
                                   nwl, wtrs, wake, wty, sor, cor, rmq_, late, 
                                   lt_m, old_m, lt_mu, old_mu, lt_mu_, ww, 
-                                  old_mu_, sdl, scn, lt, rc, old_t, c, dl_, 
+                                  old_mu_, sdl, scn, lt, rc, old_t, zl, c, dl_, 
                                   cn_, old_mu_w, lt_, first, out_, rc_, hadw, 
                                   ata, so_, havel, tw, allr, omw, fca, sorw, 
                                   all, old_c, rmq, dl, cn, gen, old_cv, lt_c, 
@@ -2907,12 +2948,12 @@ cs_3b_l(self) == /\ pc[self] = "cs_3b_l"
                                  clear, old_, zlo, zhi, wcnt, lw, lt_u, old_u, 
                                  tc, nwl, wtrs, wake, wty, sor, cor, rmq_, 
                                  late, lt_m, old_m, lt_mu, old_mu, lt_mu_, ww, 
-                                 old_mu_, sdl, scn, lt, rc, old_t, c, dl_, cn_, 
-                                 old_mu_w, lt_, first, out_, rc_, hadw, ata, 
-                                 so_, havel, tw, allr, omw, fca, sorw, all, 
-                                 old_c, alr, dl, cn, gen, old_cv, lt_c, rc_c, 
-                                 so, out, ndl, wcn, old, wq, still2, cvr, dw, 
-                                 k, cdw, ck >>
+                                 old_mu_, sdl, scn, lt, rc, old_t, zl, c, dl_, 
+                                 cn_, old_mu_w, lt_, first, out_, rc_, hadw, 
+                                 ata, so_, havel, tw, allr, omw, fca, sorw, 
+                                 all, old_c, alr, dl, cn, gen, old_cv, lt_c, 
+                                 rc_c, so, out, ndl, wcn, old, wq, still2, cvr, 
+                                 dw, k, cdw, ck >>
 
 cs_2_d(self) == /\ pc[self] = "cs_2_d"
                 /\ pc' = [pc EXCEPT ![self] = "cs_2_ld"]
@@ -2924,9 +2965,9 @@ cs_2_d(self) == /\ pc[self] = "cs_2_d"
                                 clear, old_, zlo, zhi, wcnt, lw, lt_u, old_u, 
                                 tc, nwl, wtrs, wake, wty, sor, cor, rmq_, late, 
                                 lt_m, old_m, lt_mu, old_mu, lt_mu_, ww, 
-                                old_mu_, sdl, scn, lt, rc, old_t, c, dl_, cn_, 
-                                old_mu_w, lt_, first, out_, rc_, hadw, ata, 
-                                so_, havel, tw, allr, omw, fca, sorw, all, 
+                                old_mu_, sdl, scn, lt, rc, old_t, zl, c, dl_, 
+                                cn_, old_mu_w, lt_, first, out_, rc_, hadw, 
+                                ata, so_, havel, tw, allr, omw, fca, sorw, all, 
                                 old_c, tws, alr, rmq, dl, cn, gen, old_cv, 
                                 lt_c, rc_c, so, out, ndl, wcn, old, wq, still2, 
                                 cvr, dw, k, cdw, ck >>
@@ -2946,11 +2987,11 @@ cs_rmq_l(self) == /\ pc[self] = "cs_rmq_l"
                                   old_u, tc, nwl, wtrs, wake, wty, sor, cor, 
                                   rmq_, late, lt_m, old_m, lt_mu, old_mu, 
                                   lt_mu_, ww, old_mu_, sdl, scn, lt, rc, old_t, 
-                                  c, dl_, cn_, old_mu_w, lt_, first, out_, rc_, 
-                                  hadw, ata, so_, havel, tw, allr, omw, fca, 
-                                  sorw, all, old_c, tws, alr, rmq, dl, cn, gen, 
-                                  old_cv, lt_c, rc_c, so, out, ndl, wcn, old, 
-                                  wq, still2, cvr, dw, k, cdw, ck >>
+                                  zl, c, dl_, cn_, old_mu_w, lt_, first, out_, 
+                                  rc_, hadw, ata, so_, havel, tw, allr, omw, 
+                                  fca, sorw, all, old_c, tws, alr, rmq, dl, cn, 
+                                  gen, old_cv, lt_c, rc_c, so, out, ndl, wcn, 
+                                  old, wq, still2, cvr, dw, k, cdw, ck >>
 
 cs_rm_ld(self) == /\ pc[self] = "cs_rm_ld"
                   /\ TRUE
@@ -2964,11 +3005,11 @@ cs_rm_ld(self) == /\ pc[self] = "cs_rm_ld"
                                   old_u, tc, nwl, wtrs, wake, wty, sor, cor, 
                                   rmq_, late, lt_m, old_m, lt_mu, old_mu, 
                                   lt_mu_, ww, old_mu_, sdl, scn, lt, rc, old_t, 
-                                  c, dl_, cn_, old_mu_w, lt_, first, out_, rc_, 
-                                  hadw, ata, so_, havel, tw, allr, omw, fca, 
-                                  sorw, all, old_c, tws, alr, rmq, dl, cn, gen, 
-                                  old_cv, lt_c, rc_c, so, out, ndl, wcn, old, 
-                                  wq, still2, cvr, dw, k, cdw, ck >>
+                                  zl, c, dl_, cn_, old_mu_w, lt_, first, out_, 
+                                  rc_, hadw, ata, so_, havel, tw, allr, omw, 
+                                  fca, sorw, all, old_c, tws, alr, rmq, dl, cn, 
+                                  gen, old_cv, lt_c, rc_c, so, out, ndl, wcn, 
+                                  old, wq, still2, cvr, dw, k, cdw, ck >>
 
 cs_rm_cas(self) == /\ pc[self] = "cs_rm_cas"
                    /\ rmc' = [rmc EXCEPT ![Head(rmq[self])] = rmc[Head(rmq[self])] + 1]
@@ -2983,11 +3024,12 @@ cs_rm_cas(self) == /\ pc[self] = "cs_rm_cas"
                                    old_u, tc, nwl, wtrs, wake, wty, sor, cor, 
                                    rmq_, late, lt_m, old_m, lt_mu, old_mu, 
                                    lt_mu_, ww, old_mu_, sdl, scn, lt, rc, 
-                                   old_t, c, dl_, cn_, old_mu_w, lt_, first, 
-                                   out_, rc_, hadw, ata, so_, havel, tw, allr, 
-                                   omw, fca, sorw, all, old_c, tws, alr, dl, 
-                                   cn, gen, old_cv, lt_c, rc_c, so, out, ndl, 
-                                   wcn, old, wq, still2, cvr, dw, k, cdw, ck >>
+                                   old_t, zl, c, dl_, cn_, old_mu_w, lt_, 
+                                   first, out_, rc_, hadw, ata, so_, havel, tw, 
+                                   allr, omw, fca, sorw, all, old_c, tws, alr, 
+                                   dl, cn, gen, old_cv, lt_c, rc_c, so, out, 
+                                   ndl, wcn, old, wq, still2, cvr, dw, k, cdw, 
+                                   ck >>
 
 cs_f_st(self) == /\ pc[self] = "cs_f_st"
                  /\ nww' = [nww EXCEPT ![-Head(rmq[self])] = 0]
@@ -3000,12 +3042,12 @@ cs_f_st(self) == /\ pc[self] = "cs_f_st"
                                  clear, old_, zlo, zhi, wcnt, lw, lt_u, old_u, 
                                  tc, nwl, wtrs, wake, wty, sor, cor, rmq_, 
                                  late, lt_m, old_m, lt_mu, old_mu, lt_mu_, ww, 
-                                 old_mu_, sdl, scn, lt, rc, old_t, c, dl_, cn_, 
-                                 old_mu_w, lt_, first, out_, rc_, hadw, ata, 
-                                 so_, havel, tw, allr, omw, fca, sorw, all, 
-                                 old_c, tws, alr, rmq, dl, cn, gen, old_cv, 
-                                 lt_c, rc_c, so, out, ndl, wcn, old, wq, 
-                                 still2, cvr, dw, k, cdw, ck >>
+                                 old_mu_, sdl, scn, lt, rc, old_t, zl, c, dl_, 
+                                 cn_, old_mu_w, lt_, first, out_, rc_, hadw, 
+                                 ata, so_, havel, tw, allr, omw, fca, sorw, 
+                                 all, old_c, tws, alr, rmq, dl, cn, gen, 
+                                 old_cv, lt_c, rc_c, so, out, ndl, wcn, old, 
+                                 wq, still2, cvr, dw, k, cdw, ck >>
 
 cs_f_v(self) == /\ pc[self] = "cs_f_v"
                 /\ sem' = [sem EXCEPT ![SemOf(Head(rmq[self]))] = SetV(sem[SemOf(Head(rmq[self]))])]
@@ -3019,11 +3061,11 @@ cs_f_v(self) == /\ pc[self] = "cs_f_v"
                                 old_, zlo, zhi, wcnt, lw, lt_u, old_u, tc, nwl, 
                                 wtrs, wake, wty, sor, cor, rmq_, late, lt_m, 
                                 old_m, lt_mu, old_mu, lt_mu_, ww, old_mu_, sdl, 
-                                scn, lt, rc, old_t, c, dl_, cn_, old_mu_w, lt_, 
-                                first, out_, rc_, hadw, ata, so_, havel, tw, 
-                                allr, omw, fca, sorw, all, old_c, tws, alr, dl, 
-                                cn, gen, old_cv, lt_c, rc_c, so, out, ndl, wcn, 
-                                old, wq, still2, cvr, dw, k, cdw, ck >>
+                                scn, lt, rc, old_t, zl, c, dl_, cn_, old_mu_w, 
+                                lt_, first, out_, rc_, hadw, ata, so_, havel, 
+                                tw, allr, omw, fca, sorw, all, old_c, tws, alr, 
+                                dl, cn, gen, old_cv, lt_c, rc_c, so, out, ndl, 
+                                wcn, old, wq, still2, cvr, dw, k, cdw, ck >>
 
 cs_4_st(self) == /\ pc[self] = "cs_4_st"
                  /\ cvword' = IF all[self] THEN 0 ELSE (IF cvq = <<>> THEN Clr(old_c[self], CVNE) ELSE old_c[self])
@@ -3063,7 +3105,7 @@ cs_4_st(self) == /\ pc[self] = "cs_4_st"
                                  zhi, wcnt, lw, lt_u, old_u, tc, nwl, wtrs, 
                                  wake, wty, sor, cor, rmq_, late, lt_m, old_m, 
                                  lt_mu, old_mu, lt_mu_, ww, old_mu_, sdl, scn, 
-                                 lt, rc, old_t, c, dl_, cn_, old_mu_w, lt_, 
+                                 lt, rc, old_t, zl, c, dl_, cn_, old_mu_w, lt_, 
                                  first, out_, rc_, hadw, ata, so_, havel, dl, 
                                  cn, gen, old_cv, lt_c, rc_c, so, out, ndl, 
                                  wcn, old, wq, still2, cvr, dw, k, cdw, ck >>
@@ -3092,10 +3134,10 @@ cw_1_st(self) == /\ pc[self] = "cw_1_st"
                                  lt_u, old_u, tc, nwl, wtrs, wake, wty, sor, 
                                  cor, rmq_, late, lt_m, old_m, lt_mu, old_mu, 
                                  lt_mu_, ww, old_mu_, sdl, scn, lt, rc, old_t, 
-                                 c, dl_, cn_, old_mu_w, lt_, first, out_, rc_, 
-                                 hadw, ata, so_, havel, tw, allr, omw, fca, 
-                                 sorw, all, old_c, tws, alr, rmq, dl, cn, gen, 
-                                 old_cv, rc_c, so, out, ndl, wcn, old, wq, 
+                                 zl, c, dl_, cn_, old_mu_w, lt_, first, out_, 
+                                 rc_, hadw, ata, so_, havel, tw, allr, omw, 
+                                 fca, sorw, all, old_c, tws, alr, rmq, dl, cn, 
+                                 gen, old_cv, rc_c, so, out, ndl, wcn, old, wq, 
                                  still2, cvr, dw, k, cdw, ck >>
 
 cw_2_ld(self) == /\ pc[self] = "cw_2_ld"
@@ -3111,12 +3153,12 @@ cw_2_ld(self) == /\ pc[self] = "cw_2_ld"
                                  old_, zlo, zhi, wcnt, lw, lt_u, old_u, tc, 
                                  nwl, wtrs, wake, wty, sor, cor, rmq_, late, 
                                  lt_m, old_m, lt_mu, old_mu, lt_mu_, ww, 
-                                 old_mu_, sdl, scn, lt, rc, old_t, c, dl_, cn_, 
-                                 old_mu_w, lt_, first, out_, rc_, hadw, ata, 
-                                 so_, havel, tw, allr, omw, fca, sorw, all, 
-                                 old_c, tws, alr, rmq, dl, cn, gen, old_cv, 
-                                 rc_c, so, out, ndl, wcn, old, wq, still2, cvr, 
-                                 dw, k, cdw, ck >>
+                                 old_mu_, sdl, scn, lt, rc, old_t, zl, c, dl_, 
+                                 cn_, old_mu_w, lt_, first, out_, rc_, hadw, 
+                                 ata, so_, havel, tw, allr, omw, fca, sorw, 
+                                 all, old_c, tws, alr, rmq, dl, cn, gen, 
+                                 old_cv, rc_c, so, out, ndl, wcn, old, wq, 
+                                 still2, cvr, dw, k, cdw, ck >>
 
 cw_3_ld(self) == /\ pc[self] = "cw_3_ld"
                  /\ old_cv' = [old_cv EXCEPT ![self] = cvword]
@@ -3132,10 +3174,10 @@ cw_3_ld(self) == /\ pc[self] = "cw_3_ld"
                                  old_u, tc, nwl, wtrs, wake, wty, sor, cor, 
                                  rmq_, late, lt_m, old_m, lt_mu, old_mu, 
                                  lt_mu_, ww, old_mu_, sdl, scn, lt, rc, old_t, 
-                                 c, dl_, cn_, old_mu_w, lt_, first, out_, rc_, 
-                                 hadw, ata, so_, havel, tw, allr, omw, fca, 
-                                 sorw, all, old_c, tws, alr, rmq, dl, cn, gen, 
-                                 lt_c, rc_c, so, out, ndl, wcn, old, wq, 
+                                 zl, c, dl_, cn_, old_mu_w, lt_, first, out_, 
+                                 rc_, hadw, ata, so_, havel, tw, allr, omw, 
+                                 fca, sorw, all, old_c, tws, alr, rmq, dl, cn, 
+                                 gen, lt_c, rc_c, so, out, ndl, wcn, old, wq, 
                                  still2, cvr, dw, k, cdw, ck >>
 
 cw_4_cas(self) == /\ pc[self] = "cw_4_cas"
@@ -3154,7 +3196,7 @@ cw_4_cas(self) == /\ pc[self] = "cw_4_cas"
                                   zlo, zhi, wcnt, lw, lt_u, old_u, tc, nwl, 
                                   wtrs, wake, wty, sor, cor, rmq_, late, lt_m, 
                                   old_m, lt_mu, old_mu, lt_mu_, ww, old_mu_, 
-                                  sdl, scn, lt, rc, old_t, c, dl_, cn_, 
+                                  sdl, scn, lt, rc, old_t, zl, c, dl_, cn_, 
                                   old_mu_w, lt_, first, out_, rc_, hadw, ata, 
                                   so_, havel, tw, allr, omw, fca, sorw, all, 
                                   old_c, tws, alr, rmq, dl, cn, gen, old_cv, 
@@ -3171,9 +3213,9 @@ cw_3_d(self) == /\ pc[self] = "cw_3_d"
                                 clear, old_, zlo, zhi, wcnt, lw, lt_u, old_u, 
                                 tc, nwl, wtrs, wake, wty, sor, cor, rmq_, late, 
                                 lt_m, old_m, lt_mu, old_mu, lt_mu_, ww, 
-                                old_mu_, sdl, scn, lt, rc, old_t, c, dl_, cn_, 
-                                old_mu_w, lt_, first, out_, rc_, hadw, ata, 
-                                so_, havel, tw, allr, omw, fca, sorw, all, 
+                                old_mu_, sdl, scn, lt, rc, old_t, zl, c, dl_, 
+                                cn_, old_mu_w, lt_, first, out_, rc_, hadw, 
+                                ata, so_, havel, tw, allr, omw, fca, sorw, all, 
                                 old_c, tws, alr, rmq, dl, cn, gen, old_cv, 
                                 lt_c, rc_c, so, out, ndl, wcn, old, wq, still2, 
                                 cvr, dw, k, cdw, ck >>
@@ -3190,10 +3232,10 @@ cw_5_ld(self) == /\ pc[self] = "cw_5_ld"
                                  old_u, tc, nwl, wtrs, wake, wty, sor, cor, 
                                  rmq_, late, lt_m, old_m, lt_mu, old_mu, 
                                  lt_mu_, ww, old_mu_, sdl, scn, lt, rc, old_t, 
-                                 c, dl_, cn_, old_mu_w, lt_, first, out_, rc_, 
-                                 hadw, ata, so_, havel, tw, allr, omw, fca, 
-                                 sorw, all, old_c, tws, alr, rmq, dl, cn, gen, 
-                                 old_cv, lt_c, so, out, ndl, wcn, old, wq, 
+                                 zl, c, dl_, cn_, old_mu_w, lt_, first, out_, 
+                                 rc_, hadw, ata, so_, havel, tw, allr, omw, 
+                                 fca, sorw, all, old_c, tws, alr, rmq, dl, cn, 
+                                 gen, old_cv, lt_c, so, out, ndl, wcn, old, wq, 
                                  still2, cvr, dw, k, cdw, ck >>
 
 cw_6_st(self) == /\ pc[self] = "cw_6_st"
@@ -3218,12 +3260,12 @@ cw_6_st(self) == /\ pc[self] = "cw_6_st"
                                  nwalive, taint3, lt_l, clear, old_, zlo, zhi, 
                                  wcnt, lw, lt_u, old_u, tc, nwl, wtrs, wake, 
                                  wty, sor, cor, rmq_, late, lt_m, old_m, lt_mu, 
-                                 old_mu, sdl, scn, lt, rc, old_t, c, dl_, cn_, 
-                                 old_mu_w, lt_, first, out_, rc_, hadw, ata, 
-                                 so_, havel, tw, allr, omw, fca, sorw, all, 
-                                 old_c, tws, alr, rmq, dl, cn, gen, old_cv, 
-                                 lt_c, rc_c, ndl, wcn, old, wq, still2, cvr, 
-                                 dw, k, cdw, ck >>
+                                 old_mu, sdl, scn, lt, rc, old_t, zl, c, dl_, 
+                                 cn_, old_mu_w, lt_, first, out_, rc_, hadw, 
+                                 ata, so_, havel, tw, allr, omw, fca, sorw, 
+                                 all, old_c, tws, alr, rmq, dl, cn, gen, 
+                                 old_cv, lt_c, rc_c, ndl, wcn, old, wq, still2, 
+                                 cvr, dw, k, cdw, ck >>
 
 cw_7_ld(self) == /\ pc[self] = "cw_7_ld"
                  /\ IF waiting[W(self)] = 0
@@ -3248,12 +3290,12 @@ cw_7_ld(self) == /\ pc[self] = "cw_7_ld"
                                  clear, old_, zlo, zhi, wcnt, lw, lt_u, old_u, 
                                  tc, nwl, wtrs, wake, wty, sor, cor, rmq_, 
                                  late, lt_m, old_m, lt_mu, old_mu, lt_mu_, ww, 
-                                 old_mu_, lt, rc, old_t, c, dl_, cn_, old_mu_w, 
-                                 lt_, first, out_, rc_, hadw, ata, so_, havel, 
-                                 tw, allr, omw, fca, sorw, all, old_c, tws, 
-                                 alr, rmq, dl, cn, gen, old_cv, lt_c, rc_c, so, 
-                                 out, ndl, wcn, old, wq, still2, cvr, dw, k, 
-                                 cdw, ck >>
+                                 old_mu_, lt, rc, old_t, zl, c, dl_, cn_, 
+                                 old_mu_w, lt_, first, out_, rc_, hadw, ata, 
+                                 so_, havel, tw, allr, omw, fca, sorw, all, 
+                                 old_c, tws, alr, rmq, dl, cn, gen, old_cv, 
+                                 lt_c, rc_c, so, out, ndl, wcn, old, wq, 
+                                 still2, cvr, dw, k, cdw, ck >>
 
 cw_8b_l(self) == /\ pc[self] = "cw_8b_l"
                  /\ so' = [so EXCEPT ![self] = sres[self]]
@@ -3269,11 +3311,11 @@ cw_8b_l(self) == /\ pc[self] = "cw_8b_l"
                                  old_u, tc, nwl, wtrs, wake, wty, sor, cor, 
                                  rmq_, late, lt_m, old_m, lt_mu, old_mu, 
                                  lt_mu_, ww, old_mu_, sdl, scn, lt, rc, old_t, 
-                                 c, dl_, cn_, old_mu_w, lt_, first, out_, rc_, 
-                                 hadw, ata, so_, havel, tw, allr, omw, fca, 
-                                 sorw, all, old_c, tws, alr, rmq, dl, cn, gen, 
-                                 old_cv, lt_c, rc_c, out, ndl, wcn, old, wq, 
-                                 still2, cvr, dw, k, cdw, ck >>
+                                 zl, c, dl_, cn_, old_mu_w, lt_, first, out_, 
+                                 rc_, hadw, ata, so_, havel, tw, allr, omw, 
+                                 fca, sorw, all, old_c, tws, alr, rmq, dl, cn, 
+                                 gen, old_cv, lt_c, rc_c, out, ndl, wcn, old, 
+                                 wq, still2, cvr, dw, k, cdw, ck >>
 
 cw_9_ld(self) == /\ pc[self] = "cw_9_ld"
                  /\ IF waiting[W(self)] = 0
@@ -3288,11 +3330,11 @@ cw_9_ld(self) == /\ pc[self] = "cw_9_ld"
                                  old_u, tc, nwl, wtrs, wake, wty, sor, cor, 
                                  rmq_, late, lt_m, old_m, lt_mu, old_mu, 
                                  lt_mu_, ww, old_mu_, sdl, scn, lt, rc, old_t, 
-                                 c, dl_, cn_, old_mu_w, lt_, first, out_, rc_, 
-                                 hadw, ata, so_, havel, tw, allr, omw, fca, 
-                                 sorw, all, old_c, tws, alr, rmq, dl, cn, gen, 
-                                 old_cv, lt_c, rc_c, so, out, ndl, wcn, old, 
-                                 wq, still2, cvr, dw, k, cdw, ck >>
+                                 zl, c, dl_, cn_, old_mu_w, lt_, first, out_, 
+                                 rc_, hadw, ata, so_, havel, tw, allr, omw, 
+                                 fca, sorw, all, old_c, tws, alr, rmq, dl, cn, 
+                                 gen, old_cv, lt_c, rc_c, so, out, ndl, wcn, 
+                                 old, wq, still2, cvr, dw, k, cdw, ck >>
 
 cw_10_ld(self) == /\ pc[self] = "cw_10_ld"
                   /\ old_cv' = [old_cv EXCEPT ![self] = cvword]
@@ -3308,10 +3350,10 @@ cw_10_ld(self) == /\ pc[self] = "cw_10_ld"
                                   old_u, tc, nwl, wtrs, wake, wty, sor, cor, 
                                   rmq_, late, lt_m, old_m, lt_mu, old_mu, 
                                   lt_mu_, ww, old_mu_, sdl, scn, lt, rc, old_t, 
-                                  c, dl_, cn_, old_mu_w, lt_, first, out_, rc_, 
-                                  hadw, ata, so_, havel, tw, allr, omw, fca, 
-                                  sorw, all, old_c, tws, alr, rmq, dl, cn, gen, 
-                                  lt_c, rc_c, so, out, ndl, wcn, old, wq, 
+                                  zl, c, dl_, cn_, old_mu_w, lt_, first, out_, 
+                                  rc_, hadw, ata, so_, havel, tw, allr, omw, 
+                                  fca, sorw, all, old_c, tws, alr, rmq, dl, cn, 
+                                  gen, lt_c, rc_c, so, out, ndl, wcn, old, wq, 
                                   still2, cvr, dw, k, cdw, ck >>
 
 cw_11_cas(self) == /\ pc[self] = "cw_11_cas"
@@ -3329,12 +3371,12 @@ cw_11_cas(self) == /\ pc[self] = "cw_11_cas"
                                    old_u, tc, nwl, wtrs, wake, wty, sor, cor, 
                                    rmq_, late, lt_m, old_m, lt_mu, old_mu, 
                                    lt_mu_, ww, old_mu_, sdl, scn, lt, rc, 
-                                   old_t, c, dl_, cn_, old_mu_w, lt_, first, 
-                                   out_, rc_, hadw, ata, so_, havel, tw, allr, 
-                                   omw, fca, sorw, all, old_c, tws, alr, rmq, 
-                                   dl, cn, gen, old_cv, lt_c, rc_c, so, out, 
-                                   ndl, wcn, old, wq, still2, cvr, dw, k, cdw, 
-                                   ck >>
+                                   old_t, zl, c, dl_, cn_, old_mu_w, lt_, 
+                                   first, out_, rc_, hadw, ata, so_, havel, tw, 
+                                   allr, omw, fca, sorw, all, old_c, tws, alr, 
+                                   rmq, dl, cn, gen, old_cv, lt_c, rc_c, so, 
+                                   out, ndl, wcn, old, wq, still2, cvr, dw, k, 
+                                   cdw, ck >>
 
 cw_10_d(self) == /\ pc[self] = "cw_10_d"
                  /\ pc' = [pc EXCEPT ![self] = "cw_10_ld"]
@@ -3347,11 +3389,11 @@ cw_10_d(self) == /\ pc[self] = "cw_10_d"
                                  old_u, tc, nwl, wtrs, wake, wty, sor, cor, 
                                  rmq_, late, lt_m, old_m, lt_mu, old_mu, 
                                  lt_mu_, ww, old_mu_, sdl, scn, lt, rc, old_t, 
-                                 c, dl_, cn_, old_mu_w, lt_, first, out_, rc_, 
-                                 hadw, ata, so_, havel, tw, allr, omw, fca, 
-                                 sorw, all, old_c, tws, alr, rmq, dl, cn, gen, 
-                                 old_cv, lt_c, rc_c, so, out, ndl, wcn, old, 
-                                 wq, still2, cvr, dw, k, cdw, ck >>
+                                 zl, c, dl_, cn_, old_mu_w, lt_, first, out_, 
+                                 rc_, hadw, ata, so_, havel, tw, allr, omw, 
+                                 fca, sorw, all, old_c, tws, alr, rmq, dl, cn, 
+                                 gen, old_cv, lt_c, rc_c, so, out, ndl, wcn, 
+                                 old, wq, still2, cvr, dw, k, cdw, ck >>
 
 cw_12_ld(self) == /\ pc[self] = "cw_12_ld"
                   /\ IF waiting[W(self)] = 0
@@ -3366,11 +3408,11 @@ cw_12_ld(self) == /\ pc[self] = "cw_12_ld"
                                   old_u, tc, nwl, wtrs, wake, wty, sor, cor, 
                                   rmq_, late, lt_m, old_m, lt_mu, old_mu, 
                                   lt_mu_, ww, old_mu_, sdl, scn, lt, rc, old_t, 
-                                  c, dl_, cn_, old_mu_w, lt_, first, out_, rc_, 
-                                  hadw, ata, so_, havel, tw, allr, omw, fca, 
-                                  sorw, all, old_c, tws, alr, rmq, dl, cn, gen, 
-                                  old_cv, lt_c, rc_c, so, out, ndl, wcn, old, 
-                                  wq, still2, cvr, dw, k, cdw, ck >>
+                                  zl, c, dl_, cn_, old_mu_w, lt_, first, out_, 
+                                  rc_, hadw, ata, so_, havel, tw, allr, omw, 
+                                  fca, sorw, all, old_c, tws, alr, rmq, dl, cn, 
+                                  gen, old_cv, lt_c, rc_c, so, out, ndl, wcn, 
+                                  old, wq, still2, cvr, dw, k, cdw, ck >>
 
 cw_13_ld(self) == /\ pc[self] = "cw_13_ld"
                   /\ IF rc_c[self] # rmc[W(self)]
@@ -3387,7 +3429,7 @@ cw_13_ld(self) == /\ pc[self] = "cw_13_ld"
                                   clear, old_, zlo, zhi, wcnt, lw, lt_u, old_u, 
                                   tc, nwl, wtrs, wake, wty, sor, cor, rmq_, 
                                   late, lt_m, old_m, lt_mu, old_mu, lt_mu_, ww, 
-                                  old_mu_, sdl, scn, lt, rc, old_t, c, dl_, 
+                                  old_mu_, sdl, scn, lt, rc, old_t, zl, c, dl_, 
                                   cn_, old_mu_w, lt_, first, out_, rc_, hadw, 
                                   ata, so_, havel, tw, allr, omw, fca, sorw, 
                                   all, old_c, tws, alr, rmq, dl, cn, gen, 
@@ -3406,11 +3448,11 @@ cw_14_ld(self) == /\ pc[self] = "cw_14_ld"
                                   old_u, tc, nwl, wtrs, wake, wty, sor, cor, 
                                   rmq_, late, lt_m, old_m, lt_mu, old_mu, 
                                   lt_mu_, ww, old_mu_, sdl, scn, lt, rc, old_t, 
-                                  c, dl_, cn_, old_mu_w, lt_, first, out_, rc_, 
-                                  hadw, ata, so_, havel, tw, allr, omw, fca, 
-                                  sorw, all, old_c, tws, alr, rmq, dl, cn, gen, 
-                                  old_cv, lt_c, rc_c, so, out, ndl, wcn, old, 
-                                  wq, still2, cvr, dw, k, cdw, ck >>
+                                  zl, c, dl_, cn_, old_mu_w, lt_, first, out_, 
+                                  rc_, hadw, ata, so_, havel, tw, allr, omw, 
+                                  fca, sorw, all, old_c, tws, alr, rmq, dl, cn, 
+                                  gen, old_cv, lt_c, rc_c, so, out, ndl, wcn, 
+                                  old, wq, still2, cvr, dw, k, cdw, ck >>
 
 cw_14_cas(self) == /\ pc[self] = "cw_14_cas"
                    /\ rmc' = [rmc EXCEPT ![W(self)] = rmc[W(self)] + 1]
@@ -3425,11 +3467,11 @@ cw_14_cas(self) == /\ pc[self] = "cw_14_cas"
                                    old_u, tc, nwl, wtrs, wake, wty, sor, cor, 
                                    rmq_, late, lt_m, old_m, lt_mu, old_mu, 
                                    lt_mu_, ww, old_mu_, sdl, scn, lt, rc, 
-                                   old_t, c, dl_, cn_, old_mu_w, lt_, first, 
-                                   out_, rc_, hadw, ata, so_, havel, tw, allr, 
-                                   omw, fca, sorw, all, old_c, tws, alr, rmq, 
-                                   dl, cn, gen, lt_c, rc_c, so, out, ndl, wcn, 
-                                   old, wq, still2, cvr, dw, k, cdw, ck >>
+                                   old_t, zl, c, dl_, cn_, old_mu_w, lt_, 
+                                   first, out_, rc_, hadw, ata, so_, havel, tw, 
+                                   allr, omw, fca, sorw, all, old_c, tws, alr, 
+                                   rmq, dl, cn, gen, lt_c, rc_c, so, out, ndl, 
+                                   wcn, old, wq, still2, cvr, dw, k, cdw, ck >>
 
 cw_14_st(self) == /\ pc[self] = "cw_14_st"
                   /\ waiting' = [waiting EXCEPT ![W(self)] = 0]
@@ -3442,7 +3484,7 @@ cw_14_st(self) == /\ pc[self] = "cw_14_st"
                                   old_, zlo, zhi, wcnt, lw, lt_u, old_u, tc, 
                                   nwl, wtrs, wake, wty, sor, cor, rmq_, late, 
                                   lt_m, old_m, lt_mu, old_mu, lt_mu_, ww, 
-                                  old_mu_, sdl, scn, lt, rc, old_t, c, dl_, 
+                                  old_mu_, sdl, scn, lt, rc, old_t, zl, c, dl_, 
                                   cn_, old_mu_w, lt_, first, out_, rc_, hadw, 
                                   ata, so_, havel, tw, allr, omw, fca, sorw, 
                                   all, old_c, tws, alr, rmq, dl, cn, gen, 
@@ -3460,7 +3502,7 @@ cw_15_st(self) == /\ pc[self] = "cw_15_st"
                                   old_, zlo, zhi, wcnt, lw, lt_u, old_u, tc, 
                                   nwl, wtrs, wake, wty, sor, cor, rmq_, late, 
                                   lt_m, old_m, lt_mu, old_mu, lt_mu_, ww, 
-                                  old_mu_, sdl, scn, lt, rc, old_t, c, dl_, 
+                                  old_mu_, sdl, scn, lt, rc, old_t, zl, c, dl_, 
                                   cn_, old_mu_w, lt_, first, out_, rc_, hadw, 
                                   ata, so_, havel, tw, allr, omw, fca, sorw, 
                                   all, old_c, tws, alr, rmq, dl, cn, gen, 
@@ -3480,11 +3522,11 @@ cw_16_ld(self) == /\ pc[self] = "cw_16_ld"
                                   old_u, tc, nwl, wtrs, wake, wty, sor, cor, 
                                   rmq_, late, lt_m, old_m, lt_mu, old_mu, 
                                   lt_mu_, ww, old_mu_, sdl, scn, lt, rc, old_t, 
-                                  c, dl_, cn_, old_mu_w, lt_, first, out_, rc_, 
-                                  hadw, ata, so_, havel, tw, allr, omw, fca, 
-                                  sorw, all, old_c, tws, alr, rmq, dl, cn, gen, 
-                                  old_cv, lt_c, rc_c, so, out, ndl, wcn, old, 
-                                  wq, still2, cvr, dw, k, cdw, ck >>
+                                  zl, c, dl_, cn_, old_mu_w, lt_, first, out_, 
+                                  rc_, hadw, ata, so_, havel, tw, allr, omw, 
+                                  fca, sorw, all, old_c, tws, alr, rmq, dl, cn, 
+                                  gen, old_cv, lt_c, rc_c, so, out, ndl, wcn, 
+                                  old, wq, still2, cvr, dw, k, cdw, ck >>
 
 cw_16_d(self) == /\ pc[self] = "cw_16_d"
                  /\ pc' = [pc EXCEPT ![self] = "cw_7_ld"]
@@ -3497,11 +3539,11 @@ cw_16_d(self) == /\ pc[self] = "cw_16_d"
                                  old_u, tc, nwl, wtrs, wake, wty, sor, cor, 
                                  rmq_, late, lt_m, old_m, lt_mu, old_mu, 
                                  lt_mu_, ww, old_mu_, sdl, scn, lt, rc, old_t, 
-                                 c, dl_, cn_, old_mu_w, lt_, first, out_, rc_, 
-                                 hadw, ata, so_, havel, tw, allr, omw, fca, 
-                                 sorw, all, old_c, tws, alr, rmq, dl, cn, gen, 
-                                 old_cv, lt_c, rc_c, so, out, ndl, wcn, old, 
-                                 wq, still2, cvr, dw, k, cdw, ck >>
+                                 zl, c, dl_, cn_, old_mu_w, lt_, first, out_, 
+                                 rc_, hadw, ata, so_, havel, tw, allr, omw, 
+                                 fca, sorw, all, old_c, tws, alr, rmq, dl, cn, 
+                                 gen, old_cv, lt_c, rc_c, so, out, ndl, wcn, 
+                                 old, wq, still2, cvr, dw, k, cdw, ck >>
 
 cw_17_l(self) == /\ pc[self] = "cw_17_l"
                  /\ IF ~gen[self] /\ ~cvmu[W(self)]
@@ -3541,12 +3583,12 @@ cw_17_l(self) == /\ pc[self] = "cw_17_l"
                                  nq, muFreed, refs, nwalive, taint3, lt_u, 
                                  old_u, tc, nwl, wtrs, wake, wty, sor, cor, 
                                  rmq_, late, lt_mu, old_mu, lt_mu_, ww, 
-                                 old_mu_, sdl, scn, lt, rc, old_t, c, dl_, cn_, 
-                                 old_mu_w, lt_, first, out_, rc_, hadw, ata, 
-                                 so_, havel, tw, allr, omw, fca, sorw, all, 
-                                 old_c, tws, alr, rmq, dl, cn, gen, old_cv, 
-                                 lt_c, rc_c, so, out, ndl, wcn, old, wq, 
-                                 still2, cvr, dw, k, cdw, ck >>
+                                 old_mu_, sdl, scn, lt, rc, old_t, zl, c, dl_, 
+                                 cn_, old_mu_w, lt_, first, out_, rc_, hadw, 
+                                 ata, so_, havel, tw, allr, omw, fca, sorw, 
+                                 all, old_c, tws, alr, rmq, dl, cn, gen, 
+                                 old_cv, lt_c, rc_c, so, out, ndl, wcn, old, 
+                                 wq, still2, cvr, dw, k, cdw, ck >>
 
 cw_18_l(self) == /\ pc[self] = "cw_18_l"
                  /\ ret' = [ret EXCEPT ![self] = out[self]]
@@ -3568,10 +3610,10 @@ cw_18_l(self) == /\ pc[self] = "cw_18_l"
                                  old_, zlo, zhi, wcnt, lw, lt_u, old_u, tc, 
                                  nwl, wtrs, wake, wty, sor, cor, rmq_, late, 
                                  lt_m, old_m, lt_mu, old_mu, lt_mu_, ww, 
-                                 old_mu_, sdl, scn, lt, rc, old_t, c, dl_, cn_, 
-                                 old_mu_w, lt_, first, out_, rc_, hadw, ata, 
-                                 so_, havel, tw, allr, omw, fca, sorw, all, 
-                                 old_c, tws, alr, rmq, ndl, wcn, old, wq, 
+                                 old_mu_, sdl, scn, lt, rc, old_t, zl, c, dl_, 
+                                 cn_, old_mu_w, lt_, first, out_, rc_, hadw, 
+                                 ata, so_, havel, tw, allr, omw, fca, sorw, 
+                                 all, old_c, tws, alr, rmq, ndl, wcn, old, wq, 
                                  still2, cvr, dw, k, cdw, ck >>
 
 cv_wait(self) == cw_1_st(self) \/ cw_2_ld(self) \/ cw_3_ld(self)
@@ -3606,11 +3648,11 @@ wn_0_l(self) == /\ pc[self] = "wn_0_l"
                                 wcnt, lw, lt_u, old_u, tc, nwl, wtrs, wake, 
                                 wty, sor, cor, rmq_, late, lt_m, old_m, lt_mu, 
                                 old_mu, lt_mu_, ww, old_mu_, sdl, scn, lt, rc, 
-                                old_t, c, dl_, cn_, old_mu_w, lt_, first, out_, 
-                                rc_, hadw, ata, so_, havel, tw, allr, omw, fca, 
-                                sorw, all, old_c, tws, alr, rmq, dl, cn, gen, 
-                                old_cv, lt_c, rc_c, so, out, ndl, wcn, old, wq, 
-                                still2, cvr, dw, k, cdw, ck >>
+                                old_t, zl, c, dl_, cn_, old_mu_w, lt_, first, 
+                                out_, rc_, hadw, ata, so_, havel, tw, allr, 
+                                omw, fca, sorw, all, old_c, tws, alr, rmq, dl, 
+                                cn, gen, old_cv, lt_c, rc_c, so, out, ndl, wcn, 
+                                old, wq, still2, cvr, dw, k, cdw, ck >>
 
 wn_0_r(self) == /\ pc[self] = "wn_0_r"
                 /\ IF note
@@ -3644,11 +3686,11 @@ wn_0_r(self) == /\ pc[self] = "wn_0_r"
                                 lt_l, clear, old_, zlo, zhi, wcnt, lw, lt_u, 
                                 old_u, tc, nwl, wtrs, wake, wty, sor, cor, 
                                 rmq_, late, lt_m, old_m, lt_mu, old_mu, lt_mu_, 
-                                ww, old_mu_, sdl, scn, lt, rc, old_t, c, dl_, 
-                                cn_, old_mu_w, lt_, first, out_, rc_, hadw, 
-                                ata, so_, havel, tw, allr, omw, fca, sorw, all, 
-                                old_c, tws, alr, rmq, dl, cn, gen, old_cv, 
-                                lt_c, rc_c, so, out, dw, k, cdw, ck >>
+                                ww, old_mu_, sdl, scn, lt, rc, old_t, zl, c, 
+                                dl_, cn_, old_mu_w, lt_, first, out_, rc_, 
+                                hadw, ata, so_, havel, tw, allr, omw, fca, 
+                                sorw, all, old_c, tws, alr, rmq, dl, cn, gen, 
+                                old_cv, lt_c, rc_c, so, out, dw, k, cdw, ck >>
 
 wn_1_st(self) == /\ pc[self] = "wn_1_st"
                  /\ nww' = [nww EXCEPT ![self] = 0]
@@ -3664,11 +3706,11 @@ wn_1_st(self) == /\ pc[self] = "wn_1_st"
                                  lt_u, old_u, tc, nwl, wtrs, wake, wty, sor, 
                                  cor, rmq_, late, lt_m, old_m, lt_mu, old_mu, 
                                  lt_mu_, ww, old_mu_, sdl, scn, lt, rc, old_t, 
-                                 c, dl_, cn_, old_mu_w, lt_, first, out_, rc_, 
-                                 hadw, ata, so_, havel, tw, allr, omw, fca, 
-                                 sorw, all, old_c, tws, alr, rmq, dl, cn, gen, 
-                                 old_cv, lt_c, rc_c, so, out, ndl, wcn, old, 
-                                 wq, still2, cvr, dw, k, cdw, ck >>
+                                 zl, c, dl_, cn_, old_mu_w, lt_, first, out_, 
+                                 rc_, hadw, ata, so_, havel, tw, allr, omw, 
+                                 fca, sorw, all, old_c, tws, alr, rmq, dl, cn, 
+                                 gen, old_cv, lt_c, rc_c, so, out, ndl, wcn, 
+                                 old, wq, still2, cvr, dw, k, cdw, ck >>
 
 wn_2_ld(self) == /\ pc[self] = "wn_2_ld"
                  /\ old' = [old EXCEPT ![self] = cvword]
@@ -3684,11 +3726,11 @@ wn_2_ld(self) == /\ pc[self] = "wn_2_ld"
                                  old_u, tc, nwl, wtrs, wake, wty, sor, cor, 
                                  rmq_, late, lt_m, old_m, lt_mu, old_mu, 
                                  lt_mu_, ww, old_mu_, sdl, scn, lt, rc, old_t, 
-                                 c, dl_, cn_, old_mu_w, lt_, first, out_, rc_, 
-                                 hadw, ata, so_, havel, tw, allr, omw, fca, 
-                                 sorw, all, old_c, tws, alr, rmq, dl, cn, gen, 
-                                 old_cv, lt_c, rc_c, so, out, ndl, wcn, wq, 
-                                 still2, cvr, dw, k, cdw, ck >>
+                                 zl, c, dl_, cn_, old_mu_w, lt_, first, out_, 
+                                 rc_, hadw, ata, so_, havel, tw, allr, omw, 
+                                 fca, sorw, all, old_c, tws, alr, rmq, dl, cn, 
+                                 gen, old_cv, lt_c, rc_c, so, out, ndl, wcn, 
+                                 wq, still2, cvr, dw, k, cdw, ck >>
 
 wn_3_cas(self) == /\ pc[self] = "wn_3_cas"
                   /\ IF cvword = old[self]
@@ -3706,7 +3748,7 @@ wn_3_cas(self) == /\ pc[self] = "wn_3_cas"
                                   zlo, zhi, wcnt, lw, lt_u, old_u, tc, nwl, 
                                   wtrs, wake, wty, sor, cor, rmq_, late, lt_m, 
                                   old_m, lt_mu, old_mu, lt_mu_, ww, old_mu_, 
-                                  sdl, scn, lt, rc, old_t, c, dl_, cn_, 
+                                  sdl, scn, lt, rc, old_t, zl, c, dl_, cn_, 
                                   old_mu_w, lt_, first, out_, rc_, hadw, ata, 
                                   so_, havel, tw, allr, omw, fca, sorw, all, 
                                   old_c, tws, alr, rmq, dl, cn, gen, old_cv, 
@@ -3723,9 +3765,9 @@ wn_2_d(self) == /\ pc[self] = "wn_2_d"
                                 clear, old_, zlo, zhi, wcnt, lw, lt_u, old_u, 
                                 tc, nwl, wtrs, wake, wty, sor, cor, rmq_, late, 
                                 lt_m, old_m, lt_mu, old_mu, lt_mu_, ww, 
-                                old_mu_, sdl, scn, lt, rc, old_t, c, dl_, cn_, 
-                                old_mu_w, lt_, first, out_, rc_, hadw, ata, 
-                                so_, havel, tw, allr, omw, fca, sorw, all, 
+                                old_mu_, sdl, scn, lt, rc, old_t, zl, c, dl_, 
+                                cn_, old_mu_w, lt_, first, out_, rc_, hadw, 
+                                ata, so_, havel, tw, allr, omw, fca, sorw, all, 
                                 old_c, tws, alr, rmq, dl, cn, gen, old_cv, 
                                 lt_c, rc_c, so, out, ndl, wcn, old, wq, still2, 
                                 cvr, dw, k, cdw, ck >>
@@ -3741,12 +3783,12 @@ wn_4_st(self) == /\ pc[self] = "wn_4_st"
                                  clear, old_, zlo, zhi, wcnt, lw, lt_u, old_u, 
                                  tc, nwl, wtrs, wake, wty, sor, cor, rmq_, 
                                  late, lt_m, old_m, lt_mu, old_mu, lt_mu_, ww, 
-                                 old_mu_, sdl, scn, lt, rc, old_t, c, dl_, cn_, 
-                                 old_mu_w, lt_, first, out_, rc_, hadw, ata, 
-                                 so_, havel, tw, allr, omw, fca, sorw, all, 
-                                 old_c, tws, alr, rmq, dl, cn, gen, old_cv, 
-                                 lt_c, rc_c, so, out, ndl, wcn, old, wq, 
-                                 still2, cvr, dw, k, cdw, ck >>
+                                 old_mu_, sdl, scn, lt, rc, old_t, zl, c, dl_, 
+                                 cn_, old_mu_w, lt_, first, out_, rc_, hadw, 
+                                 ata, so_, havel, tw, allr, omw, fca, sorw, 
+                                 all, old_c, tws, alr, rmq, dl, cn, gen, 
+                                 old_cv, lt_c, rc_c, so, out, ndl, wcn, old, 
+                                 wq, still2, cvr, dw, k, cdw, ck >>
 
 wn_5_st(self) == /\ pc[self] = "wn_5_st"
                  /\ cvword' = old[self] | CVNE
@@ -3759,12 +3801,12 @@ wn_5_st(self) == /\ pc[self] = "wn_5_st"
                                  old_, zlo, zhi, wcnt, lw, lt_u, old_u, tc, 
                                  nwl, wtrs, wake, wty, sor, cor, rmq_, late, 
                                  lt_m, old_m, lt_mu, old_mu, lt_mu_, ww, 
-                                 old_mu_, sdl, scn, lt, rc, old_t, c, dl_, cn_, 
-                                 old_mu_w, lt_, first, out_, rc_, hadw, ata, 
-                                 so_, havel, tw, allr, omw, fca, sorw, all, 
-                                 old_c, tws, alr, rmq, dl, cn, gen, old_cv, 
-                                 lt_c, rc_c, so, out, ndl, wcn, old, wq, 
-                                 still2, cvr, dw, k, cdw, ck >>
+                                 old_mu_, sdl, scn, lt, rc, old_t, zl, c, dl_, 
+                                 cn_, old_mu_w, lt_, first, out_, rc_, hadw, 
+                                 ata, so_, havel, tw, allr, omw, fca, sorw, 
+                                 all, old_c, tws, alr, rmq, dl, cn, gen, 
+                                 old_cv, lt_c, rc_c, so, out, ndl, wcn, old, 
+                                 wq, still2, cvr, dw, k, cdw, ck >>
 
 wn_5_l(self) == /\ pc[self] = "wn_5_l"
                 /\ IF ~wcn[self]
@@ -3778,9 +3820,9 @@ wn_5_l(self) == /\ pc[self] = "wn_5_l"
                                 clear, old_, zlo, zhi, wcnt, lw, lt_u, old_u, 
                                 tc, nwl, wtrs, wake, wty, sor, cor, rmq_, late, 
                                 lt_m, old_m, lt_mu, old_mu, lt_mu_, ww, 
-                                old_mu_, sdl, scn, lt, rc, old_t, c, dl_, cn_, 
-                                old_mu_w, lt_, first, out_, rc_, hadw, ata, 
-                                so_, havel, tw, allr, omw, fca, sorw, all, 
+                                old_mu_, sdl, scn, lt, rc, old_t, zl, c, dl_, 
+                                cn_, old_mu_w, lt_, first, out_, rc_, hadw, 
+                                ata, so_, havel, tw, allr, omw, fca, sorw, all, 
                                 old_c, tws, alr, rmq, dl, cn, gen, old_cv, 
                                 lt_c, rc_c, so, out, ndl, wcn, old, wq, still2, 
                                 cvr, dw, k, cdw, ck >>
@@ -3796,7 +3838,7 @@ wn_5a_st(self) == /\ pc[self] = "wn_5a_st"
                                   clear, old_, zlo, zhi, wcnt, lw, lt_u, old_u, 
                                   tc, nwl, wtrs, wake, wty, sor, cor, rmq_, 
                                   late, lt_m, old_m, lt_mu, old_mu, lt_mu_, ww, 
-                                  old_mu_, sdl, scn, lt, rc, old_t, c, dl_, 
+                                  old_mu_, sdl, scn, lt, rc, old_t, zl, c, dl_, 
                                   cn_, old_mu_w, lt_, first, out_, rc_, hadw, 
                                   ata, so_, havel, tw, allr, omw, fca, sorw, 
                                   all, old_c, tws, alr, rmq, dl, cn, gen, 
@@ -3818,7 +3860,7 @@ wn_5b_r(self) == /\ pc[self] = "wn_5b_r"
                                  zlo, zhi, wcnt, lw, lt_u, old_u, tc, nwl, 
                                  wtrs, wake, wty, sor, cor, rmq_, late, lt_m, 
                                  old_m, lt_mu, old_mu, lt_mu_, ww, old_mu_, 
-                                 sdl, scn, lt, rc, old_t, c, dl_, cn_, 
+                                 sdl, scn, lt, rc, old_t, zl, c, dl_, cn_, 
                                  old_mu_w, lt_, first, out_, rc_, hadw, ata, 
                                  so_, havel, tw, allr, omw, fca, sorw, all, 
                                  old_c, tws, alr, rmq, dl, cn, gen, old_cv, 
@@ -3845,7 +3887,7 @@ wn_5u_l(self) == /\ pc[self] = "wn_5u_l"
                                  old_, zlo, zhi, wcnt, lw, lt_u, old_u, tc, 
                                  nwl, wtrs, wake, wty, sor, cor, rmq_, late, 
                                  lt_m, old_m, lt_mu, old_mu, sdl, scn, lt, rc, 
-                                 old_t, c, dl_, cn_, old_mu_w, lt_, first, 
+                                 old_t, zl, c, dl_, cn_, old_mu_w, lt_, first, 
                                  out_, rc_, hadw, ata, so_, havel, tw, allr, 
                                  omw, fca, sorw, all, old_c, tws, alr, rmq, dl, 
                                  cn, gen, old_cv, lt_c, rc_c, so, out, ndl, 
@@ -3863,11 +3905,11 @@ wn_6_ld(self) == /\ pc[self] = "wn_6_ld"
                                  old_u, tc, nwl, wtrs, wake, wty, sor, cor, 
                                  rmq_, late, lt_m, old_m, lt_mu, old_mu, 
                                  lt_mu_, ww, old_mu_, sdl, scn, lt, rc, old_t, 
-                                 c, dl_, cn_, old_mu_w, lt_, first, out_, rc_, 
-                                 hadw, ata, so_, havel, tw, allr, omw, fca, 
-                                 sorw, all, old_c, tws, alr, rmq, dl, cn, gen, 
-                                 old_cv, lt_c, rc_c, so, out, ndl, wcn, old, 
-                                 wq, still2, dw, k, cdw, ck >>
+                                 zl, c, dl_, cn_, old_mu_w, lt_, first, out_, 
+                                 rc_, hadw, ata, so_, havel, tw, allr, omw, 
+                                 fca, sorw, all, old_c, tws, alr, rmq, dl, cn, 
+                                 gen, old_cv, lt_c, rc_c, so, out, ndl, wcn, 
+                                 old, wq, still2, dw, k, cdw, ck >>
 
 wn_6_l(self) == /\ pc[self] = "wn_6_l"
                 /\ IF ~wcn[self]
@@ -3883,9 +3925,9 @@ wn_6_l(self) == /\ pc[self] = "wn_6_l"
                                 clear, old_, zlo, zhi, wcnt, lw, lt_u, old_u, 
                                 tc, nwl, wtrs, wake, wty, sor, cor, rmq_, late, 
                                 lt_m, old_m, lt_mu, old_mu, lt_mu_, ww, 
-                                old_mu_, sdl, scn, lt, rc, old_t, c, dl_, cn_, 
-                                old_mu_w, lt_, first, out_, rc_, hadw, ata, 
-                                so_, havel, tw, allr, omw, fca, sorw, all, 
+                                old_mu_, sdl, scn, lt, rc, old_t, zl, c, dl_, 
+                                cn_, old_mu_w, lt_, first, out_, rc_, hadw, 
+                                ata, so_, havel, tw, allr, omw, fca, sorw, all, 
                                 old_c, tws, alr, rmq, dl, cn, gen, old_cv, 
                                 lt_c, rc_c, so, out, ndl, wcn, old, wq, still2, 
                                 cvr, dw, k, cdw, ck >>
@@ -3903,11 +3945,11 @@ wn_6a_r(self) == /\ pc[self] = "wn_6a_r"
                                  old_u, tc, nwl, wtrs, wake, wty, sor, cor, 
                                  rmq_, late, lt_m, old_m, lt_mu, old_mu, 
                                  lt_mu_, ww, old_mu_, sdl, scn, lt, rc, old_t, 
-                                 c, dl_, cn_, old_mu_w, lt_, first, out_, rc_, 
-                                 hadw, ata, so_, havel, tw, allr, omw, fca, 
-                                 sorw, all, old_c, tws, alr, rmq, dl, cn, gen, 
-                                 old_cv, lt_c, rc_c, so, out, ndl, wcn, old, 
-                                 wq, still2, cvr, dw, k, cdw, ck >>
+                                 zl, c, dl_, cn_, old_mu_w, lt_, first, out_, 
+                                 rc_, hadw, ata, so_, havel, tw, allr, omw, 
+                                 fca, sorw, all, old_c, tws, alr, rmq, dl, cn, 
+                                 gen, old_cv, lt_c, rc_c, so, out, ndl, wcn, 
+                                 old, wq, still2, cvr, dw, k, cdw, ck >>
 
 wn_7_pd(self) == /\ pc[self] = "wn_7_pd"
                  /\ sem[W(self)] > 0 \/ Expired(ndl[self], now)
@@ -3924,12 +3966,12 @@ wn_7_pd(self) == /\ pc[self] = "wn_7_pd"
                                  clear, old_, zlo, zhi, wcnt, lw, lt_u, old_u, 
                                  tc, nwl, wtrs, wake, wty, sor, cor, rmq_, 
                                  late, lt_m, old_m, lt_mu, old_mu, lt_mu_, ww, 
-                                 old_mu_, sdl, scn, lt, rc, old_t, c, dl_, cn_, 
-                                 old_mu_w, lt_, first, out_, rc_, hadw, ata, 
-                                 so_, havel, tw, allr, omw, fca, sorw, all, 
-                                 old_c, tws, alr, rmq, dl, cn, gen, old_cv, 
-                                 lt_c, rc_c, so, out, ndl, wcn, old, wq, 
-                                 still2, cvr, dw, k, cdw, ck >>
+                                 old_mu_, sdl, scn, lt, rc, old_t, zl, c, dl_, 
+                                 cn_, old_mu_w, lt_, first, out_, rc_, hadw, 
+                                 ata, so_, havel, tw, allr, omw, fca, sorw, 
+                                 all, old_c, tws, alr, rmq, dl, cn, gen, 
+                                 old_cv, lt_c, rc_c, so, out, ndl, wcn, old, 
+                                 wq, still2, cvr, dw, k, cdw, ck >>
 
 wn_8_ld(self) == /\ pc[self] = "wn_8_ld"
                  /\ old' = [old EXCEPT ![self] = cvword]
@@ -3945,11 +3987,11 @@ wn_8_ld(self) == /\ pc[self] = "wn_8_ld"
                                  old_u, tc, nwl, wtrs, wake, wty, sor, cor, 
                                  rmq_, late, lt_m, old_m, lt_mu, old_mu, 
                                  lt_mu_, ww, old_mu_, sdl, scn, lt, rc, old_t, 
-                                 c, dl_, cn_, old_mu_w, lt_, first, out_, rc_, 
-                                 hadw, ata, so_, havel, tw, allr, omw, fca, 
-                                 sorw, all, old_c, tws, alr, rmq, dl, cn, gen, 
-                                 old_cv, lt_c, rc_c, so, out, ndl, wcn, wq, 
-                                 still2, cvr, dw, k, cdw, ck >>
+                                 zl, c, dl_, cn_, old_mu_w, lt_, first, out_, 
+                                 rc_, hadw, ata, so_, havel, tw, allr, omw, 
+                                 fca, sorw, all, old_c, tws, alr, rmq, dl, cn, 
+                                 gen, old_cv, lt_c, rc_c, so, out, ndl, wcn, 
+                                 wq, still2, cvr, dw, k, cdw, ck >>
 
 wn_9_cas(self) == /\ pc[self] = "wn_9_cas"
                   /\ IF cvword = old[self]
@@ -3965,7 +4007,7 @@ wn_9_cas(self) == /\ pc[self] = "wn_9_cas"
                                   old_, zlo, zhi, wcnt, lw, lt_u, old_u, tc, 
                                   nwl, wtrs, wake, wty, sor, cor, rmq_, late, 
                                   lt_m, old_m, lt_mu, old_mu, lt_mu_, ww, 
-                                  old_mu_, sdl, scn, lt, rc, old_t, c, dl_, 
+                                  old_mu_, sdl, scn, lt, rc, old_t, zl, c, dl_, 
                                   cn_, old_mu_w, lt_, first, out_, rc_, hadw, 
                                   ata, so_, havel, tw, allr, omw, fca, sorw, 
                                   all, old_c, tws, alr, rmq, dl, cn, gen, 
@@ -3982,9 +4024,9 @@ wn_8_d(self) == /\ pc[self] = "wn_8_d"
                                 clear, old_, zlo, zhi, wcnt, lw, lt_u, old_u, 
                                 tc, nwl, wtrs, wake, wty, sor, cor, rmq_, late, 
                                 lt_m, old_m, lt_mu, old_mu, lt_mu_, ww, 
-                                old_mu_, sdl, scn, lt, rc, old_t, c, dl_, cn_, 
-                                old_mu_w, lt_, first, out_, rc_, hadw, ata, 
-                                so_, havel, tw, allr, omw, fca, sorw, all, 
+                                old_mu_, sdl, scn, lt, rc, old_t, zl, c, dl_, 
+                                cn_, old_mu_w, lt_, first, out_, rc_, hadw, 
+                                ata, so_, havel, tw, allr, omw, fca, sorw, all, 
                                 old_c, tws, alr, rmq, dl, cn, gen, old_cv, 
                                 lt_c, rc_c, so, out, ndl, wcn, old, wq, still2, 
                                 cvr, dw, k, cdw, ck >>
@@ -4006,7 +4048,7 @@ wn_10_ld(self) == /\ pc[self] = "wn_10_ld"
                                   old_, zlo, zhi, wcnt, lw, lt_u, old_u, tc, 
                                   nwl, wtrs, wake, wty, sor, cor, rmq_, late, 
                                   lt_m, old_m, lt_mu, old_mu, lt_mu_, ww, 
-                                  old_mu_, sdl, scn, lt, rc, old_t, c, dl_, 
+                                  old_mu_, sdl, scn, lt, rc, old_t, zl, c, dl_, 
                                   cn_, old_mu_w, lt_, first, out_, rc_, hadw, 
                                   ata, so_, havel, tw, allr, omw, fca, sorw, 
                                   all, old_c, tws, alr, rmq, dl, cn, gen, 
@@ -4024,7 +4066,7 @@ wn_11_st(self) == /\ pc[self] = "wn_11_st"
                                   clear, old_, zlo, zhi, wcnt, lw, lt_u, old_u, 
                                   tc, nwl, wtrs, wake, wty, sor, cor, rmq_, 
                                   late, lt_m, old_m, lt_mu, old_mu, lt_mu_, ww, 
-                                  old_mu_, sdl, scn, lt, rc, old_t, c, dl_, 
+                                  old_mu_, sdl, scn, lt, rc, old_t, zl, c, dl_, 
                                   cn_, old_mu_w, lt_, first, out_, rc_, hadw, 
                                   ata, so_, havel, tw, allr, omw, fca, sorw, 
                                   all, old_c, tws, alr, rmq, dl, cn, gen, 
@@ -4042,7 +4084,7 @@ wn_12_st(self) == /\ pc[self] = "wn_12_st"
                                   old_, zlo, zhi, wcnt, lw, lt_u, old_u, tc, 
                                   nwl, wtrs, wake, wty, sor, cor, rmq_, late, 
                                   lt_m, old_m, lt_mu, old_mu, lt_mu_, ww, 
-                                  old_mu_, sdl, scn, lt, rc, old_t, c, dl_, 
+                                  old_mu_, sdl, scn, lt, rc, old_t, zl, c, dl_, 
                                   cn_, old_mu_w, lt_, first, out_, rc_, hadw, 
                                   ata, so_, havel, tw, allr, omw, fca, sorw, 
                                   all, old_c, tws, alr, rmq, dl, cn, gen, 
@@ -4062,11 +4104,11 @@ wn_12_l(self) == /\ pc[self] = "wn_12_l"
                                  old_u, tc, nwl, wtrs, wake, wty, sor, cor, 
                                  rmq_, late, lt_m, old_m, lt_mu, old_mu, 
                                  lt_mu_, ww, old_mu_, sdl, scn, lt, rc, old_t, 
-                                 c, dl_, cn_, old_mu_w, lt_, first, out_, rc_, 
-                                 hadw, ata, so_, havel, tw, allr, omw, fca, 
-                                 sorw, all, old_c, tws, alr, rmq, dl, cn, gen, 
-                                 old_cv, lt_c, rc_c, so, out, ndl, wcn, old, 
-                                 wq, still2, cvr, dw, k, cdw, ck >>
+                                 zl, c, dl_, cn_, old_mu_w, lt_, first, out_, 
+                                 rc_, hadw, ata, so_, havel, tw, allr, omw, 
+                                 fca, sorw, all, old_c, tws, alr, rmq, dl, cn, 
+                                 gen, old_cv, lt_c, rc_c, so, out, ndl, wcn, 
+                                 old, wq, still2, cvr, dw, k, cdw, ck >>
 
 wn_12a_r(self) == /\ pc[self] = "wn_12a_r"
                   /\ still2' = [still2 EXCEPT ![self] = ~note]
@@ -4081,7 +4123,7 @@ wn_12a_r(self) == /\ pc[self] = "wn_12a_r"
                                   old_, zlo, zhi, wcnt, lw, lt_u, old_u, tc, 
                                   nwl, wtrs, wake, wty, sor, cor, rmq_, late, 
                                   lt_m, old_m, lt_mu, old_mu, lt_mu_, ww, 
-                                  old_mu_, sdl, scn, lt, rc, old_t, c, dl_, 
+                                  old_mu_, sdl, scn, lt, rc, old_t, zl, c, dl_, 
                                   cn_, old_mu_w, lt_, first, out_, rc_, hadw, 
                                   ata, so_, havel, tw, allr, omw, fca, sorw, 
                                   all, old_c, tws, alr, rmq, dl, cn, gen, 
@@ -4105,7 +4147,7 @@ wn_12u_l(self) == /\ pc[self] = "wn_12u_l"
                                   clear, old_, zlo, zhi, wcnt, lw, lt_u, old_u, 
                                   tc, nwl, wtrs, wake, wty, sor, cor, rmq_, 
                                   late, lt_mu, old_mu, lt_mu_, ww, old_mu_, 
-                                  sdl, scn, lt, rc, old_t, c, dl_, cn_, 
+                                  sdl, scn, lt, rc, old_t, zl, c, dl_, cn_, 
                                   old_mu_w, lt_, first, out_, rc_, hadw, ata, 
                                   so_, havel, tw, allr, omw, fca, sorw, all, 
                                   old_c, tws, alr, rmq, dl, cn, gen, old_cv, 
@@ -4131,7 +4173,7 @@ wn_13_l(self) == /\ pc[self] = "wn_13_l"
                                  zhi, wcnt, lw, lt_u, old_u, tc, nwl, wtrs, 
                                  wake, wty, sor, cor, rmq_, late, lt_m, old_m, 
                                  lt_mu, old_mu, lt_mu_, ww, old_mu_, sdl, scn, 
-                                 lt, rc, old_t, c, dl_, cn_, old_mu_w, lt_, 
+                                 lt, rc, old_t, zl, c, dl_, cn_, old_mu_w, lt_, 
                                  first, out_, rc_, hadw, ata, so_, havel, tw, 
                                  allr, omw, fca, sorw, all, old_c, tws, alr, 
                                  rmq, dl, cn, gen, old_cv, lt_c, rc_c, so, out, 
@@ -4163,12 +4205,12 @@ db_1_ld(self) == /\ pc[self] = "db_1_ld"
                                  clear, old_, zlo, zhi, wcnt, lw, lt_u, old_u, 
                                  tc, nwl, wtrs, wake, wty, sor, cor, rmq_, 
                                  late, lt_m, old_m, lt_mu, old_mu, lt_mu_, ww, 
-                                 old_mu_, sdl, scn, lt, rc, old_t, c, dl_, cn_, 
-                                 old_mu_w, lt_, first, out_, rc_, hadw, ata, 
-                                 so_, havel, tw, allr, omw, fca, sorw, all, 
-                                 old_c, tws, alr, rmq, dl, cn, gen, old_cv, 
-                                 lt_c, rc_c, so, out, ndl, wcn, old, wq, 
-                                 still2, cvr, cdw, ck >>
+                                 old_mu_, sdl, scn, lt, rc, old_t, zl, c, dl_, 
+                                 cn_, old_mu_w, lt_, first, out_, rc_, hadw, 
+                                 ata, so_, havel, tw, allr, omw, fca, sorw, 
+                                 all, old_c, tws, alr, rmq, dl, cn, gen, 
+                                 old_cv, lt_c, rc_c, so, out, ndl, wcn, old, 
+                                 wq, still2, cvr, cdw, ck >>
 
 db_2_ld(self) == /\ pc[self] = "db_2_ld"
                  /\ dw' = [dw EXCEPT ![self] = word]
@@ -4184,11 +4226,11 @@ db_2_ld(self) == /\ pc[self] = "db_2_ld"
                                  old_u, tc, nwl, wtrs, wake, wty, sor, cor, 
                                  rmq_, late, lt_m, old_m, lt_mu, old_mu, 
                                  lt_mu_, ww, old_mu_, sdl, scn, lt, rc, old_t, 
-                                 c, dl_, cn_, old_mu_w, lt_, first, out_, rc_, 
-                                 hadw, ata, so_, havel, tw, allr, omw, fca, 
-                                 sorw, all, old_c, tws, alr, rmq, dl, cn, gen, 
-                                 old_cv, lt_c, rc_c, so, out, ndl, wcn, old, 
-                                 wq, still2, cvr, k, cdw, ck >>
+                                 zl, c, dl_, cn_, old_mu_w, lt_, first, out_, 
+                                 rc_, hadw, ata, so_, havel, tw, allr, omw, 
+                                 fca, sorw, all, old_c, tws, alr, rmq, dl, cn, 
+                                 gen, old_cv, lt_c, rc_c, so, out, ndl, wcn, 
+                                 old, wq, still2, cvr, k, cdw, ck >>
 
 db_3_cas(self) == /\ pc[self] = "db_3_cas"
                   /\ IF word = dw[self]
@@ -4205,7 +4247,7 @@ db_3_cas(self) == /\ pc[self] = "db_3_cas"
                                   clear, old_, zlo, zhi, wcnt, lw, lt_u, old_u, 
                                   tc, nwl, wtrs, wake, wty, sor, cor, rmq_, 
                                   late, lt_m, old_m, lt_mu, old_mu, lt_mu_, ww, 
-                                  old_mu_, sdl, scn, lt, rc, old_t, c, dl_, 
+                                  old_mu_, sdl, scn, lt, rc, old_t, zl, c, dl_, 
                                   cn_, old_mu_w, lt_, first, out_, rc_, hadw, 
                                   ata, so_, havel, tw, allr, omw, fca, sorw, 
                                   all, old_c, tws, alr, rmq, dl, cn, gen, 
@@ -4222,11 +4264,11 @@ db_d(self) == /\ pc[self] = "db_d"
                               zhi, wcnt, lw, lt_u, old_u, tc, nwl, wtrs, wake, 
                               wty, sor, cor, rmq_, late, lt_m, old_m, lt_mu, 
                               old_mu, lt_mu_, ww, old_mu_, sdl, scn, lt, rc, 
-                              old_t, c, dl_, cn_, old_mu_w, lt_, first, out_, 
-                              rc_, hadw, ata, so_, havel, tw, allr, omw, fca, 
-                              sorw, all, old_c, tws, alr, rmq, dl, cn, gen, 
-                              old_cv, lt_c, rc_c, so, out, ndl, wcn, old, wq, 
-                              still2, cvr, dw, k, cdw, ck >>
+                              old_t, zl, c, dl_, cn_, old_mu_w, lt_, first, 
+                              out_, rc_, hadw, ata, so_, havel, tw, allr, omw, 
+                              fca, sorw, all, old_c, tws, alr, rmq, dl, cn, 
+                              gen, old_cv, lt_c, rc_c, so, out, ndl, wcn, old, 
+                              wq, still2, cvr, dw, k, cdw, ck >>
 
 db_w_l(self) == /\ pc[self] = "db_w_l"
                 /\ IF k[self] = 0
@@ -4240,9 +4282,9 @@ db_w_l(self) == /\ pc[self] = "db_w_l"
                                 clear, old_, zlo, zhi, wcnt, lw, lt_u, old_u, 
                                 tc, nwl, wtrs, wake, wty, sor, cor, rmq_, late, 
                                 lt_m, old_m, lt_mu, old_mu, lt_mu_, ww, 
-                                old_mu_, sdl, scn, lt, rc, old_t, c, dl_, cn_, 
-                                old_mu_w, lt_, first, out_, rc_, hadw, ata, 
-                                so_, havel, tw, allr, omw, fca, sorw, all, 
+                                old_mu_, sdl, scn, lt, rc, old_t, zl, c, dl_, 
+                                cn_, old_mu_w, lt_, first, out_, rc_, hadw, 
+                                ata, so_, havel, tw, allr, omw, fca, sorw, all, 
                                 old_c, tws, alr, rmq, dl, cn, gen, old_cv, 
                                 lt_c, rc_c, so, out, ndl, wcn, old, wq, still2, 
                                 cvr, dw, k, cdw, ck >>
@@ -4259,11 +4301,11 @@ db_w1_ld(self) == /\ pc[self] = "db_w1_ld"
                                   old_u, tc, nwl, wtrs, wake, wty, sor, cor, 
                                   rmq_, late, lt_m, old_m, lt_mu, old_mu, 
                                   lt_mu_, ww, old_mu_, sdl, scn, lt, rc, old_t, 
-                                  c, dl_, cn_, old_mu_w, lt_, first, out_, rc_, 
-                                  hadw, ata, so_, havel, tw, allr, omw, fca, 
-                                  sorw, all, old_c, tws, alr, rmq, dl, cn, gen, 
-                                  old_cv, lt_c, rc_c, so, out, ndl, wcn, old, 
-                                  wq, still2, cvr, dw, k, cdw, ck >>
+                                  zl, c, dl_, cn_, old_mu_w, lt_, first, out_, 
+                                  rc_, hadw, ata, so_, havel, tw, allr, omw, 
+                                  fca, sorw, all, old_c, tws, alr, rmq, dl, cn, 
+                                  gen, old_cv, lt_c, rc_c, so, out, ndl, wcn, 
+                                  old, wq, still2, cvr, dw, k, cdw, ck >>
 
 db_w2_ld(self) == /\ pc[self] = "db_w2_ld"
                   /\ k' = [k EXCEPT ![self] = k[self] - 1]
@@ -4277,11 +4319,11 @@ db_w2_ld(self) == /\ pc[self] = "db_w2_ld"
                                   old_u, tc, nwl, wtrs, wake, wty, sor, cor, 
                                   rmq_, late, lt_m, old_m, lt_mu, old_mu, 
                                   lt_mu_, ww, old_mu_, sdl, scn, lt, rc, old_t, 
-                                  c, dl_, cn_, old_mu_w, lt_, first, out_, rc_, 
-                                  hadw, ata, so_, havel, tw, allr, omw, fca, 
-                                  sorw, all, old_c, tws, alr, rmq, dl, cn, gen, 
-                                  old_cv, lt_c, rc_c, so, out, ndl, wcn, old, 
-                                  wq, still2, cvr, dw, cdw, ck >>
+                                  zl, c, dl_, cn_, old_mu_w, lt_, first, out_, 
+                                  rc_, hadw, ata, so_, havel, tw, allr, omw, 
+                                  fca, sorw, all, old_c, tws, alr, rmq, dl, cn, 
+                                  gen, old_cv, lt_c, rc_c, so, out, ndl, wcn, 
+                                  old, wq, still2, cvr, dw, cdw, ck >>
 
 db_rel_l(self) == /\ pc[self] = "db_rel_l"
                   /\ IF DbgFixed
@@ -4296,11 +4338,11 @@ db_rel_l(self) == /\ pc[self] = "db_rel_l"
                                   old_u, tc, nwl, wtrs, wake, wty, sor, cor, 
                                   rmq_, late, lt_m, old_m, lt_mu, old_mu, 
                                   lt_mu_, ww, old_mu_, sdl, scn, lt, rc, old_t, 
-                                  c, dl_, cn_, old_mu_w, lt_, first, out_, rc_, 
-                                  hadw, ata, so_, havel, tw, allr, omw, fca, 
-                                  sorw, all, old_c, tws, alr, rmq, dl, cn, gen, 
-                                  old_cv, lt_c, rc_c, so, out, ndl, wcn, old, 
-                                  wq, still2, cvr, dw, k, cdw, ck >>
+                                  zl, c, dl_, cn_, old_mu_w, lt_, first, out_, 
+                                  rc_, hadw, ata, so_, havel, tw, allr, omw, 
+                                  fca, sorw, all, old_c, tws, alr, rmq, dl, cn, 
+                                  gen, old_cv, lt_c, rc_c, so, out, ndl, wcn, 
+                                  old, wq, still2, cvr, dw, k, cdw, ck >>
 
 db_4_st(self) == /\ pc[self] = "db_4_st"
                  /\ word' = dw[self]
@@ -4316,12 +4358,12 @@ db_4_st(self) == /\ pc[self] = "db_4_st"
                                  old_, zlo, zhi, wcnt, lw, lt_u, old_u, tc, 
                                  nwl, wtrs, wake, wty, sor, cor, rmq_, late, 
                                  lt_m, old_m, lt_mu, old_mu, lt_mu_, ww, 
-                                 old_mu_, sdl, scn, lt, rc, old_t, c, dl_, cn_, 
-                                 old_mu_w, lt_, first, out_, rc_, hadw, ata, 
-                                 so_, havel, tw, allr, omw, fca, sorw, all, 
-                                 old_c, tws, alr, rmq, dl, cn, gen, old_cv, 
-                                 lt_c, rc_c, so, out, ndl, wcn, old, wq, 
-                                 still2, cvr, cdw, ck >>
+                                 old_mu_, sdl, scn, lt, rc, old_t, zl, c, dl_, 
+                                 cn_, old_mu_w, lt_, first, out_, rc_, hadw, 
+                                 ata, so_, havel, tw, allr, omw, fca, sorw, 
+                                 all, old_c, tws, alr, rmq, dl, cn, gen, 
+                                 old_cv, lt_c, rc_c, so, out, ndl, wcn, old, 
+                                 wq, still2, cvr, cdw, ck >>
 
 db_5_ld(self) == /\ pc[self] = "db_5_ld"
                  /\ dw' = [dw EXCEPT ![self] = word]
@@ -4335,11 +4377,11 @@ db_5_ld(self) == /\ pc[self] = "db_5_ld"
                                  old_u, tc, nwl, wtrs, wake, wty, sor, cor, 
                                  rmq_, late, lt_m, old_m, lt_mu, old_mu, 
                                  lt_mu_, ww, old_mu_, sdl, scn, lt, rc, old_t, 
-                                 c, dl_, cn_, old_mu_w, lt_, first, out_, rc_, 
-                                 hadw, ata, so_, havel, tw, allr, omw, fca, 
-                                 sorw, all, old_c, tws, alr, rmq, dl, cn, gen, 
-                                 old_cv, lt_c, rc_c, so, out, ndl, wcn, old, 
-                                 wq, still2, cvr, k, cdw, ck >>
+                                 zl, c, dl_, cn_, old_mu_w, lt_, first, out_, 
+                                 rc_, hadw, ata, so_, havel, tw, allr, omw, 
+                                 fca, sorw, all, old_c, tws, alr, rmq, dl, cn, 
+                                 gen, old_cv, lt_c, rc_c, so, out, ndl, wcn, 
+                                 old, wq, still2, cvr, k, cdw, ck >>
 
 db_6_cas(self) == /\ pc[self] = "db_6_cas"
                   /\ IF word = dw[self]
@@ -4358,7 +4400,7 @@ db_6_cas(self) == /\ pc[self] = "db_6_cas"
                                   old_, zlo, zhi, wcnt, lw, lt_u, old_u, tc, 
                                   nwl, wtrs, wake, wty, sor, cor, rmq_, late, 
                                   lt_m, old_m, lt_mu, old_mu, lt_mu_, ww, 
-                                  old_mu_, sdl, scn, lt, rc, old_t, c, dl_, 
+                                  old_mu_, sdl, scn, lt, rc, old_t, zl, c, dl_, 
                                   cn_, old_mu_w, lt_, first, out_, rc_, hadw, 
                                   ata, so_, havel, tw, allr, omw, fca, sorw, 
                                   all, old_c, tws, alr, rmq, dl, cn, gen, 
@@ -4386,12 +4428,12 @@ dc_1_ld(self) == /\ pc[self] = "dc_1_ld"
                                  clear, old_, zlo, zhi, wcnt, lw, lt_u, old_u, 
                                  tc, nwl, wtrs, wake, wty, sor, cor, rmq_, 
                                  late, lt_m, old_m, lt_mu, old_mu, lt_mu_, ww, 
-                                 old_mu_, sdl, scn, lt, rc, old_t, c, dl_, cn_, 
-                                 old_mu_w, lt_, first, out_, rc_, hadw, ata, 
-                                 so_, havel, tw, allr, omw, fca, sorw, all, 
-                                 old_c, tws, alr, rmq, dl, cn, gen, old_cv, 
-                                 lt_c, rc_c, so, out, ndl, wcn, old, wq, 
-                                 still2, cvr, dw, k >>
+                                 old_mu_, sdl, scn, lt, rc, old_t, zl, c, dl_, 
+                                 cn_, old_mu_w, lt_, first, out_, rc_, hadw, 
+                                 ata, so_, havel, tw, allr, omw, fca, sorw, 
+                                 all, old_c, tws, alr, rmq, dl, cn, gen, 
+                                 old_cv, lt_c, rc_c, so, out, ndl, wcn, old, 
+                                 wq, still2, cvr, dw, k >>
 
 dc_2_ld(self) == /\ pc[self] = "dc_2_ld"
                  /\ cdw' = [cdw EXCEPT ![self] = cvword]
@@ -4407,11 +4449,11 @@ dc_2_ld(self) == /\ pc[self] = "dc_2_ld"
                                  old_u, tc, nwl, wtrs, wake, wty, sor, cor, 
                                  rmq_, late, lt_m, old_m, lt_mu, old_mu, 
                                  lt_mu_, ww, old_mu_, sdl, scn, lt, rc, old_t, 
-                                 c, dl_, cn_, old_mu_w, lt_, first, out_, rc_, 
-                                 hadw, ata, so_, havel, tw, allr, omw, fca, 
-                                 sorw, all, old_c, tws, alr, rmq, dl, cn, gen, 
-                                 old_cv, lt_c, rc_c, so, out, ndl, wcn, old, 
-                                 wq, still2, cvr, dw, k, ck >>
+                                 zl, c, dl_, cn_, old_mu_w, lt_, first, out_, 
+                                 rc_, hadw, ata, so_, havel, tw, allr, omw, 
+                                 fca, sorw, all, old_c, tws, alr, rmq, dl, cn, 
+                                 gen, old_cv, lt_c, rc_c, so, out, ndl, wcn, 
+                                 old, wq, still2, cvr, dw, k, ck >>
 
 dc_3_cas(self) == /\ pc[self] = "dc_3_cas"
                   /\ IF cvword = cdw[self]
@@ -4428,7 +4470,7 @@ dc_3_cas(self) == /\ pc[self] = "dc_3_cas"
                                   old_, zlo, zhi, wcnt, lw, lt_u, old_u, tc, 
                                   nwl, wtrs, wake, wty, sor, cor, rmq_, late, 
                                   lt_m, old_m, lt_mu, old_mu, lt_mu_, ww, 
-                                  old_mu_, sdl, scn, lt, rc, old_t, c, dl_, 
+                                  old_mu_, sdl, scn, lt, rc, old_t, zl, c, dl_, 
                                   cn_, old_mu_w, lt_, first, out_, rc_, hadw, 
                                   ata, so_, havel, tw, allr, omw, fca, sorw, 
                                   all, old_c, tws, alr, rmq, dl, cn, gen, 
@@ -4445,11 +4487,11 @@ dc_d(self) == /\ pc[self] = "dc_d"
                               zhi, wcnt, lw, lt_u, old_u, tc, nwl, wtrs, wake, 
                               wty, sor, cor, rmq_, late, lt_m, old_m, lt_mu, 
                               old_mu, lt_mu_, ww, old_mu_, sdl, scn, lt, rc, 
-                              old_t, c, dl_, cn_, old_mu_w, lt_, first, out_, 
-                              rc_, hadw, ata, so_, havel, tw, allr, omw, fca, 
-                              sorw, all, old_c, tws, alr, rmq, dl, cn, gen, 
-                              old_cv, lt_c, rc_c, so, out, ndl, wcn, old, wq, 
-                              still2, cvr, dw, k, cdw, ck >>
+                              old_t, zl, c, dl_, cn_, old_mu_w, lt_, first, 
+                              out_, rc_, hadw, ata, so_, havel, tw, allr, omw, 
+                              fca, sorw, all, old_c, tws, alr, rmq, dl, cn, 
+                              gen, old_cv, lt_c, rc_c, so, out, ndl, wcn, old, 
+                              wq, still2, cvr, dw, k, cdw, ck >>
 
 dc_w_l(self) == /\ pc[self] = "dc_w_l"
                 /\ IF ck[self] = 0
@@ -4463,9 +4505,9 @@ dc_w_l(self) == /\ pc[self] = "dc_w_l"
                                 clear, old_, zlo, zhi, wcnt, lw, lt_u, old_u, 
                                 tc, nwl, wtrs, wake, wty, sor, cor, rmq_, late, 
                                 lt_m, old_m, lt_mu, old_mu, lt_mu_, ww, 
-                                old_mu_, sdl, scn, lt, rc, old_t, c, dl_, cn_, 
-                                old_mu_w, lt_, first, out_, rc_, hadw, ata, 
-                                so_, havel, tw, allr, omw, fca, sorw, all, 
+                                old_mu_, sdl, scn, lt, rc, old_t, zl, c, dl_, 
+                                cn_, old_mu_w, lt_, first, out_, rc_, hadw, 
+                                ata, so_, havel, tw, allr, omw, fca, sorw, all, 
                                 old_c, tws, alr, rmq, dl, cn, gen, old_cv, 
                                 lt_c, rc_c, so, out, ndl, wcn, old, wq, still2, 
                                 cvr, dw, k, cdw, ck >>
@@ -4482,11 +4524,11 @@ dc_w1_ld(self) == /\ pc[self] = "dc_w1_ld"
                                   old_u, tc, nwl, wtrs, wake, wty, sor, cor, 
                                   rmq_, late, lt_m, old_m, lt_mu, old_mu, 
                                   lt_mu_, ww, old_mu_, sdl, scn, lt, rc, old_t, 
-                                  c, dl_, cn_, old_mu_w, lt_, first, out_, rc_, 
-                                  hadw, ata, so_, havel, tw, allr, omw, fca, 
-                                  sorw, all, old_c, tws, alr, rmq, dl, cn, gen, 
-                                  old_cv, lt_c, rc_c, so, out, ndl, wcn, old, 
-                                  wq, still2, cvr, dw, k, cdw, ck >>
+                                  zl, c, dl_, cn_, old_mu_w, lt_, first, out_, 
+                                  rc_, hadw, ata, so_, havel, tw, allr, omw, 
+                                  fca, sorw, all, old_c, tws, alr, rmq, dl, cn, 
+                                  gen, old_cv, lt_c, rc_c, so, out, ndl, wcn, 
+                                  old, wq, still2, cvr, dw, k, cdw, ck >>
 
 dc_w2_ld(self) == /\ pc[self] = "dc_w2_ld"
                   /\ ck' = [ck EXCEPT ![self] = ck[self] - 1]
@@ -4500,11 +4542,11 @@ dc_w2_ld(self) == /\ pc[self] = "dc_w2_ld"
                                   old_u, tc, nwl, wtrs, wake, wty, sor, cor, 
                                   rmq_, late, lt_m, old_m, lt_mu, old_mu, 
                                   lt_mu_, ww, old_mu_, sdl, scn, lt, rc, old_t, 
-                                  c, dl_, cn_, old_mu_w, lt_, first, out_, rc_, 
-                                  hadw, ata, so_, havel, tw, allr, omw, fca, 
-                                  sorw, all, old_c, tws, alr, rmq, dl, cn, gen, 
-                                  old_cv, lt_c, rc_c, so, out, ndl, wcn, old, 
-                                  wq, still2, cvr, dw, k, cdw >>
+                                  zl, c, dl_, cn_, old_mu_w, lt_, first, out_, 
+                                  rc_, hadw, ata, so_, havel, tw, allr, omw, 
+                                  fca, sorw, all, old_c, tws, alr, rmq, dl, cn, 
+                                  gen, old_cv, lt_c, rc_c, so, out, ndl, wcn, 
+                                  old, wq, still2, cvr, dw, k, cdw >>
 
 dc_4_st(self) == /\ pc[self] = "dc_4_st"
                  /\ cvword' = cdw[self]
@@ -4520,7 +4562,7 @@ dc_4_st(self) == /\ pc[self] = "dc_4_st"
                                  zhi, wcnt, lw, lt_u, old_u, tc, nwl, wtrs, 
                                  wake, wty, sor, cor, rmq_, late, lt_m, old_m, 
                                  lt_mu, old_mu, lt_mu_, ww, old_mu_, sdl, scn, 
-                                 lt, rc, old_t, c, dl_, cn_, old_mu_w, lt_, 
+                                 lt, rc, old_t, zl, c, dl_, cn_, old_mu_w, lt_, 
                                  first, out_, rc_, hadw, ata, so_, havel, tw, 
                                  allr, omw, fca, sorw, all, old_c, tws, alr, 
                                  rmq, dl, cn, gen, old_cv, lt_c, rc_c, so, out, 
@@ -5428,8 +5470,8 @@ c0(self) == /\ pc[self] = "c0"
                             wc, sc, nww, nwsem, now, sres, picked, nq, nwalive, 
                             taint3, lt_l, clear, old_, zlo, zhi, wcnt, lw, 
                             lt_u, old_u, tc, nwl, wtrs, wake, wty, sor, cor, 
-                            rmq_, late, sdl, scn, lt, rc, old_t, tw, allr, omw, 
-                            fca, sorw >>
+                            rmq_, late, sdl, scn, lt, rc, old_t, zl, tw, allr, 
+                            omw, fca, sorw >>
 
 thr(self) == c0(self)
 
@@ -5463,7 +5505,7 @@ TickUseful == \E u \in Threads : \/ (pc[u] = "sw_2_pd" /\ sdl[u] > now)
                                  \/ (pc[u] = "wn_7_pd" /\ ndl[u] > now)
 Tick == /\ now < MaxNow /\ TickUseful
         /\ now' = now + 1
-        /\ UNCHANGED <<pc, word, queue, cvword, cvq, waiting, rmc, cvmu, wl, wc, sc, nww, nwsem, nww2, nreg2, sem, data, note, nreg, held, ret, sres, picked, sleeps, inlock, ip, mw, pool, nalloc, nq, muFreed, refs, nwalive, taint3, stack, lt_l, clear, old_, zlo, zhi, wcnt, lw, lt_u, old_u, tc, nwl, wtrs, wake, wty, sor, cor, rmq_, late, lt_m, old_m, lt_mu, old_mu, lt_mu_, ww, old_mu_, sdl, scn, lt, rc, old_t, c, dl_, cn_, old_mu_w, lt_, first, out_, rc_, hadw, ata, so_, havel, tw, allr, omw, fca, sorw, all, old_c, tws, alr, rmq, dl, cn, gen, old_cv, lt_c, rc_c, so, out, ndl, wcn, old, wq, still2, cvr, dw, k, cdw, ck>>
+        /\ UNCHANGED <<pc, word, queue, cvword, cvq, waiting, rmc, cvmu, wl, wc, sc, nww, nwsem, nww2, nreg2, sem, data, note, nreg, held, ret, sres, picked, sleeps, inlock, ip, mw, pool, nalloc, nq, muFreed, refs, nwalive, taint3, stack, lt_l, clear, old_, zlo, zhi, wcnt, lw, lt_u, old_u, tc, nwl, wtrs, wake, wty, sor, cor, rmq_, late, lt_m, old_m, lt_mu, old_mu, lt_mu_, ww, old_mu_, sdl, scn, lt, rc, old_t, zl, c, dl_, cn_, old_mu_w, lt_, first, out_, rc_, hadw, ata, so_, havel, tw, allr, omw, fca, sorw, all, old_c, tws, alr, rmq, dl, cn, gen, old_cv, lt_c, rc_c, so, out, ndl, wcn, old, wq, still2, cvr, dw, k, cdw, ck>>
 \* Local steps (no shared operation) commute with every step of other threads, so they are taken
 \* eagerly: a thread at a local label runs before anything else happens.
 LocalPending == {u \in Threads : pc[u] \in LocalLabels}
@@ -5512,7 +5554,7 @@ BadSet == {x \in {"Excl", "WordAgrees", "PickedReportsWake", "RetHonest", "NoDea
              \/ (x = "RetHonest" /\ ~RetHonest) \/ (x = "NoDeadRecordTouch" /\ ~NoDeadRecordTouch)
              \/ (x = "NoTouchAfterFree" /\ ~NoTouchAfterFree) \/ (x = "SleepBound" /\ ~SleepBound)}
 \* BEGIN GENERATED (tools/mkspec.py)
-KindMap == [x \in {"c0", "cs_1_ld", "cs_2_d", "cs_2_ld", "cs_3_cas", "cs_3b_l", "cs_4_st", "cs_f_st", "cs_f_v", "cs_rm_cas", "cs_rm_ld", "cs_rmq_l", "cw_10_d", "cw_10_ld", "cw_11_cas", "cw_12_ld", "cw_13_ld", "cw_14_cas", "cw_14_ld", "cw_14_st", "cw_15_st", "cw_16_d", "cw_16_ld", "cw_17_l", "cw_18_l", "cw_1_st", "cw_2_ld", "cw_3_d", "cw_3_ld", "cw_4_cas", "cw_5_ld", "cw_6_st", "cw_7_ld", "cw_8b_l", "cw_9_ld", "db_1_ld", "db_2_ld", "db_3_cas", "db_4_st", "db_5_ld", "db_6_cas", "db_d", "db_rel_l", "db_w1_ld", "db_w2_ld", "db_w_l", "dc_1_ld", "dc_2_ld", "dc_3_cas", "dc_4_st", "dc_d", "dc_w1_ld", "dc_w2_ld", "dc_w_l", "lk_1_cas", "lk_2_ld", "lk_3_cas", "ls_1_ld", "ls_2_cas", "ls_3_cas", "ls_4_st", "ls_5_ld", "ls_6_cas", "ls_7_ld", "ls_8_p", "ls_d", "mw_10_ld", "mw_11_l", "mw_11b_l", "mw_12_d", "mw_12_ld", "mw_13_l", "mw_14_l", "mw_1_ld", "mw_2_st", "mw_3_ld", "mw_4_d", "mw_4_ld", "mw_5_cas", "mw_6_ld", "mw_7_cas", "mw_8_ld", "mw_9b_l", "sw_1_r", "sw_2_pd", "ta_1_ld", "ta_2_cas", "ta_3_cas", "ta_5_ld", "ta_6_ld", "ta_7_cas", "ta_7_ld", "ta_8_st", "ta_8b_st", "ta_9_st", "ta_d", "tl_1_cas", "tl_2_ld", "tl_3_cas", "ul_1_cas", "ul_2_ld", "ul_3_cas", "us_1_ld", "us_2_cas", "us_3_cas", "us_4_ld", "us_5_cas", "us_6_st", "us_7_v", "us_after_l", "us_d", "us_merge_l", "us_pass_l", "us_rel_l", "us_rm_cas", "us_rm_ld", "us_rmq_l", "us_rs_cas", "us_rs_ld", "us_scan_l", "us_ts_cas", "us_ts_d", "us_ts_ld", "wn_0_l", "wn_0_r", "wn_10_ld", "wn_11_st", "wn_12_l", "wn_12_st", "wn_12a_r", "wn_12u_l", "wn_13_l", "wn_1_st", "wn_2_d", "wn_2_ld", "wn_3_cas", "wn_4_st", "wn_5_l", "wn_5_st", "wn_5a_st", "wn_5b_r", "wn_5u_l", "wn_6_l", "wn_6_ld", "wn_6a_r", "wn_7_pd", "wn_8_d", "wn_8_ld", "wn_9_cas", "ww_0_l", "ww_1_ld", "ww_2_cas", "ww_3_ld", "ww_4_cas", "ww_4b_l", "ww_5_st", "ww_6_v", "Done"} |-> CASE x = "c0" -> "c" [] x = "cs_1_ld" -> "ld" [] x = "cs_2_d" -> "d" [] x = "cs_2_ld" -> "ld" [] x = "cs_3_cas" -> "cas" [] x = "cs_3b_l" -> "local" [] x = "cs_4_st" -> "st" [] x = "cs_f_st" -> "st" [] x = "cs_f_v" -> "v" [] x = "cs_rm_cas" -> "cas" [] x = "cs_rm_ld" -> "ld" [] x = "cs_rmq_l" -> "local" [] x = "cw_10_d" -> "d" [] x = "cw_10_ld" -> "ld" [] x = "cw_11_cas" -> "cas" [] x = "cw_12_ld" -> "ld" [] x = "cw_13_ld" -> "ld" [] x = "cw_14_cas" -> "cas" [] x = "cw_14_ld" -> "ld" [] x = "cw_14_st" -> "st" [] x = "cw_15_st" -> "st" [] x = "cw_16_d" -> "d" [] x = "cw_16_ld" -> "ld" [] x = "cw_17_l" -> "local" [] x = "cw_18_l" -> "local" [] x = "cw_1_st" -> "st" [] x = "cw_2_ld" -> "ld" [] x = "cw_3_d" -> "d" [] x = "cw_3_ld" -> "ld" [] x = "cw_4_cas" -> "cas" [] x = "cw_5_ld" -> "ld" [] x = "cw_6_st" -> "st" [] x = "cw_7_ld" -> "ld" [] x = "cw_8b_l" -> "local" [] x = "cw_9_ld" -> "ld" [] x = "db_1_ld" -> "ld" [] x = "db_2_ld" -> "ld" [] x = "db_3_cas" -> "cas" [] x = "db_4_st" -> "st" [] x = "db_5_ld" -> "ld" [] x = "db_6_cas" -> "cas" [] x = "db_d" -> "d" [] x = "db_rel_l" -> "local" [] x = "db_w1_ld" -> "ld" [] x = "db_w2_ld" -> "ld" [] x = "db_w_l" -> "local" [] x = "dc_1_ld" -> "ld" [] x = "dc_2_ld" -> "ld" [] x = "dc_3_cas" -> "cas" [] x = "dc_4_st" -> "st" [] x = "dc_d" -> "d" [] x = "dc_w1_ld" -> "ld" [] x = "dc_w2_ld" -> "ld" [] x = "dc_w_l" -> "local" [] x = "lk_1_cas" -> "cas" [] x = "lk_2_ld" -> "ld" [] x = "lk_3_cas" -> "cas" [] x = "ls_1_ld" -> "ld" [] x = "ls_2_cas" -> "cas" [] x = "ls_3_cas" -> "cas" [] x = "ls_4_st" -> "st" [] x = "ls_5_ld" -> "ld" [] x = "ls_6_cas" -> "cas" [] x = "ls_7_ld" -> "ld" [] x = "ls_8_p" -> "p" [] x = "ls_d" -> "d" [] x = "mw_10_ld" -> "ld" [] x = "mw_11_l" -> "local" [] x = "mw_11b_l" -> "local" [] x = "mw_12_d" -> "d" [] x = "mw_12_ld" -> "ld" [] x = "mw_13_l" -> "local" [] x = "mw_14_l" -> "local" [] x = "mw_1_ld" -> "ld" [] x = "mw_2_st" -> "st" [] x = "mw_3_ld" -> "ld" [] x = "mw_4_d" -> "d" [] x = "mw_4_ld" -> "ld" [] x = "mw_5_cas" -> "cas" [] x = "mw_6_ld" -> "ld" [] x = "mw_7_cas" -> "cas" [] x = "mw_8_ld" -> "ld" [] x = "mw_9b_l" -> "local" [] x = "sw_1_r" -> "region" [] x = "sw_2_pd" -> "pd" [] x = "ta_1_ld" -> "ld" [] x = "ta_2_cas" -> "cas" [] x = "ta_3_cas" -> "cas" [] x = "ta_5_ld" -> "ld" [] x = "ta_6_ld" -> "ld" [] x = "ta_7_cas" -> "cas" [] x = "ta_7_ld" -> "ld" [] x = "ta_8_st" -> "st" [] x = "ta_8b_st" -> "st" [] x = "ta_9_st" -> "st" [] x = "ta_d" -> "d" [] x = "tl_1_cas" -> "cas" [] x = "tl_2_ld" -> "ld" [] x = "tl_3_cas" -> "cas" [] x = "ul_1_cas" -> "cas" [] x = "ul_2_ld" -> "ld" [] x = "ul_3_cas" -> "cas" [] x = "us_1_ld" -> "ld" [] x = "us_2_cas" -> "cas" [] x = "us_3_cas" -> "cas" [] x = "us_4_ld" -> "ld" [] x = "us_5_cas" -> "cas" [] x = "us_6_st" -> "st" [] x = "us_7_v" -> "v" [] x = "us_after_l" -> "local" [] x = "us_d" -> "d" [] x = "us_merge_l" -> "local" [] x = "us_pass_l" -> "local" [] x = "us_rel_l" -> "local" [] x = "us_rm_cas" -> "cas" [] x = "us_rm_ld" -> "ld" [] x = "us_rmq_l" -> "local" [] x = "us_rs_cas" -> "cas" [] x = "us_rs_ld" -> "ld" [] x = "us_scan_l" -> "local" [] x = "us_ts_cas" -> "cas" [] x = "us_ts_d" -> "d" [] x = "us_ts_ld" -> "ld" [] x = "wn_0_l" -> "local" [] x = "wn_0_r" -> "region" [] x = "wn_10_ld" -> "ld" [] x = "wn_11_st" -> "st" [] x = "wn_12_l" -> "local" [] x = "wn_12_st" -> "st" [] x = "wn_12a_r" -> "region" [] x = "wn_12u_l" -> "local" [] x = "wn_13_l" -> "local" [] x = "wn_1_st" -> "st" [] x = "wn_2_d" -> "d" [] x = "wn_2_ld" -> "ld" [] x = "wn_3_cas" -> "cas" [] x = "wn_4_st" -> "st" [] x = "wn_5_l" -> "local" [] x = "wn_5_st" -> "st" [] x = "wn_5a_st" -> "st" [] x = "wn_5b_r" -> "region" [] x = "wn_5u_l" -> "local" [] x = "wn_6_l" -> "local" [] x = "wn_6_ld" -> "ld" [] x = "wn_6a_r" -> "region" [] x = "wn_7_pd" -> "pd" [] x = "wn_8_d" -> "d" [] x = "wn_8_ld" -> "ld" [] x = "wn_9_cas" -> "cas" [] x = "ww_0_l" -> "local" [] x = "ww_1_ld" -> "ld" [] x = "ww_2_cas" -> "cas" [] x = "ww_3_ld" -> "ld" [] x = "ww_4_cas" -> "cas" [] x = "ww_4b_l" -> "local" [] x = "ww_5_st" -> "st" [] x = "ww_6_v" -> "v" [] x = "Done" -> "none"]
+KindMap == [x \in {"c0", "cs_1_ld", "cs_2_d", "cs_2_ld", "cs_3_cas", "cs_3b_l", "cs_4_st", "cs_f_st", "cs_f_v", "cs_rm_cas", "cs_rm_ld", "cs_rmq_l", "cw_10_d", "cw_10_ld", "cw_11_cas", "cw_12_ld", "cw_13_ld", "cw_14_cas", "cw_14_ld", "cw_14_st", "cw_15_st", "cw_16_d", "cw_16_ld", "cw_17_l", "cw_18_l", "cw_1_st", "cw_2_ld", "cw_3_d", "cw_3_ld", "cw_4_cas", "cw_5_ld", "cw_6_st", "cw_7_ld", "cw_8b_l", "cw_9_ld", "db_1_ld", "db_2_ld", "db_3_cas", "db_4_st", "db_5_ld", "db_6_cas", "db_d", "db_rel_l", "db_w1_ld", "db_w2_ld", "db_w_l", "dc_1_ld", "dc_2_ld", "dc_3_cas", "dc_4_st", "dc_d", "dc_w1_ld", "dc_w2_ld", "dc_w_l", "lk_1_cas", "lk_2_ld", "lk_3_cas", "ls_1_ld", "ls_2_cas", "ls_3_cas", "ls_4_st", "ls_5_ld", "ls_6_cas", "ls_7_ld", "ls_8_p", "ls_d", "mw_10_ld", "mw_11_l", "mw_11b_l", "mw_12_d", "mw_12_ld", "mw_13_l", "mw_14_l", "mw_1_ld", "mw_2_st", "mw_3_ld", "mw_4_d", "mw_4_ld", "mw_5_cas", "mw_6_ld", "mw_7_cas", "mw_8_ld", "mw_9b_l", "sw_1_r", "sw_2_pd", "ta_1_ld", "ta_2_cas", "ta_3_cas", "ta_4_ld", "ta_5_ld", "ta_6_ld", "ta_7_cas", "ta_7_ld", "ta_8_st", "ta_8b_st", "ta_9_st", "ta_d", "tl_1_cas", "tl_2_ld", "tl_3_cas", "ul_1_cas", "ul_2_ld", "ul_3_cas", "us_1_ld", "us_2_cas", "us_3_cas", "us_4_ld", "us_5_cas", "us_6_st", "us_7_v", "us_after_l", "us_d", "us_merge_l", "us_pass_l", "us_rel_l", "us_rm_cas", "us_rm_ld", "us_rmq_l", "us_rs_cas", "us_rs_ld", "us_scan_l", "us_ts_cas", "us_ts_d", "us_ts_ld", "wn_0_l", "wn_0_r", "wn_10_ld", "wn_11_st", "wn_12_l", "wn_12_st", "wn_12a_r", "wn_12u_l", "wn_13_l", "wn_1_st", "wn_2_d", "wn_2_ld", "wn_3_cas", "wn_4_st", "wn_5_l", "wn_5_st", "wn_5a_st", "wn_5b_r", "wn_5u_l", "wn_6_l", "wn_6_ld", "wn_6a_r", "wn_7_pd", "wn_8_d", "wn_8_ld", "wn_9_cas", "ww_0_l", "ww_1_ld", "ww_2_cas", "ww_3_ld", "ww_4_cas", "ww_4b_l", "ww_5_st", "ww_6_v", "Done"} |-> CASE x = "c0" -> "c" [] x = "cs_1_ld" -> "ld" [] x = "cs_2_d" -> "d" [] x = "cs_2_ld" -> "ld" [] x = "cs_3_cas" -> "cas" [] x = "cs_3b_l" -> "local" [] x = "cs_4_st" -> "st" [] x = "cs_f_st" -> "st" [] x = "cs_f_v" -> "v" [] x = "cs_rm_cas" -> "cas" [] x = "cs_rm_ld" -> "ld" [] x = "cs_rmq_l" -> "local" [] x = "cw_10_d" -> "d" [] x = "cw_10_ld" -> "ld" [] x = "cw_11_cas" -> "cas" [] x = "cw_12_ld" -> "ld" [] x = "cw_13_ld" -> "ld" [] x = "cw_14_cas" -> "cas" [] x = "cw_14_ld" -> "ld" [] x = "cw_14_st" -> "st" [] x = "cw_15_st" -> "st" [] x = "cw_16_d" -> "d" [] x = "cw_16_ld" -> "ld" [] x = "cw_17_l" -> "local" [] x = "cw_18_l" -> "local" [] x = "cw_1_st" -> "st" [] x = "cw_2_ld" -> "ld" [] x = "cw_3_d" -> "d" [] x = "cw_3_ld" -> "ld" [] x = "cw_4_cas" -> "cas" [] x = "cw_5_ld" -> "ld" [] x = "cw_6_st" -> "st" [] x = "cw_7_ld" -> "ld" [] x = "cw_8b_l" -> "local" [] x = "cw_9_ld" -> "ld" [] x = "db_1_ld" -> "ld" [] x = "db_2_ld" -> "ld" [] x = "db_3_cas" -> "cas" [] x = "db_4_st" -> "st" [] x = "db_5_ld" -> "ld" [] x = "db_6_cas" -> "cas" [] x = "db_d" -> "d" [] x = "db_rel_l" -> "local" [] x = "db_w1_ld" -> "ld" [] x = "db_w2_ld" -> "ld" [] x = "db_w_l" -> "local" [] x = "dc_1_ld" -> "ld" [] x = "dc_2_ld" -> "ld" [] x = "dc_3_cas" -> "cas" [] x = "dc_4_st" -> "st" [] x = "dc_d" -> "d" [] x = "dc_w1_ld" -> "ld" [] x = "dc_w2_ld" -> "ld" [] x = "dc_w_l" -> "local" [] x = "lk_1_cas" -> "cas" [] x = "lk_2_ld" -> "ld" [] x = "lk_3_cas" -> "cas" [] x = "ls_1_ld" -> "ld" [] x = "ls_2_cas" -> "cas" [] x = "ls_3_cas" -> "cas" [] x = "ls_4_st" -> "st" [] x = "ls_5_ld" -> "ld" [] x = "ls_6_cas" -> "cas" [] x = "ls_7_ld" -> "ld" [] x = "ls_8_p" -> "p" [] x = "ls_d" -> "d" [] x = "mw_10_ld" -> "ld" [] x = "mw_11_l" -> "local" [] x = "mw_11b_l" -> "local" [] x = "mw_12_d" -> "d" [] x = "mw_12_ld" -> "ld" [] x = "mw_13_l" -> "local" [] x = "mw_14_l" -> "local" [] x = "mw_1_ld" -> "ld" [] x = "mw_2_st" -> "st" [] x = "mw_3_ld" -> "ld" [] x = "mw_4_d" -> "d" [] x = "mw_4_ld" -> "ld" [] x = "mw_5_cas" -> "cas" [] x = "mw_6_ld" -> "ld" [] x = "mw_7_cas" -> "cas" [] x = "mw_8_ld" -> "ld" [] x = "mw_9b_l" -> "local" [] x = "sw_1_r" -> "region" [] x = "sw_2_pd" -> "pd" [] x = "ta_1_ld" -> "ld" [] x = "ta_2_cas" -> "cas" [] x = "ta_3_cas" -> "cas" [] x = "ta_4_ld" -> "ld" [] x = "ta_5_ld" -> "ld" [] x = "ta_6_ld" -> "ld" [] x = "ta_7_cas" -> "cas" [] x = "ta_7_ld" -> "ld" [] x = "ta_8_st" -> "st" [] x = "ta_8b_st" -> "st" [] x = "ta_9_st" -> "st" [] x = "ta_d" -> "d" [] x = "tl_1_cas" -> "cas" [] x = "tl_2_ld" -> "ld" [] x = "tl_3_cas" -> "cas" [] x = "ul_1_cas" -> "cas" [] x = "ul_2_ld" -> "ld" [] x = "ul_3_cas" -> "cas" [] x = "us_1_ld" -> "ld" [] x = "us_2_cas" -> "cas" [] x = "us_3_cas" -> "cas" [] x = "us_4_ld" -> "ld" [] x = "us_5_cas" -> "cas" [] x = "us_6_st" -> "st" [] x = "us_7_v" -> "v" [] x = "us_after_l" -> "local" [] x = "us_d" -> "d" [] x = "us_merge_l" -> "local" [] x = "us_pass_l" -> "local" [] x = "us_rel_l" -> "local" [] x = "us_rm_cas" -> "cas" [] x = "us_rm_ld" -> "ld" [] x = "us_rmq_l" -> "local" [] x = "us_rs_cas" -> "cas" [] x = "us_rs_ld" -> "ld" [] x = "us_scan_l" -> "local" [] x = "us_ts_cas" -> "cas" [] x = "us_ts_d" -> "d" [] x = "us_ts_ld" -> "ld" [] x = "wn_0_l" -> "local" [] x = "wn_0_r" -> "region" [] x = "wn_10_ld" -> "ld" [] x = "wn_11_st" -> "st" [] x = "wn_12_l" -> "local" [] x = "wn_12_st" -> "st" [] x = "wn_12a_r" -> "region" [] x = "wn_12u_l" -> "local" [] x = "wn_13_l" -> "local" [] x = "wn_1_st" -> "st" [] x = "wn_2_d" -> "d" [] x = "wn_2_ld" -> "ld" [] x = "wn_3_cas" -> "cas" [] x = "wn_4_st" -> "st" [] x = "wn_5_l" -> "local" [] x = "wn_5_st" -> "st" [] x = "wn_5a_st" -> "st" [] x = "wn_5b_r" -> "region" [] x = "wn_5u_l" -> "local" [] x = "wn_6_l" -> "local" [] x = "wn_6_ld" -> "ld" [] x = "wn_6a_r" -> "region" [] x = "wn_7_pd" -> "pd" [] x = "wn_8_d" -> "d" [] x = "wn_8_ld" -> "ld" [] x = "wn_9_cas" -> "cas" [] x = "ww_0_l" -> "local" [] x = "ww_1_ld" -> "ld" [] x = "ww_2_cas" -> "cas" [] x = "ww_3_ld" -> "ld" [] x = "ww_4_cas" -> "cas" [] x = "ww_4b_l" -> "local" [] x = "ww_5_st" -> "st" [] x = "ww_6_v" -> "v" [] x = "Done" -> "none"]
 ResetAll == (* Global variables *)
         /\ word' = 0
         /\ queue' = <<>>
@@ -5585,6 +5627,7 @@ ResetAll == (* Global variables *)
         /\ lt' = [ self \in ProcSet |-> defaultInitValue]
         /\ rc' = [ self \in ProcSet |-> defaultInitValue]
         /\ old_t' = [ self \in ProcSet |-> 0]
+        /\ zl' = [ self \in ProcSet |-> WZLO]
         (* Procedure mu_wait *)
         /\ c' = [ self \in ProcSet |-> defaultInitValue]
         /\ dl_' = [ self \in ProcSet |-> defaultInitValue]
